@@ -57,9 +57,9 @@ theorem parse_print_whole_partial {e : Expr} (h : WF false e) :
 example : WF false
     (.binop (.call (.var "f") [.intLit 1, .binop (.paren (.binop (.call (.var "g") []) "+" (.var "x"))) "*" (.intLit 2)])
       "-" (.intLit (-3))) := by
-  have i1 : IntTok (toString (1 : Int)) 1 := ⟨by decide, by decide, by decide, by decide, by decide⟩
-  have i2 : IntTok (toString (2 : Int)) 2 := ⟨by decide, by decide, by decide, by decide, by decide⟩
-  have i3 : IntTok (toString (-3 : Int)) (-3) := ⟨by decide, by decide, by decide, by decide, by decide⟩
+  have i1 : I64 (1) := ⟨by decide, by decide⟩
+  have i2 : I64 (2) := ⟨by decide, by decide⟩
+  have i3 : I64 (-3) := ⟨by decide, by decide⟩
   have vf : ValidName "f" := ⟨by decide, by decide, by decide, by decide⟩
   have vg : ValidName "g" := ⟨by decide, by decide, by decide, by decide⟩
   have vx : ValidName "x" := ⟨by decide, by decide, by decide, by decide⟩
@@ -72,3 +72,4704 @@ example : WF false
     intro a ha; simp at ha
 
 end C33
+
+/-! ## The statement-level round trip (`RT`) -/
+
+namespace RT
+open Parse Print ParseLemmas
+set_option linter.unusedSimpArgs false
+set_option linter.unusedSectionVars false
+set_option linter.unusedVariables false
+
+/-! ### Total-correctness triples -/
+
+/-- `m` run from `s` returns (no panic, enough fuel) and `Q` holds of the result. -/
+def Ok {α} (m : P α) (s : St) (Q : α → St → Prop) : Prop := ∃ a s', m s = .ok a s' ∧ Q a s'
+
+theorem ok_bind {α β} (m : P α) (f : α → P β) (Q : β → St → Prop) (s : St) :
+    Ok (m >>= f) s Q ↔ Ok m s (fun a s' => Ok (f a) s' Q) := by
+  simp only [Ok, bind_apply, P.bind]
+  constructor
+  · rintro ⟨b, s2, h, hq⟩
+    cases hm : m s with
+    | ok a s1 => rw [hm] at h; exact ⟨a, s1, rfl, b, s2, h, hq⟩
+    | panic p => rw [hm] at h; cases h
+    | outOfFuel => rw [hm] at h; cases h
+  · rintro ⟨a, s1, hm, b, s2, h, hq⟩
+    exact ⟨b, s2, by rw [hm]; exact h, hq⟩
+
+theorem ok_det {α} {m : P α} {s s' : St} {a : α} (h : m s = .ok a s') (Q : α → St → Prop) : Ok m s Q ↔ Q a s' := by
+  constructor
+  · rintro ⟨b, s2, h2, hq⟩; rw [h] at h2; cases h2; exact hq
+  · intro hq; exact ⟨a, s', h, hq⟩
+
+theorem ok_pure {α} (a : α) (Q : α → St → Prop) (s : St) : Ok (pure a : P α) s Q ↔ Q a s := ok_det rfl Q
+theorem ok_outOfFuel {α} (Q : α → St → Prop) (s : St) : Ok (outOfFuel : P α) s Q ↔ False := by
+  simp [Ok, outOfFuel]
+theorem ok_panic {α} (x : String) (Q : α → St → Prop) (s : St) : Ok (Parse.panic x : P α) s Q ↔ False := by
+  simp [Ok, Parse.panic]
+theorem ok_getIdx (Q : Nat → St → Prop) (s : St) : Ok getIdx s Q ↔ Q s.idx s := ok_det rfl Q
+theorem ok_diag (k : DiagKind) (Q : Unit → St → Prop) (s : St) :
+    Ok (diag k) s Q ↔ Q () { s with diags := s.diags ++ [k] } := ok_det rfl Q
+theorem ok_peekAt (toks : Toks) (k : Nat) (Q : Option TokI → St → Prop) (s : St) :
+    Ok (peekAt toks k) s Q ↔ Q ((toks[s.idx + k]?).map fun t => ⟨t, s.idx + k⟩) s := ok_det rfl Q
+theorem ok_peek (toks : Toks) (Q : Option TokI → St → Prop) (s : St) :
+    Ok (peek toks) s Q ↔ Q ((toks[s.idx]?).map fun t => ⟨t, s.idx⟩) s := ok_det (by simp [peek, peekAt]) Q
+theorem ok_peekIs (toks : Toks) (x : String) (Q : Bool → St → Prop) (s : St) :
+    Ok (peekIs toks x) s Q ↔ Q (match toks[s.idx]? with | some t => t.text == x | none => false) s := by
+  exact ok_det rfl Q
+theorem ok_pop (toks : Toks) (Q : Option TokI → St → Prop) (s : St) :
+    Ok (pop toks) s Q ↔ (match toks[s.idx]? with
+      | some t => Q (some ⟨t, s.idx⟩) { s with idx := s.idx + 1 }
+      | none => Q none s) := by
+  cases h : toks[s.idx]? with
+  | none => exact ok_det (by simp [pop, h]) Q
+  | some t => exact ok_det (by simp [pop, h]) Q
+theorem ok_prev (toks : Toks) (Q : Option TokI → St → Prop) (s : St) :
+    Ok (prev toks) s Q ↔ Q (if s.idx = 0 then none else (toks[s.idx - 1]?).map fun t => ⟨t, s.idx - 1⟩) s := by
+  exact ok_det rfl Q
+theorem ok_ite {α} (c : Prop) [Decidable c] (a b : P α) (Q : α → St → Prop) (s : St) :
+    Ok (if c then a else b) s Q ↔ (if c then Ok a s Q else Ok b s Q) := by
+  split <;> rfl
+theorem ok_mono {α} {m : P α} {Q Q' : α → St → Prop} {s : St} (h : Ok m s Q) (hq : ∀ a s', Q a s' → Q' a s') :
+    Ok m s Q' := by
+  obtain ⟨a, s', h1, h2⟩ := h; exact ⟨a, s', h1, hq a s' h2⟩
+theorem ok_of_eq {α} {m : P α} {s s' : St} {a : α} {Q : α → St → Prop} (h : m s = .ok a s') (hq : Q a s') :
+    Ok m s Q := ⟨a, s', h, hq⟩
+
+macro "oksimp" : tactic =>
+  `(tactic| simp only [ok_bind, ok_pure, ok_outOfFuel, ok_panic, ok_getIdx, ok_diag, ok_peek, ok_peekAt, ok_peekIs,
+      ok_pop, ok_prev, ok_ite, Nat.add_zero, Option.map_some, Option.map_none,
+      Option.isNone_some, Option.isNone_none, Bool.not_false, Bool.not_true, Bool.true_and, Bool.false_and,
+      Bool.and_true, Bool.and_false, Bool.false_eq_true, ↓reduceIte])
+
+/-! ### Views of the remaining tokens -/
+
+/-- From index `i` on, the tokens are `l`. -/
+def D (toks : Toks) (i : Nat) (l : List Tok) : Prop := toks.drop i = l
+
+theorem D.head {toks : Toks} {i : Nat} {t : Tok} {l : List Tok} (h : D toks i (t :: l)) : toks[i]? = some t := by
+  have : (toks.drop i)[0]? = some t := by rw [h]; rfl
+  simpa using this
+
+theorem D.tail {toks : Toks} {i : Nat} {t : Tok} {l : List Tok} (h : D toks i (t :: l)) : D toks (i + 1) l := by
+  unfold D at *
+  rw [← List.drop_drop, h]; rfl
+
+theorem D.skip {toks : Toks} {i : Nat} {a l : List Tok} (h : D toks i (a ++ l)) : D toks (i + a.length) l := by
+  unfold D at *
+  rw [← List.drop_drop, h]; simp
+
+theorem D.nil {toks : Toks} {i : Nat} (h : D toks i []) : toks[i]? = none := by
+  unfold D at h
+  have : (toks.drop i)[0]? = none := by rw [h]; rfl
+  simpa using this
+
+theorem D.head? {toks : Toks} {i : Nat} {l : List Tok} (h : D toks i l) : toks[i]? = l.head? := by
+  cases l with
+  | nil => exact h.nil
+  | cons t l => exact h.head
+
+theorem D.second {toks : Toks} {i : Nat} {t : Tok} {l : List Tok} (h : D toks i (t :: l)) :
+    toks[i + 1]? = l.head? := h.tail.head?
+
+/-- A token on line `l`. -/
+def tk (s : String) (touch : Bool) (l : Nat) : Tok := ⟨s, touch, l, l⟩
+
+@[simp] theorem tk_text (s : String) (b : Bool) (l : Nat) : (tk s b l).text = s := rfl
+@[simp] theorem tk_touch (s : String) (b : Bool) (l : Nat) : (tk s b l).touchesPrev = b := rfl
+@[simp] theorem tk_line (s : String) (b : Bool) (l : Nat) : (tk s b l).line = l := rfl
+@[simp] theorem tk_endLine (s : String) (b : Bool) (l : Nat) : (tk s b l).endLine = l := rfl
+
+/-! ### `lexAux` over concatenations -/
+
+/-- number of newlines -/
+def nlc : List PTok → Nat
+  | [] => 0
+  | .nl :: r => nlc r + 1
+  | .t _ _ :: r => nlc r
+
+/-- does the next token start a line? -/
+def fl (b : Bool) : List PTok → Bool
+  | [] => b
+  | .nl :: r => fl true r
+  | .t _ _ :: r => fl false r
+
+theorem lexAux_append (b : Bool) (ln : Nat) (a c : List PTok) :
+    lexAux b ln (a ++ c) = lexAux b ln a ++ lexAux (fl b a) (ln + nlc a) c := by
+  induction a generalizing b ln with
+  | nil => simp [lexAux, fl, nlc]
+  | cons p a ih =>
+    cases p with
+    | t s touch => simp [lexAux, fl, nlc, ih]
+    | nl =>
+      simp only [List.cons_append, lexAux, fl, nlc, ih]
+      congr 2; omega
+
+theorem nlc_append (a c : List PTok) : nlc (a ++ c) = nlc a + nlc c := by
+  induction a with
+  | nil => simp [nlc]
+  | cons p a ih => cases p <;> simp [nlc, ih] <;> omega
+
+theorem fl_append (b : Bool) (a c : List PTok) : fl b (a ++ c) = fl (fl b a) c := by
+  induction a generalizing b with
+  | nil => simp [fl]
+  | cons p a ih => cases p <;> simp [fl, ih]
+
+theorem lexAux_tok (b : Bool) (ln : Nat) (s : String) (touch : Bool) (r : List PTok) :
+    lexAux b ln (.t s touch :: r) = tk s (touch && !b) ln :: lexAux false ln r := rfl
+
+theorem lexAux_nl (b : Bool) (ln : Nat) (r : List PTok) : lexAux b ln (.nl :: r) = lexAux true (ln + 1) r := rfl
+
+/-! ### Definitions of the round-trip invariants -/
+
+def T (ln : Nat) (first : Bool) (e : Expr) : List Tok := lexAux false ln (printExpr first e)
+/-- newlines in the canonical text of `e` -/
+def pnl (e : Expr) : Nat := nlc (printExpr false e)
+
+/-- First printed tokens that never continue / terminate anything. -/
+def badFirst : List String :=
+  [")", "]", "}", ",", "=", "+=", "-=", ".", "::", "=>", ":", "{", "else", "catch", "in", "as"] ++ gardenBinaryOps
+
+/-- Does `e` end in a dot access (then a following `(` would be read as a method call)? -/
+def endsDot : Expr → Bool
+  | .dot _ _ => true
+  | .binop _ _ r => endsDot r
+  | .letE _ _ e => endsDot e
+  | .assign _ e => endsDot e
+  | .update _ _ e => endsDot e
+  | .ret (some e) => endsDot e
+  | _ => false
+
+/-- Does `e` end in a bare `return` (then the next token must be on a later line)? -/
+def tailRet : Expr → Bool
+  | .ret none => true
+  | .ret (some e) => tailRet e
+  | .letE _ _ e => tailRet e
+  | .assign _ e => tailRet e
+  | .update _ _ e => tailRet e
+  | _ => false
+
+/-- What may follow the tokens of an operand (it is then back in the trailing loop). -/
+def Fol (e : Expr) (rest : List Tok) : Prop :=
+  ∀ t, rest.head? = some t →
+    t.text ≠ "=" ∧ t.text ≠ "+=" ∧ t.text ≠ "-=" ∧ ¬ (t.text = "{" ∧ t.touchesPrev = true) ∧
+    (endsDot e = true → t.text ≠ "(") ∧ t.text ≠ "else"
+
+/-- What may follow a complete expression: nothing that the trailing loop would take. -/
+def Stop (e : Expr) (ln : Nat) (rest : List Tok) : Prop :=
+  ∀ t, rest.head? = some t →
+    t.text ≠ "=" ∧ t.text ≠ "+=" ∧ t.text ≠ "-=" ∧ ¬ (t.text = "{" ∧ t.touchesPrev = true) ∧
+    (endsDot e = true → t.text ≠ "(") ∧
+    ¬ (t.text = "(" ∧ t.touchesPrev = true) ∧ t.text ≠ "." ∧ t.text ≠ "::" ∧
+    gardenBinaryOps.contains t.text = false ∧
+    (tailRet e = true → ln + pnl e ≤ t.line) ∧ t.text ≠ "else"
+
+theorem Stop.fol {e : Expr} {ln : Nat} {rest : List Tok} (h : Stop e ln rest) : Fol e rest := by
+  intro t ht; have := h t ht
+  exact ⟨this.1, this.2.1, this.2.2.1, this.2.2.2.1, this.2.2.2.2.1, this.2.2.2.2.2.2.2.2.2.2⟩
+
+/-- What stops the postfix part of the trailing loop. -/
+def PStop (rest : List Tok) : Prop :=
+  ∀ t, rest.head? = some t → ¬ (t.text = "(" ∧ t.touchesPrev = true) ∧ t.text ≠ "." ∧ t.text ≠ "::"
+
+theorem Stop.pstop {e : Expr} {ln : Nat} {rest : List Tok} (h : Stop e ln rest) : PStop rest := by
+  intro t ht; have := h t ht; exact ⟨this.2.2.2.2.2.1, this.2.2.2.2.2.2.1, this.2.2.2.2.2.2.2.1⟩
+
+/-- After the tokens of `e`: in the trailing loop holding `e`, with any start line and any fuel ≥ `lb`. -/
+def After (toks : Toks) (b : Bool) (lb : Nat) (e : Expr) (j : Nat) (d : List DiagKind)
+    {α : Type} (Q : PExpr → St → Prop) : Prop :=
+  ∀ ln' fuel', lb ≤ fuel' → Ok (trailing toks false b fuel' ⟨e, ⟨ln', j⟩⟩) ⟨j, d⟩ Q
+
+/-- Operand invariant (`c = true`: for both settings of the infix flag; `c = false`: a chain, flag on):
+from the first token of `e` the parser gets into the trailing loop holding `e` just after its
+tokens, spending at most `n` fuel. -/
+def R (c : Bool) (e : Expr) (n : Nat) : Prop :=
+  ∀ (b : Bool) (fuel ln : Nat) (first : Bool) (i : Nat) (rest : List Tok) (d : List DiagKind) (toks : Toks)
+    (Q : PExpr → St → Prop),
+    (c = false → b = true) → n ≤ fuel → D toks i (T ln first e ++ rest) → Fol e rest →
+    (c = false → PStop rest) →
+    After toks b (fuel - n) e (i + (T ln first e).length) d (α := Unit) Q →
+    Ok (parseExpressionT toks false b fuel) ⟨i, d⟩ Q
+
+/-- The exact result of a complete expression. -/
+def Res1 (e : Expr) (j : Nat) (d : List DiagKind) : PExpr → St → Prop :=
+  fun r s' => r.e = e ∧ r.pos.endPos = j ∧ s' = ⟨j, d⟩
+
+/-- Complete-expression invariant: `parse_expression` returns exactly `e`, just after its tokens, no
+new diagnostics. -/
+def FU (e : Expr) (n : Nat) : Prop :=
+  ∀ (fuel ln : Nat) (first : Bool) (i : Nat) (rest : List Tok) (d : List DiagKind) (toks : Toks),
+    n ≤ fuel → D toks i (T ln first e ++ rest) → Stop e ln rest →
+    Ok (parseExpressionT toks false true fuel) ⟨i, d⟩ (Res1 e (i + (T ln first e).length) d)
+
+theorem R.mono {c e n m} (h : R c e n) (hnm : n ≤ m) : R c e m := by
+  intro b fuel ln first i rest d toks Q hb hf hD hfo hp ha
+  exact h b fuel ln first i rest d toks Q hb (by omega) hD hfo hp (fun ln' fuel' hl => ha ln' fuel' (by omega))
+
+theorem FU.mono {e n m} (h : FU e n) (hnm : n ≤ m) : FU e m := by
+  intro fuel ln first i rest d toks hf hD hs
+  exact h fuel ln first i rest d toks (by omega) hD hs
+
+/-- The trailing loop stops at a `Stop` context. -/
+theorem trailing_stop' (toks : Toks) (b : Bool) (fuel j : Nat) (d : List DiagKind) (pe : PExpr) (e : Expr) (ln : Nat)
+    (rest : List Tok) (hD : D toks j rest) (hs : Stop e ln rest) :
+    trailing toks false b (fuel + 1) pe ⟨j, d⟩ = .ok pe ⟨j, d⟩ := by
+  rw [trailing]
+  cases h3 : toks[j]? with
+  | none => simp [bind_apply, P.bind, pure_apply, peek, peekAt, getIdx, h3]
+  | some t =>
+    rw [hD.head?] at h3
+    obtain ⟨_, _, _, _, _, a1, a2, a3, a4, _, _⟩ := hs t h3
+    have a5 : t.text ∉ gardenBinaryOps := by simpa using a4
+    have a1' : (t.text == "(" && pe.pos.endPos == j && t.touchesPrev) = false := by
+      cases hx : (t.text == "(" && pe.pos.endPos == j && t.touchesPrev) with
+      | false => rfl
+      | true =>
+        simp only [Bool.and_eq_true, beq_iff_eq] at hx
+        exact absurd ⟨hx.1.1, hx.2⟩ a1
+    have hget : toks[j]? = some t := by rw [hD.head?]; exact h3
+    have a1'' : ¬ ((t.text = "(" ∧ pe.pos.endPos = j) ∧ t.touchesPrev = true) := fun hx => a1 ⟨hx.1.1, hx.2⟩
+    simp [bind_apply, P.bind, pure_apply, peek, peekAt, getIdx, hget, TokI.text, a1'', a2, a3, a5]
+
+/-- The operand parser's trailing loop (infix flag off) stops at a `PStop` context. -/
+theorem trailing_pstop (toks : Toks) (fuel j : Nat) (d : List DiagKind) (pe : PExpr)
+    (rest : List Tok) (hD : D toks j rest) (hs : PStop rest) :
+    trailing toks false false (fuel + 1) pe ⟨j, d⟩ = .ok pe ⟨j, d⟩ := by
+  rw [trailing]
+  cases h3 : toks[j]? with
+  | none => simp [bind_apply, P.bind, pure_apply, peek, peekAt, getIdx, h3]
+  | some t =>
+    rw [hD.head?] at h3
+    obtain ⟨a1, a2, a3⟩ := hs t h3
+    have hget : toks[j]? = some t := by rw [hD.head?]; exact h3
+    have a1'' : ¬ ((t.text = "(" ∧ pe.pos.endPos = j) ∧ t.touchesPrev = true) := fun hx => a1 ⟨hx.1.1, hx.2⟩
+    simp [bind_apply, P.bind, pure_apply, peek, peekAt, getIdx, hget, TokI.text, a1'', a2, a3]
+
+/-- A complete chain: from `R false` and a `Stop` context. -/
+theorem FU.of_R {c : Bool} {e : Expr} {n : Nat} (h : R c e n) : FU e (n + 1) := by
+  intro fuel ln first i rest d toks hf hD hs
+  refine h true fuel ln first i rest d toks _ (fun _ => rfl) (by omega) hD hs.fol (fun _ => hs.pstop) ?_
+  intro ln' fuel' hl
+  obtain ⟨k, rfl⟩ : ∃ k, fuel' = k + 1 := ⟨fuel' - 1, by omega⟩
+  exact ok_of_eq (trailing_stop' toks true k _ d _ e ln rest hD.skip hs) ⟨rfl, rfl, rfl⟩
+
+theorem T_var (ln : Nat) (first : Bool) (x : String) : T ln first (.var x) = [tk x first ln] := by
+  simp [T, printExpr, lexAux, tk]
+theorem T_int (ln : Nat) (first : Bool) (i : Int) : T ln first (.intLit i) = [tk (toString i) first ln] := by
+  simp [T, printExpr, lexAux, tk]
+
+theorem fol_second {e : Expr} {rest : List Tok} (h : Fol e rest) (t2 : Tok) (h2 : rest.head? = some t2) :
+    (t2.text ≠ "=" ∧ t2.text ≠ "+=" ∧ t2.text ≠ "-=") ∧ ¬ (t2.text = "{" ∧ t2.touchesPrev = true) := by
+  have := h t2 h2
+  exact ⟨⟨this.1, this.2.1, this.2.2.1⟩, this.2.2.2.1⟩
+
+theorem ok_exprT {toks : Toks} {b : Bool} {fuel : Nat} {s s' : St} {pe : PExpr} {Q : PExpr → St → Prop}
+    (h : parseNoTrailing toks false fuel s = .ok pe s') (hq : Ok (trailing toks false b fuel pe) s' Q) :
+    Ok (parseExpressionT toks false b (fuel + 1)) s Q := by
+  unfold Ok at *
+  rw [exprT_of_noTrailing toks b fuel s s' pe h]
+  exact hq
+
+theorem r_var {x : String} (hx : ValidName x) : R true (.var x) 3 := by
+  intro b fuel ln first i rest d toks Q _ hf hD hfo _ ha
+  obtain ⟨f, rfl⟩ : ∃ f, fuel = f + 3 := ⟨fuel - 3, by omega⟩
+  rw [T_var] at hD ha
+  have h0 := hD.head
+  have h1 := hD.second
+  have hnt : parseNoTrailing toks false (f + 2) ⟨i, d⟩ = .ok ⟨.var x, ⟨ln, i + 1⟩⟩ ⟨i + 1, d⟩ := by
+    rw [noTrailing_simple toks (f + 1) i d _ h0 hx.notStmt (fun t2 h2 => (fol_second hfo t2 (h1 ▸ h2)).1)]
+    simpa using simple_var toks f i d _ h0 hx (fun t2 h2 => (fol_second hfo t2 (h1 ▸ h2)).2)
+  exact ok_exprT hnt (ha ln (f + 2) (by omega))
+
+theorem r_int {v : Int} (hv : IntTok (toString v) v) : R true (.intLit v) 3 := by
+  intro b fuel ln first i rest d toks Q _ hf hD hfo _ ha
+  obtain ⟨f, rfl⟩ : ∃ f, fuel = f + 3 := ⟨fuel - 3, by omega⟩
+  rw [T_int] at hD ha
+  have h0 := hD.head
+  have h1 := hD.second
+  have hnt : parseNoTrailing toks false (f + 2) ⟨i, d⟩ = .ok ⟨.intLit v, ⟨ln, i + 1⟩⟩ ⟨i + 1, d⟩ := by
+    rw [noTrailing_simple toks (f + 1) i d _ h0 hv.notStmt (fun t2 h2 => (fol_second hfo t2 (h1 ▸ h2)).1)]
+    simpa using simple_int toks f i d _ v h0 hv
+  exact ok_exprT hnt (ha ln (f + 2) (by omega))
+
+/-- Facts about the canonical text of `e`: it starts with a token that does not depend on `first` except
+for its flag, that token is not one of `badFirst`, and it ends with a newline exactly if `e` ends in a bare
+`return`. -/
+structure PF (e : Expr) : Prop where
+  hd : ∃ s tl, (∀ first, printExpr first e = .t s first :: tl) ∧ s ∉ badFirst
+  fl : ∀ b first, fl b (printExpr first e) = tailRet e
+  ninv : e.isInvalidOrPlaceholder = false
+
+theorem PF.nlc {e : Expr} (h : PF e) (first : Bool) : nlc (printExpr first e) = pnl e := by
+  obtain ⟨s, tl, h1, _⟩ := h.hd
+  simp [pnl, h1, RT.nlc]
+
+/-- Tokens of `A ++ B` when `A` is the text of an expression that does not end in a newline. -/
+theorem T_then {e : Expr} (h : PF e) (ht : tailRet e = false) (ln : Nat) (first : Bool) (B : List PTok) :
+    lexAux false ln (printExpr first e ++ B) = T ln first e ++ lexAux false (ln + pnl e) B := by
+  rw [lexAux_append, h.fl, ht, h.nlc]; rfl
+
+theorem T_head {e : Expr} (h : PF e) (ln : Nat) (first : Bool) :
+    ∃ s tl, T ln first e = tk s first ln :: tl ∧ s ∉ badFirst := by
+  obtain ⟨s, tl, h1, h2⟩ := h.hd
+  exact ⟨s, lexAux false ln tl, by simp [T, h1, lexAux, tk], h2⟩
+
+theorem T_pos {e : Expr} (h : PF e) (ln : Nat) (first : Bool) : 0 < (T ln first e).length := by
+  obtain ⟨s, tl, h1, _⟩ := T_head h ln first
+  simp [h1]
+
+theorem r_dot {r : Expr} {f : String} {nr : Nat} (hr : R true r nr) (pr : PF r) (tr : tailRet r = false)
+    (hf : ValidName f) : R true (.dot r f) (nr + 2) := by
+  intro b fuel ln first i rest d toks Q _ hfu hD hfo _ ha
+  have hT : T ln first (.dot r f) = T ln first r ++ [tk "." true (ln + pnl r), tk f true (ln + pnl r)] := by
+    simp only [T, printExpr]
+    rw [T_then pr tr]
+    simp [lexAux, tk, g, T]
+  rw [hT] at hD ha
+  have hD' : D toks i (T ln first r ++ (tk "." true (ln + pnl r) :: tk f true (ln + pnl r) :: rest)) := by
+    simpa [List.append_assoc] using hD
+  refine hr b fuel ln first i _ d toks Q (fun h => by cases h) (by omega) hD' ?_ (fun h => by cases h) ?_
+  · intro t ht; simp at ht; subst ht; simp
+  · intro ln' fuel' hl
+    obtain ⟨k, rfl⟩ : ∃ k, fuel' = k + 1 := ⟨fuel' - 1, by omega⟩
+    have hD1 := hD'.skip
+    have h0 := hD1.head
+    have hD2 := hD1.tail
+    have h1 := hD2.head
+    have hD3 := hD2.tail
+    have hnext := hD3.head?
+    have hsym := parseSymbol_ok toks (i + (T ln first r).length + 1) d _ h1 hf
+    have hnp : (match toks[i + (T ln first r).length + 1 + 1]? with | some t => t.text == "(" | none => false) = false := by
+      rw [hnext]
+      cases hr' : rest.head? with
+      | none => rfl
+      | some t => simp; exact (hfo t hr').2.2.2.2.1 rfl
+    rw [trailing]
+    oksimp
+    simp only [h0, Option.map_some, TokI.text, tk_text, tk_touch, h1]
+    simp only [show (("." : String) == "(") = false by decide, show (("." : String) == ".") = true by decide,
+      Bool.false_and, Bool.false_eq_true, ↓reduceIte]
+    oksimp
+    simp only [h0, h1, Option.map_some, tk_touch, ↓reduceIte]
+    rw [ok_det hsym]
+    have hlt : i + (T ln first r).length < i + (T ln first r).length + 1 + 1 := by omega
+    simp only [hnp, Bool.false_eq_true, ↓reduceIte, gt_iff_lt, hlt, tk_text, tk_line, Pos.merge]
+    have := ha ln' k (by omega)
+    have e1 : max (i + (T ln first r).length) (i + (T ln first r).length + 1 + 1)
+        = i + (T ln first r ++ [tk "." true (ln + pnl r), tk f true (ln + pnl r)]).length := by simp; omega
+    have e2 : i + (T ln first r).length + 1 + 1
+        = i + (T ln first r ++ [tk "." true (ln + pnl r), tk f true (ln + pnl r)]).length := by simp; omega
+    rw [e1, e2]
+    exact this
+
+theorem r_ns {r : Expr} {f : String} {nr : Nat} (hr : R true r nr) (pr : PF r) (tr : tailRet r = false)
+    (hf : ValidName f) : R true (.ns r f) (nr + 2) := by
+  intro b fuel ln first i rest d toks Q _ hfu hD hfo _ ha
+  have hT : T ln first (.ns r f) = T ln first r ++ [tk "::" true (ln + pnl r), tk f true (ln + pnl r)] := by
+    simp only [T, printExpr]
+    rw [T_then pr tr]
+    simp [lexAux, tk, g, T]
+  rw [hT] at hD ha
+  have hD' : D toks i (T ln first r ++ (tk "::" true (ln + pnl r) :: tk f true (ln + pnl r) :: rest)) := by
+    simpa [List.append_assoc] using hD
+  refine hr b fuel ln first i _ d toks Q (fun h => by cases h) (by omega) hD' ?_ (fun h => by cases h) ?_
+  · intro t ht; simp at ht; subst ht; simp
+  · intro ln' fuel' hl
+    obtain ⟨k, rfl⟩ : ∃ k, fuel' = k + 1 := ⟨fuel' - 1, by omega⟩
+    have hD1 := hD'.skip
+    have h0 := hD1.head
+    have hD2 := hD1.tail
+    have h1 := hD2.head
+    have hsym := parseSymbol_ok toks (i + (T ln first r).length + 1) d _ h1 hf
+    rw [trailing]
+    oksimp
+    simp only [h0, Option.map_some, TokI.text, tk_text, tk_touch, h1]
+    simp only [show (("::" : String) == "(") = false by decide, show (("::" : String) == ".") = false by decide,
+      show (("::" : String) == "::") = true by decide, Bool.false_and, Bool.false_eq_true, ↓reduceIte]
+    oksimp
+    simp only [h0, h1, Option.map_some, tk_touch, ↓reduceIte]
+    rw [ok_det hsym]
+    have hlt : i + (T ln first r).length < i + (T ln first r).length + 1 + 1 := by omega
+    simp only [gt_iff_lt, hlt, ↓reduceIte, tk_text, tk_line, Pos.merge]
+    have := ha ln' k (by omega)
+    have e1 : max (i + (T ln first r).length) (i + (T ln first r).length + 1 + 1)
+        = i + (T ln first r ++ [tk "::" true (ln + pnl r), tk f true (ln + pnl r)]).length := by simp; omega
+    have e2 : i + (T ln first r).length + 1 + 1
+        = i + (T ln first r ++ [tk "::" true (ln + pnl r), tk f true (ln + pnl r)]).length := by simp; omega
+    rw [e1, e2]
+    exact this
+
+/-- `a op b` where `a` is a chain and `b` an operand. -/
+theorem r_binop {l r : Expr} {op : String} {nl nr : Nat} (hl : R false l nl) (hr : R true r nr)
+    (pl : PF l) (tl : tailRet l = false) (pr : PF r)
+    (hop : gardenBinaryOps.contains op = true) : R false (.binop l op r) (nl + nr + 3) := by
+  intro b fuel ln first i rest d toks Q hb hfu hD hfo hps ha
+  have hb' : b = true := hb rfl
+  subst hb'
+  obtain ⟨o1, o2, o3, o4, o5, o6, o7, _, _⟩ := binop_ne hop
+  have hmem : op ∈ gardenBinaryOps := by simpa using hop
+  have oe : op ≠ "else" := by intro e; subst e; revert hop; decide
+  have hT : T ln first (.binop l op r) = T ln first l ++ tk op false (ln + pnl l) :: T (ln + pnl l) false r := by
+    simp only [T, printExpr]
+    rw [List.append_assoc, T_then pl tl]
+    simp [lexAux, tk, w, T]
+  rw [hT] at hD ha
+  have hD' : D toks i (T ln first l ++ (tk op false (ln + pnl l) :: (T (ln + pnl l) false r ++ rest))) := by
+    simpa [List.append_assoc] using hD
+  refine hl true fuel ln first i _ d toks Q (fun _ => rfl) (by omega) hD' ?_ ?_ ?_
+  · intro t ht; simp at ht; subst ht; simp [o4, o5, o6, o7, o1, oe]
+  · intro _ t ht; simp at ht; subst ht; simp [o1, o2, o3]
+  · intro ln' fuel' hl'
+    obtain ⟨k, rfl⟩ : ∃ k, fuel' = k + 1 := ⟨fuel' - 1, by omega⟩
+    have hD1 := hD'.skip
+    have h0 := hD1.head
+    have hD2 := hD1.tail
+    rw [trailing]
+    oksimp
+    simp only [h0, Option.map_some, TokI.text, tk_text, tk_touch]
+    simp only [beq_iff_eq, o1, o2, o3, false_and, Bool.false_and, Bool.false_eq_true, ↓reduceIte, hmem, List.contains_iff_mem,
+      List.elem_eq_mem, decide_true, decide_false]
+    oksimp
+    simp only [h0]
+    -- the right operand, parsed without infix operators
+    refine hr false k (ln + pnl l) false (i + (T ln first l).length + 1) rest d toks _ (fun h => by cases h) (by omega)
+      hD2 ?_ (fun h => by cases h) ?_
+    · intro t ht
+      have := hfo t ht
+      refine ⟨this.1, this.2.1, this.2.2.1, this.2.2.2.1, fun hd => this.2.2.2.2.1 ?_, this.2.2.2.2.2⟩
+      simpa [endsDot] using hd
+    · intro ln2 fuel2 hl2
+      obtain ⟨k2, rfl⟩ : ∃ k2, fuel2 = k2 + 1 := ⟨fuel2 - 1, by omega⟩
+      -- the operand parser's trailing loop stops: the next token does not continue a postfix chain
+      have hD3 := hD2.skip
+      have hstop : trailing toks false false (k2 + 1) ⟨r, ⟨ln2, i + (T ln first l).length + 1 + (T (ln + pnl l) false r).length⟩⟩
+          ⟨i + (T ln first l).length + 1 + (T (ln + pnl l) false r).length, d⟩ = .ok _ _ :=
+        trailing_pstop toks k2 _ d _ rest hD3 (hps rfl)
+      rw [ok_det hstop]
+      have hlt : i + (T ln first l).length < i + (T ln first l).length + 1 + (T (ln + pnl l) false r).length := by omega
+      simp only [gt_iff_lt, hlt, ↓reduceIte, Pos.merge]
+      have := ha ln' k (by omega)
+      have e1 : max (i + (T ln first l).length) (i + (T ln first l).length + 1 + (T (ln + pnl l) false r).length)
+          = i + (T ln first l ++ tk op false (ln + pnl l) :: T (ln + pnl l) false r).length := by simp; omega
+      have e2 : i + (T ln first l).length + 1 + (T (ln + pnl l) false r).length
+          = i + (T ln first l ++ tk op false (ln + pnl l) :: T (ln + pnl l) false r).length := by simp; omega
+      rw [e1, e2]
+      exact this
+
+/-! ### Comma-separated expressions -/
+
+theorem stop_sep {e : Expr} {ln : Nat} {x : String} {tt : Bool} {lt : Nat} {rest : List Tok}
+    (hx : x = "," ∨ x = ")" ∨ x = "]" ∨ x = "}" ∨ x = "=>") (ht : tailRet e = false) :
+    Stop e ln (tk x tt lt :: rest) := by
+  intro t h
+  simp at h; subst h
+  rcases hx with rfl | rfl | rfl | rfl | rfl <;> simp [ht] <;> decide
+
+theorem not_badFirst {s x : String} (h : s ∉ badFirst) (hx : x ∈ badFirst) : (s == x) = false := by
+  cases hb : (s == x) with
+  | false => rfl
+  | true => have : s = x := by simpa using hb
+            subst this; exact absurd hx h
+
+theorem comma_ok (args : List Expr) (hfu : ∀ a ∈ args, ∃ n, FU a n) (hpf : ∀ a ∈ args, PF a ∧ tailRet a = false) :
+    ∃ N, ∀ (fuel ln : Nat) (first : Bool) (i : Nat) (rest : List Tok) (d : List DiagKind) (toks : Toks)
+      (acc : List Expr) (ol : Nat) (term : String) (tt : Bool) (lt : Nat),
+      N ≤ fuel → (term = ")" ∨ term = "]") →
+      D toks i (lexAux false ln (printArgs first args) ++ tk term tt lt :: rest) →
+      Ok (commaSep toks false fuel ol term acc) ⟨i, d⟩
+        (fun r s' => r = acc ++ args ∧ s' = ⟨i + (lexAux false ln (printArgs first args)).length, d⟩) := by
+  induction args with
+  | nil =>
+    refine ⟨1, ?_⟩
+    intro fuel ln first i rest d toks acc ol term tt lt hf hterm hD
+    obtain ⟨f, rfl⟩ : ∃ f, fuel = f + 1 := ⟨fuel - 1, by omega⟩
+    simp only [printArgs, lexAux, List.nil_append] at hD ⊢
+    have h0 := hD.head
+    rw [commaSep]
+    oksimp
+    simp [h0]
+  | cons a rest' ih =>
+    obtain ⟨na, hna⟩ := hfu a (List.mem_cons_self ..)
+    obtain ⟨pa, ta⟩ := hpf a (List.mem_cons_self ..)
+    obtain ⟨N', hN'⟩ := ih (fun x hx => hfu x (List.mem_cons_of_mem _ hx)) (fun x hx => hpf x (List.mem_cons_of_mem _ hx))
+    refine ⟨na + N' + 2, ?_⟩
+    intro fuel ln first i rest d toks acc ol term tt lt hf hterm hD
+    obtain ⟨f, rfl⟩ : ∃ f, fuel = f + 1 := ⟨fuel - 1, by omega⟩
+    obtain ⟨s0, tl0, hT0, hbad⟩ := T_head pa ln first
+    have hterm_bad : term ∈ badFirst := by rcases hterm with rfl | rfl <;> decide
+    have hne : (s0 == term) = false := not_badFirst hbad hterm_bad
+    have hpos := T_pos pa ln first
+    have hc1 : (term == ",") = false := by rcases hterm with rfl | rfl <;> decide
+    cases rest' with
+    | nil =>
+      have hP : lexAux false ln (printArgs first [a]) = T ln first a := by simp [printArgs, T]
+      rw [hP] at hD ⊢
+      have h0 : toks[i]? = some (tk s0 first ln) := by
+        have := hD.head?; rw [hT0] at this; simpa using this
+      have hres := hna f ln first i (tk term tt lt :: rest) d toks (by omega) hD
+        (stop_sep (by rcases hterm with rfl | rfl <;> simp) ta)
+      have hclose := hD.skip.head
+      rw [commaSep]
+      oksimp
+      simp only [h0, tk_text, hne, Bool.false_eq_true, ↓reduceIte]
+      refine ok_mono hres ?_
+      rintro r s1 ⟨hr1, hr2, rfl⟩
+      have hlt : i < i + (T ln first a).length := by omega
+      simp only [hr1, pa.ninv, Bool.false_eq_true, ↓reduceIte, gt_iff_lt, hlt, decide_true, Bool.not_true, hclose,
+        Option.map_some, TokI.text, tk_text, hc1, bne_self_eq_false]
+      oksimp
+      simp
+    | cons a2 r2 =>
+      have hP : lexAux false ln (printArgs first (a :: a2 :: r2)) =
+          T ln first a ++ tk "," true (ln + pnl a) :: lexAux false (ln + pnl a) (printArgs false (a2 :: r2)) := by
+        have hpa : printArgs first (a :: a2 :: r2) = printExpr first a ++ ([g ","] ++ printArgs false (a2 :: r2)) := by
+          simp [printArgs]
+        rw [hpa, T_then pa ta]
+        simp [lexAux, tk, g]
+      rw [hP] at hD ⊢
+      have hD' : D toks i (T ln first a ++ (tk "," true (ln + pnl a) ::
+          (lexAux false (ln + pnl a) (printArgs false (a2 :: r2)) ++ tk term tt lt :: rest))) := by
+        simpa [List.append_assoc] using hD
+      have h0 : toks[i]? = some (tk s0 first ln) := by
+        have := hD'.head?; rw [hT0] at this; simpa using this
+      have hres := hna f ln first i _ d toks (by omega) hD' (stop_sep (Or.inl rfl) ta)
+      have hD1 := hD'.skip
+      have hcomma := hD1.head
+      have hrec := hN' f (ln + pnl a) false (i + (T ln first a).length + 1) rest d toks (acc ++ [a]) ol term tt lt
+        (by omega) hterm hD1.tail
+      rw [commaSep]
+      oksimp
+      simp only [h0, tk_text, hne, Bool.false_eq_true, ↓reduceIte]
+      refine ok_mono hres ?_
+      rintro r s1 ⟨hr1, hr2, rfl⟩
+      have hlt : i < i + (T ln first a).length := by omega
+      simp only [hr1, pa.ninv, Bool.false_eq_true, ↓reduceIte, gt_iff_lt, hlt, decide_true, Bool.not_true, hcomma,
+        Option.map_some, TokI.text, tk_text, beq_self_eq_true]
+      oksimp
+      simp only [hcomma]
+      refine ok_mono hrec ?_
+      rintro r2' s2 ⟨h1, h2⟩
+      refine ⟨by simp [h1], ?_⟩
+      rw [h2]; simp; omega
+
+def TA (ln : Nat) (first : Bool) (args : List Expr) : List Tok := lexAux false ln (printArgs first args)
+def pnlA (args : List Expr) : Nat := nlc (printArgs false args)
+
+theorem args_facts (args : List Expr) (hpf : ∀ a ∈ args, PF a ∧ tailRet a = false) :
+    ∀ first, fl false (printArgs first args) = false ∧ nlc (printArgs first args) = pnlA args := by
+  induction args with
+  | nil => intro first; simp [printArgs, fl, nlc, pnlA]
+  | cons a r ih =>
+    obtain ⟨pa, ta⟩ := hpf a (List.mem_cons_self ..)
+    have ih' := ih (fun x hx => hpf x (List.mem_cons_of_mem _ hx))
+    intro first
+    cases r with
+    | nil => simp [printArgs, pnlA, pa.fl, ta, pa.nlc]
+    | cons a2 r2 =>
+      have hpa : ∀ f, printArgs f (a :: a2 :: r2) = printExpr f a ++ ([g ","] ++ printArgs false (a2 :: r2)) := by
+        intro f; simp [printArgs]
+      simp only [hpa, pnlA, fl_append, nlc_append, pa.fl, ta, pa.nlc, g, fl, nlc, (ih' false).1]
+      simp
+
+theorem TA_then (args : List Expr) (hpf : ∀ a ∈ args, PF a ∧ tailRet a = false) (ln : Nat) (first : Bool) (B : List PTok) :
+    lexAux false ln (printArgs first args ++ B) = TA ln first args ++ lexAux false (ln + pnlA args) B := by
+  rw [lexAux_append, (args_facts args hpf first).1, (args_facts args hpf first).2]; rfl
+
+theorem callArgs_ok (args : List Expr) (hfu : ∀ a ∈ args, ∃ n, FU a n) (hpf : ∀ a ∈ args, PF a ∧ tailRet a = false) :
+    ∃ N, ∀ (fuel ln : Nat) (i : Nat) (rest : List Tok) (d : List DiagKind) (toks : Toks) (t1 t2 : Bool) (l0 l2 : Nat),
+      N ≤ fuel → D toks i (tk "(" t1 l0 :: (TA ln true args ++ tk ")" t2 l2 :: rest)) →
+      Ok (parseCallArguments toks false fuel) ⟨i, d⟩
+        (fun r s' => r.1 = args ∧ r.2.endPos = i + 1 + (TA ln true args).length + 1 ∧
+          s' = ⟨i + 1 + (TA ln true args).length + 1, d⟩) := by
+  obtain ⟨N, hN⟩ := comma_ok args hfu hpf
+  refine ⟨N + 1, ?_⟩
+  intro fuel ln i rest d toks t1 t2 l0 l2 hf hD
+  obtain ⟨f, rfl⟩ : ∃ f, fuel = f + 1 := ⟨fuel - 1, by omega⟩
+  have h0 := hD.head
+  have hargs := hN f ln true (i + 1) rest d toks [] l0 ")" t2 l2 (by omega) (Or.inl rfl) hD.tail
+  have hclose := hD.tail.skip.head
+  rw [parseCallArguments]
+  oksimp
+  rw [ok_det (requireToken_ok toks "(" i d _ h0 rfl)]
+  simp only [tk_line]
+  refine ok_mono hargs ?_
+  rintro r s1 ⟨hr, rfl⟩
+  simp only [closePos]
+  oksimp
+  simp only [TA] at hclose ⊢
+  simp only [hclose, Option.map_some, TokI.text, tk_text, beq_self_eq_true, ↓reduceIte]
+  oksimp
+  simp only [hclose]
+  simp [hr, TokI.pos]
+
+theorem r_call {f : Expr} {args : List Expr} {nf : Nat} (hf : R true f nf) (pf : PF f) (tf : tailRet f = false)
+    (hnd : endsDot f = false)
+    (hfu : ∀ a ∈ args, ∃ n, FU a n) (hpf : ∀ a ∈ args, PF a ∧ tailRet a = false) :
+    ∃ n, R true (.call f args) n := by
+  obtain ⟨N, hN⟩ := callArgs_ok args hfu hpf
+  refine ⟨nf + N + 2, ?_⟩
+  intro b fuel ln first i rest d toks Q _ hfu' hD hfo _ ha
+  have hT : T ln first (.call f args) = T ln first f ++ tk "(" true (ln + pnl f) ::
+      (TA (ln + pnl f) true args ++ [tk ")" true (ln + pnl f + pnlA args)]) := by
+    simp only [T, printExpr]
+    rw [List.append_assoc, List.append_assoc, T_then pf tf]
+    simp only [List.cons_append, List.nil_append, lexAux_tok, g, Bool.and_true, Bool.not_false]
+    rw [TA_then args hpf]
+    simp [lexAux, tk, T]
+  rw [hT] at hD ha
+  have hD' : D toks i (T ln first f ++ (tk "(" true (ln + pnl f) ::
+      (TA (ln + pnl f) true args ++ tk ")" true (ln + pnl f + pnlA args) :: rest))) := by
+    simpa [List.append_assoc] using hD
+  refine hf b fuel ln first i _ d toks Q (fun h => by cases h) (by omega) hD' ?_ (fun h => by cases h) ?_
+  · intro t ht; simp at ht; subst ht; simp [hnd]
+  · intro ln' fuel' hl
+    obtain ⟨k, rfl⟩ : ∃ k, fuel' = k + 1 := ⟨fuel' - 1, by omega⟩
+    have hD1 := hD'.skip
+    have h0 := hD1.head
+    have hca := hN k (ln + pnl f) (i + (T ln first f).length) rest d toks true true _ _ (by omega) hD1
+    rw [trailing]
+    oksimp
+    simp only [h0, Option.map_some, TokI.text, tk_text, tk_touch, beq_self_eq_true, Bool.and_self, ↓reduceIte]
+    oksimp
+    refine ok_mono hca ?_
+    rintro ⟨as, cl⟩ s1 ⟨h1, h2, rfl⟩
+    simp only at h1 h2
+    have hlt : i + (T ln first f).length < i + (T ln first f).length + 1 + (TA (ln + pnl f) true args).length + 1 := by omega
+    simp only [gt_iff_lt, hlt, ↓reduceIte, h1, Pos.merge, h2]
+    have := ha ln' k (by omega)
+    have e1 : max (i + (T ln first f).length) (i + (T ln first f).length + 1 + (TA (ln + pnl f) true args).length + 1)
+        = i + (T ln first f ++ tk "(" true (ln + pnl f) ::
+          (TA (ln + pnl f) true args ++ [tk ")" true (ln + pnl f + pnlA args)])).length := by simp; omega
+    have e2 : i + (T ln first f).length + 1 + (TA (ln + pnl f) true args).length + 1
+        = i + (T ln first f ++ tk "(" true (ln + pnl f) ::
+          (TA (ln + pnl f) true args ++ [tk ")" true (ln + pnl f + pnlA args)])).length := by simp; omega
+    rw [e1, e2]
+    exact this
+
+theorem ok_rw {α} {m m' : P α} {s : St} {Q : α → St → Prop} (h : m s = m' s) (hq : Ok m' s Q) : Ok m s Q := by
+  unfold Ok at *; rw [h]; exact hq
+
+theorem ok_exprT' {toks : Toks} {b : Bool} {fuel : Nat} {s : St} {Q : PExpr → St → Prop}
+    (h : Ok (parseNoTrailing toks false fuel) s (fun pe s' => Ok (trailing toks false b fuel pe) s' Q)) :
+    Ok (parseExpressionT toks false b (fuel + 1)) s Q := by
+  rw [parseExpressionT, ok_bind]; exact h
+
+theorem bad_second {s : String} (h : s ∉ badFirst) : s ≠ "=" ∧ s ≠ "+=" ∧ s ≠ "-=" := by
+  refine ⟨?_, ?_, ?_⟩ <;> (intro e; subst e; exact h (by decide))
+
+/-- Entering a closed form through `parse_simple_expression`: the token at `i` is `t`, not a statement
+keyword, and the token after it is not an assignment operator. -/
+theorem enter_simple {toks : Toks} {b : Bool} {f i : Nat} {d : List DiagKind} {t : Tok} {Q : PExpr → St → Prop}
+    (h0 : toks[i]? = some t) (hkw : t.text ∉ stmtKeywords)
+    (h2 : ∀ t2, toks[i + 1]? = some t2 → t2.text ≠ "=" ∧ t2.text ≠ "+=" ∧ t2.text ≠ "-=")
+    (h : Ok (parseSimple toks false f) ⟨i, d⟩ (fun pe s' => Ok (trailing toks false b (f + 1) pe) s' Q)) :
+    Ok (parseExpressionT toks false b (f + 2)) ⟨i, d⟩ Q :=
+  ok_exprT' (ok_rw (noTrailing_simple toks f i d t h0 hkw h2) h)
+
+theorem r_paren {e : Expr} {n : Nat} (he : FU e n) (pe : PF e) (te : tailRet e = false) :
+    R true (.paren e) (n + 4) := by
+  intro b fuel ln first i rest d toks Q _ hfu hD hfo _ ha
+  obtain ⟨f, rfl⟩ : ∃ f, fuel = f + 4 := ⟨fuel - 4, by omega⟩
+  have hT : T ln first (.paren e) = tk "(" first ln :: (T ln true e ++ [tk ")" true (ln + pnl e)]) := by
+    simp only [T, printExpr, List.cons_append, List.nil_append, lexAux_tok, Bool.not_false, Bool.and_true]
+    rw [T_then pe te]
+    simp [lexAux, tk, g, T]
+  rw [hT] at hD ha
+  have hD0 : D toks i (tk "(" first ln :: (T ln true e ++ (tk ")" true (ln + pnl e) :: rest))) := by
+    simpa [List.append_assoc] using hD
+  have h0 := hD0.head
+  have hD1 := hD0.tail
+  obtain ⟨s1, tl1, hT1, hbad⟩ := T_head pe ln true
+  have h1 : toks[i + 1]? = some (tk s1 true ln) := by
+    have := hD1.head?; rw [hT1] at this; simpa using this
+  have hin := he f ln true (i + 1) _ d toks (by omega) hD1 (stop_sep (Or.inr (Or.inl rfl)) te)
+  have hclose := hD1.skip.head
+  refine enter_simple (f := f + 2) h0 (by simp [stmtKeywords]) (fun t2 h2 => ?_) ?_
+  · rw [h1] at h2; cases h2; exact bad_second hbad
+  · refine ok_rw (simple_paren toks (f + 1) i d _ h0 rfl) ?_
+    rw [parseTupleOrParen]
+    oksimp
+    rw [ok_det (requireToken_ok toks "(" i d _ h0 rfl)]
+    simp only [h1, tk_text, not_badFirst hbad (show ")" ∈ badFirst by decide), Bool.false_eq_true, ↓reduceIte]
+    refine ok_mono hin ?_
+    rintro r s2 ⟨hr1, hr2, rfl⟩
+    simp only [hclose, tk_text, show ((")" : String) == ",") = false by decide, Bool.false_eq_true, ↓reduceIte]
+    rw [ok_det (requireToken_ok toks ")" _ d _ hclose rfl)]
+    have := ha ln (f + 3) (by omega)
+    simp only [hr1, TokI.pos, Pos.merge, tk_line]
+    have e1 : max (i + 1) (i + 1 + (T ln true e).length + 1)
+        = i + (tk "(" first ln :: (T ln true e ++ [tk ")" true (ln + pnl e)])).length := by simp; omega
+    have e2 : i + 1 + (T ln true e).length + 1
+        = i + (tk "(" first ln :: (T ln true e ++ [tk ")" true (ln + pnl e)])).length := by simp; omega
+    rw [e1, e2]
+    exact this
+
+/-! ### Blocks -/
+
+/-- tokens of the items of a block whose `{` is on line `l`: each item starts a new line -/
+def TItems : Nat → List Expr → List Tok
+  | _, [] => []
+  | l, e :: r => T (l + 1) false e ++ TItems (l + 1 + pnl e) r
+
+/-- the line of the last item's last token -/
+def LItems : Nat → List Expr → Nat
+  | l, [] => l
+  | l, e :: r => LItems (l + 1 + pnl e) r
+
+theorem lexAux_true_T {e : Expr} (h : PF e) (l : Nat) : lexAux true l (printExpr false e) = T l false e := by
+  obtain ⟨s, tl, h1, _⟩ := h.hd
+  simp [T, h1, lexAux]
+
+theorem items_tokens (es : List Expr) (hpf : ∀ e ∈ es, PF e) (b : Bool) (l : Nat) (B : List PTok) :
+    lexAux b l (printBlockItems es ++ (PTok.nl :: w "}" :: B)) =
+      TItems l es ++ tk "}" false (LItems l es + 1) :: lexAux false (LItems l es + 1) B := by
+  induction es generalizing b l with
+  | nil => simp [printBlockItems, TItems, LItems, lexAux, tk, w]
+  | cons e r ih =>
+    have pe := hpf e (List.mem_cons_self ..)
+    have hrest : ∃ X, printBlockItems r ++ (PTok.nl :: w "}" :: B) = PTok.nl :: X := by
+      cases r with
+      | nil => exact ⟨_, rfl⟩
+      | cons e2 r2 => exact ⟨printExpr false e2 ++ (printBlockItems r2 ++ PTok.nl :: w "}" :: B), by simp [printBlockItems]⟩
+    obtain ⟨X, hX⟩ := hrest
+    have ih' := ih (fun x hx => hpf x (List.mem_cons_of_mem _ hx))
+    simp only [printBlockItems, List.cons_append, List.nil_append, List.append_assoc, lexAux_nl, TItems, LItems]
+    rw [lexAux_append, lexAux_true_T pe, pe.nlc]
+    congr 1
+    -- whatever the flag, the next print token is a newline
+    have := ih' (fl true (printExpr false e)) (l + 1 + pnl e)
+    rw [hX] at this ⊢
+    exact this
+
+def TB (ln : Nat) (b : Block) : List Tok := lexAux false ln (printBlock b)
+
+theorem TB_eq (es : List Expr) (hpf : ∀ e ∈ es, PF e) (ln : Nat) (B : List PTok) :
+    lexAux false ln (printBlock (.mk es) ++ B) =
+      tk "{" false ln :: (TItems ln es ++ tk "}" false (LItems ln es + 1) :: lexAux false (LItems ln es + 1) B) := by
+  simp only [printBlock, List.cons_append, List.nil_append, List.append_assoc, lexAux_tok, Bool.false_and]
+  rw [show (w "{") = PTok.t "{" false from rfl, lexAux_tok, items_tokens es hpf]
+  rfl
+
+/-- Adjacent block items: one that ends in a dot access is not followed by one starting with `(`. -/
+def Adj : List Expr → Prop
+  | [] => True
+  | [_] => True
+  | e1 :: e2 :: r =>
+    (endsDot e1 = true → ∀ s tl, printExpr false e2 = PTok.t s false :: tl → s ≠ "(") ∧ Adj (e2 :: r)
+
+theorem LItems_ge (l : Nat) (es : List Expr) : l ≤ LItems l es := by
+  induction es generalizing l with
+  | nil => simp [LItems]
+  | cons e r ih => simp only [LItems]; have := ih (l + 1 + pnl e); omega
+
+/-- `Stop` for a block item followed by the first token `tk s false l2` of the next item. -/
+theorem stop_item {e : Expr} {l : Nat} {s : String} {l2 : Nat} {rest : List Tok} (hs : s ∉ badFirst)
+    (hdot : endsDot e = true → s ≠ "(") (hl : l + pnl e ≤ l2) : Stop e l (tk s false l2 :: rest) := by
+  intro t h
+  simp at h; subst h
+  have m : ∀ x, x ∈ badFirst → s ≠ x := fun x hx e => by subst e; exact hs hx
+  simp only [tk_text, tk_touch, tk_line]
+  refine ⟨m _ (by decide), m _ (by decide), m _ (by decide), by simp, hdot, by simp, m _ (by decide), m _ (by decide), ?_,
+    fun _ => hl, m _ (by decide)⟩
+  cases hc : gardenBinaryOps.contains s with
+  | false => rfl
+  | true =>
+    have : s ∈ gardenBinaryOps := by simpa using hc
+    exact absurd (List.mem_append_right _ this) hs
+
+/-- `Stop` for the last item of a block, followed by `}` on a later line. -/
+theorem stop_close {e : Expr} {l : Nat} {tt : Bool} {l2 : Nat} {rest : List Tok} (hl : l + pnl e ≤ l2) :
+    Stop e l (tk "}" tt l2 :: rest) := by
+  intro t h
+  simp at h; subst h
+  simp only [tk_text, tk_touch, tk_line]
+  refine ⟨by decide, by decide, by decide, by simp, fun _ => by decide, by simp, by decide, by decide, by decide,
+    fun _ => hl, by decide⟩
+
+theorem blockLoop_ok (es : List Expr) (hfu : ∀ e ∈ es, ∃ n, FU e n) (hpf : ∀ e ∈ es, PF e) (hadj : Adj es) :
+    ∃ N, ∀ (fuel l i : Nat) (rest : List Tok) (d : List DiagKind) (toks : Toks) (acc : List Expr) (tt : Bool),
+      N ≤ fuel → D toks i (TItems l es ++ tk "}" tt (LItems l es + 1) :: rest) →
+      Ok (blockLoop toks false fuel acc) ⟨i, d⟩ (fun r s' => r = acc ++ es ∧ s' = ⟨i + (TItems l es).length, d⟩) := by
+  induction es with
+  | nil =>
+    refine ⟨1, ?_⟩
+    intro fuel l i rest d toks acc tt hf hD
+    obtain ⟨f, rfl⟩ : ∃ f, fuel = f + 1 := ⟨fuel - 1, by omega⟩
+    simp only [TItems, List.nil_append] at hD ⊢
+    have h0 := hD.head
+    rw [blockLoop]
+    oksimp
+    simp [h0, TokI.text, ok_pure]
+  | cons e r ih =>
+    obtain ⟨ne, hne⟩ := hfu e (List.mem_cons_self ..)
+    have pe := hpf e (List.mem_cons_self ..)
+    have hadj' : Adj r := by
+      cases r with
+      | nil => trivial
+      | cons e2 r2 => exact hadj.2
+    obtain ⟨N', hN'⟩ := ih (fun x hx => hfu x (List.mem_cons_of_mem _ hx)) (fun x hx => hpf x (List.mem_cons_of_mem _ hx)) hadj'
+    refine ⟨ne + N' + 2, ?_⟩
+    intro fuel l i rest d toks acc tt hf hD
+    obtain ⟨f, rfl⟩ : ∃ f, fuel = f + 1 := ⟨fuel - 1, by omega⟩
+    simp only [TItems, LItems, List.append_assoc] at hD ⊢
+    obtain ⟨s0, tl0, hT0, hbad⟩ := T_head pe (l + 1) false
+    have h0 : toks[i]? = some (tk s0 false (l + 1)) := by
+      have := hD.head?; rw [hT0] at this; simpa using this
+    have hne_close : (s0 == "}") = false := not_badFirst hbad (by decide)
+    have hpos := T_pos pe (l + 1) false
+    -- the context of this item
+    have hstop : Stop e (l + 1) (TItems (l + 1 + pnl e) r ++ tk "}" tt (LItems (l + 1 + pnl e) r + 1) :: rest) := by
+      cases r with
+      | nil =>
+        simp only [TItems, LItems, List.nil_append]
+        exact stop_close (by omega)
+      | cons e2 r2 =>
+        have pe2 := hpf e2 (List.mem_cons_of_mem _ (List.mem_cons_self ..))
+        obtain ⟨s2, tl2, hT2, hbad2⟩ := T_head pe2 (l + 1 + pnl e + 1) false
+        obtain ⟨s2', tl2', hp2, _⟩ := pe2.hd
+        have hs2 : s2 = s2' := by
+          have : T (l + 1 + pnl e + 1) false e2 = tk s2' false (l + 1 + pnl e + 1) :: lexAux false (l + 1 + pnl e + 1) tl2' := by
+            simp [T, hp2, lexAux, tk]
+          rw [hT2] at this; injection this with h1 _; injection h1
+        simp only [TItems, List.append_assoc, hT2, List.cons_append]
+        refine stop_item hbad2 (fun hd => ?_) (by omega)
+        rw [hs2]; exact hadj.1 hd s2' tl2' (hp2 false)
+    have hres := hne f (l + 1) false i _ d toks (by omega) hD hstop
+    have hrec := hN' f (l + 1 + pnl e) (i + (T (l + 1) false e).length) rest d toks (acc ++ [e]) tt (by omega) hD.skip
+    rw [blockLoop]
+    oksimp
+    simp only [h0, Option.map_some, TokI.text, tk_text, hne_close, Bool.false_eq_true, ↓reduceIte]
+    oksimp
+    refine ok_mono hres ?_
+    rintro re s1 ⟨hr1, hr2, rfl⟩
+    have hlt : i < i + (T (l + 1) false e).length := by omega
+    simp only [hr1, pe.ninv, Bool.false_eq_true, ↓reduceIte, gt_iff_lt, hlt]
+    refine ok_mono hrec ?_
+    rintro r2' s2 ⟨h1, h2⟩
+    refine ⟨by simp [h1], ?_⟩
+    rw [h2]; simp; omega
+
+theorem block_ok (es : List Expr) (hfu : ∀ e ∈ es, ∃ n, FU e n) (hpf : ∀ e ∈ es, PF e) (hadj : Adj es) :
+    ∃ N, ∀ (fuel ln i : Nat) (rest : List Tok) (d : List DiagKind) (toks : Toks) (tt : Bool),
+      N ≤ fuel → D toks i (tk "{" tt ln :: (TItems ln es ++ tk "}" false (LItems ln es + 1) :: rest)) →
+      Ok (parseBlock toks false fuel) ⟨i, d⟩ (fun r s' => r.exprs = es ∧
+        r.close.endPos = i + 1 + (TItems ln es).length + 1 ∧ s' = ⟨i + 1 + (TItems ln es).length + 1, d⟩) := by
+  obtain ⟨N, hN⟩ := blockLoop_ok es hfu hpf hadj
+  refine ⟨N + 1, ?_⟩
+  intro fuel ln i rest d toks tt hf hD
+  obtain ⟨f, rfl⟩ : ∃ f, fuel = f + 1 := ⟨fuel - 1, by omega⟩
+  have h0 := hD.head
+  have hloop := hN f ln (i + 1) rest d toks [] false (by omega) hD.tail
+  have hclose := hD.tail.skip.head
+  rw [parseBlock]
+  oksimp
+  rw [ok_det (requireToken_ok toks "{" i d _ h0 rfl)]
+  simp only [TokI.text, tk_text, bne_self_eq_false, Bool.false_eq_true, ↓reduceIte]
+  refine ok_mono hloop ?_
+  rintro r s1 ⟨hr, rfl⟩
+  rw [ok_det (requireToken_ok toks "}" _ d _ hclose rfl)]
+  simp [hr, TokI.pos]
+
+/-! ### Keyword dispatch of `parse_expression_no_trailing` -/
+
+
+
+theorem nt_kw (toks : Toks) (f i : Nat) (d : List DiagKind) (t : Tok) (h0 : toks[i]? = some t)
+    (h2 : ∀ t2, toks[i + 1]? = some t2 → t2.text ≠ "=" ∧ t2.text ≠ "+=" ∧ t2.text ≠ "-=") :
+    (t.text = "let" → parseNoTrailing toks false (f + 1) ⟨i, d⟩ = parseLet toks false f ⟨i, d⟩) ∧
+    (t.text = "return" → parseNoTrailing toks false (f + 1) ⟨i, d⟩ = parseReturn toks false f ⟨i, d⟩) ∧
+    (t.text = "while" → parseNoTrailing toks false (f + 1) ⟨i, d⟩ = parseWhile toks false f ⟨i, d⟩) ∧
+    (t.text = "for" → parseNoTrailing toks false (f + 1) ⟨i, d⟩ = parseForIn toks false f ⟨i, d⟩) ∧
+    (t.text = "if" → parseNoTrailing toks false (f + 1) ⟨i, d⟩ = parseIf toks false f ⟨i, d⟩) ∧
+    (t.text = "break" → parseNoTrailing toks false (f + 1) ⟨i, d⟩ = .ok ⟨.brk, ⟨t.line, i + 1⟩⟩ ⟨i + 1, d⟩) ∧
+    (t.text = "continue" → parseNoTrailing toks false (f + 1) ⟨i, d⟩ = .ok ⟨.cont, ⟨t.line, i + 1⟩⟩ ⟨i + 1, d⟩) := by
+  have key : ∀ t2, toks[i + 1]? = some t2 → t2.text ≠ "=" ∧ t2.text ≠ "+=" ∧ t2.text ≠ "-=" := h2
+  refine ⟨?_, ?_, ?_, ?_, ?_, ?_, ?_⟩ <;> intro ht <;> rw [parseNoTrailing] <;>
+    (cases h3 : toks[i + 1]? with
+     | none => simp [bind_apply, P.bind, pure_apply, peek, peekAt, h0, h3, TokI.text, ht, requireToken, checkRequiredToken,
+         prev, pop, TokI.pos]
+     | some t2 =>
+       obtain ⟨e1, e2, e3⟩ := key t2 h3
+       simp [bind_apply, P.bind, pure_apply, peek, peekAt, h0, h3, TokI.text, e1, e2, e3, ht, requireToken,
+         checkRequiredToken, prev, pop, TokI.pos])
+
+/-! ### Statements -/
+
+theorem r_brk : R true .brk 2 := by
+  intro b fuel ln first i rest d toks Q _ hf hD hfo _ ha
+  obtain ⟨f, rfl⟩ : ∃ f, fuel = f + 2 := ⟨fuel - 2, by omega⟩
+  have hT : T ln first .brk = [tk "break" first ln] := by simp [T, printExpr, lexAux, tk]
+  rw [hT] at hD ha
+  replace hD : D toks i (tk "break" first ln :: rest) := by simpa using hD
+  have h0 := hD.head
+  have h1 := hD.second
+  have := (nt_kw toks f i d _ h0 (fun t2 h2 => by
+    have := hfo t2 (by rw [← h1]; exact h2); exact ⟨this.1, this.2.1, this.2.2.1⟩)).2.2.2.2.2.1 rfl
+  exact ok_exprT this (ha ln (f + 1) (by omega))
+
+theorem r_cont : R true .cont 2 := by
+  intro b fuel ln first i rest d toks Q _ hf hD hfo _ ha
+  obtain ⟨f, rfl⟩ : ∃ f, fuel = f + 2 := ⟨fuel - 2, by omega⟩
+  have hT : T ln first .cont = [tk "continue" first ln] := by simp [T, printExpr, lexAux, tk]
+  rw [hT] at hD ha
+  replace hD : D toks i (tk "continue" first ln :: rest) := by simpa using hD
+  have h0 := hD.head
+  have h1 := hD.second
+  have := (nt_kw toks f i d _ h0 (fun t2 h2 => by
+    have := hfo t2 (by rw [← h1]; exact h2); exact ⟨this.1, this.2.1, this.2.2.1⟩)).2.2.2.2.2.2 rfl
+  exact ok_exprT this (ha ln (f + 1) (by omega))
+
+/-- Finish a complete expression whose head parser has returned: the trailing loop stops. -/
+theorem fu_finish {toks : Toks} {f i j : Nat} {d : List DiagKind} {e : Expr} {ln : Nat} {rest : List Tok}
+    (h : Ok (parseNoTrailing toks false (f + 1)) ⟨i, d⟩ (Res1 e j d)) (hD : D toks j rest) (hs : Stop e ln rest) :
+    Ok (parseExpressionT toks false true (f + 2)) ⟨i, d⟩ (Res1 e j d) := by
+  refine ok_exprT' (ok_mono h ?_)
+  rintro pe s1 ⟨h1, h2, rfl⟩
+  exact ok_of_eq (trailing_stop' toks true f j d pe e ln rest hD hs) ⟨h1, h2, rfl⟩
+
+theorem stop_second {e : Expr} {ln : Nat} {rest : List Tok} (hs : Stop e ln rest) :
+    ∀ t2, rest.head? = some t2 → t2.text ≠ "=" ∧ t2.text ≠ "+=" ∧ t2.text ≠ "-=" := by
+  intro t2 h2; have := hs t2 h2; exact ⟨this.1, this.2.1, this.2.2.1⟩
+
+theorem fu_ret_none : FU (.ret none) 3 := by
+  intro fuel ln first i rest d toks hf hD hs
+  obtain ⟨f, rfl⟩ : ∃ f, fuel = f + 3 := ⟨fuel - 3, by omega⟩
+  have hT : T ln first (.ret none) = [tk "return" first ln] := by simp [T, printExpr, lexAux, tk]
+  rw [hT] at hD ⊢
+  replace hD : D toks i (tk "return" first ln :: rest) := by simpa using hD
+  have h0 := hD.head
+  have h1 := hD.second
+  have hD1 := hD.tail
+  refine fu_finish (f := f + 1) (ln := ln) ?_ hD1 hs
+  refine ok_rw ((nt_kw toks (f + 1) i d _ h0 (fun t2 h2 => stop_second hs t2 (by rw [← h1]; exact h2))).2.1 rfl) ?_
+  rw [parseReturn]
+  oksimp
+  rw [ok_det (requireToken_ok toks "return" i d _ h0 rfl)]
+  simp only [tk_endLine]
+  cases hr : rest.head? with
+  | none =>
+    have : toks[i + 1]? = none := by rw [h1]; exact hr
+    simp [this, ok_pure, Res1, TokI.pos]
+  | some t2 =>
+    have h1' : toks[i + 1]? = some t2 := by rw [h1]; exact hr
+    have hline := (hs t2 hr).2.2.2.2.2.2.2.2.2.1 rfl
+    have hne : (ln == t2.line) = false := by
+      have : pnl (.ret none) = 1 := by simp [pnl, printExpr, nlc]
+      rw [this] at hline
+      simp; omega
+    simp [h1', hne, ok_pure, Res1, TokI.pos]
+
+theorem fu_ret_some {e : Expr} {n : Nat} (he : FU e n) (pe : PF e) : FU (.ret (some e)) (n + 3) := by
+  intro fuel ln first i rest d toks hf hD hs
+  obtain ⟨f, rfl⟩ : ∃ f, fuel = f + 3 := ⟨fuel - 3, by omega⟩
+  have hT : T ln first (.ret (some e)) = tk "return" first ln :: T ln false e := by
+    simp [T, printExpr, lexAux, tk]
+  rw [hT] at hD ⊢
+  have hD0 : D toks i (tk "return" first ln :: (T ln false e ++ rest)) := by simpa using hD
+  have h0 := hD0.head
+  have hD1 := hD0.tail
+  obtain ⟨s1, tl1, hT1, hbad⟩ := T_head pe ln false
+  have h1 : toks[i + 1]? = some (tk s1 false ln) := by
+    have := hD1.head?; rw [hT1] at this; simpa using this
+  have hs' : Stop e ln rest := by
+    intro t ht
+    have := hs t ht
+    simpa [endsDot, tailRet, pnl, printExpr, nlc] using this
+  have hin := he f ln false (i + 1) rest d toks (by omega) hD1 hs'
+  have hD2 := hD1.skip
+  have hj : i + (tk "return" first ln :: T ln false e).length = i + 1 + (T ln false e).length := by simp; omega
+  rw [hj]
+  refine fu_finish (toks := toks) (i := i) (d := d) (f := f + 1) (ln := ln) (e := .ret (some e)) (j := i + 1 + (T ln false e).length) ?_ hD2 hs
+  refine ok_rw ((nt_kw toks (f + 1) i d _ h0 (fun t2 h2 => by rw [h1] at h2; cases h2; exact bad_second hbad)).2.1 rfl) ?_
+  rw [parseReturn]
+  oksimp
+  rw [ok_det (requireToken_ok toks "return" i d _ h0 rfl)]
+  simp only [h1, Option.map_some, tk_endLine, tk_line, beq_self_eq_true, ↓reduceIte]
+  oksimp
+  refine ok_mono hin ?_
+  rintro r s1' ⟨hr1, hr2, rfl⟩
+  simp [Res1, hr1, hr2, TokI.pos, Pos.merge]
+
+theorem nt_assign (toks : Toks) (f i : Nat) (d : List DiagKind) (t t2 : Tok) (h0 : toks[i]? = some t)
+    (h1 : toks[i + 1]? = some t2) :
+    (t2.text = "=" → parseNoTrailing toks false (f + 1) ⟨i, d⟩ = parseAssign toks false f ⟨i, d⟩) ∧
+    ((t2.text = "+=" ∨ t2.text = "-=") →
+      parseNoTrailing toks false (f + 1) ⟨i, d⟩ = parseAssignUpdate toks false f ⟨i, d⟩) := by
+  constructor
+  · intro h; rw [parseNoTrailing]
+    simp [bind_apply, P.bind, peek, peekAt, h0, h1, TokI.text, h]
+  · intro h; rw [parseNoTrailing]
+    rcases h with h | h <;> simp [bind_apply, P.bind, peek, peekAt, h0, h1, TokI.text, h]
+
+theorem stop_lbrace {e : Expr} {ln : Nat} {l2 : Nat} {rest : List Tok} (ht : tailRet e = false) :
+    Stop e ln (tk "{" false l2 :: rest) := by
+  intro t h
+  simp at h; subst h
+  simp only [tk_text, tk_touch, tk_line]
+  refine ⟨by decide, by decide, by decide, by simp, fun _ => by decide, by simp, by decide, by decide, by decide,
+    (fun h => by rw [ht] at h; cases h), by decide⟩
+
+theorem stop_tail {e' e : Expr} {ln : Nat} {rest : List Tok} (hs : Stop e' ln rest)
+    (h1 : endsDot e' = endsDot e) (h2 : tailRet e' = tailRet e) (h3 : pnl e' = pnl e) : Stop e ln rest := by
+  intro t ht
+  have := hs t ht
+  rw [h1, h2, h3] at this
+  exact this
+
+theorem fu_let {x : String} {e : Expr} {n : Nat} (hx : ValidName x) (he : FU e n) (pe : PF e) :
+    FU (.letE (.sym x) none e) (n + 3) := by
+  intro fuel ln first i rest d toks hf hD hs
+  obtain ⟨f, rfl⟩ : ∃ f, fuel = f + 3 := ⟨fuel - 3, by omega⟩
+  have hT : T ln first (.letE (.sym x) none e) = tk "let" first ln :: tk x false ln :: tk "=" false ln :: T ln false e := by
+    simp [T, printExpr, printDest, printHintOpt, lexAux, tk, w]
+  rw [hT] at hD ⊢
+  have hD0 : D toks i (tk "let" first ln :: tk x false ln :: tk "=" false ln :: (T ln false e ++ rest)) := by
+    simpa using hD
+  have h0 := hD0.head
+  have hD1 := hD0.tail
+  have h1 := hD1.head
+  have hD2 := hD1.tail
+  have h2 := hD2.head
+  have hD3 := hD2.tail
+  have hs' : Stop e ln rest := stop_tail hs (by simp [endsDot]) (by simp [tailRet])
+    (by simp [pnl, printExpr, printDest, printHintOpt, nlc, w])
+  have hin := he f ln false (i + 1 + 1 + 1) rest d toks (by omega) hD3 hs'
+  have hj : i + (tk "let" first ln :: tk x false ln :: tk "=" false ln :: T ln false e).length
+      = i + 1 + 1 + 1 + (T ln false e).length := by simp; omega
+  rw [hj]
+  refine fu_finish (toks := toks) (i := i) (d := d) (f := f + 1) (ln := ln) (e := .letE (.sym x) none e)
+    (j := i + 1 + 1 + 1 + (T ln false e).length) ?_ hD3.skip hs
+  refine ok_rw ((nt_kw toks (f + 1) i d _ h0 (fun t2 h2' => by
+    rw [h1] at h2'; cases h2'
+    exact ⟨ne_of_isSymbolTok hx.sym (by decide), ne_of_isSymbolTok hx.sym (by decide), ne_of_isSymbolTok hx.sym (by decide)⟩)).1 rfl) ?_
+  rw [parseLet]
+  oksimp
+  rw [ok_det (requireToken_ok toks "let" i d _ h0 rfl)]
+  simp only [parseLetDestination]
+  oksimp
+  simp only [h1, tk_text, hx.beq_nonsym (lit := "(") (by decide), Bool.false_eq_true, ↓reduceIte]
+  rw [ok_det (parseSymbol_ok toks (i + 1) d _ h1 hx)]
+  simp only [parseColonAndHintOpt]
+  oksimp
+  simp only [h2, Option.map_some, TokI.text, tk_text, show (("=" : String) == ":") = false by decide,
+    show isSymbolTok "=" = false by decide, Bool.false_and, Bool.false_eq_true, ↓reduceIte]
+  oksimp
+  rw [ok_det (requireToken_ok toks "=" (i + 1 + 1) d _ h2 rfl)]
+  refine ok_mono hin ?_
+  rintro r s1' ⟨hr1, hr2, rfl⟩
+  simp [Res1, hr1, hr2, TokI.pos, Pos.merge]
+  omega
+
+theorem fu_assign {x : String} {e : Expr} {n : Nat} (hx : ValidName x) (he : FU e n) (pe : PF e) :
+    FU (.assign x e) (n + 3) := by
+  intro fuel ln first i rest d toks hf hD hs
+  obtain ⟨f, rfl⟩ : ∃ f, fuel = f + 3 := ⟨fuel - 3, by omega⟩
+  have hT : T ln first (.assign x e) = tk x first ln :: tk "=" false ln :: T ln false e := by
+    simp [T, printExpr, lexAux, tk, w]
+  rw [hT] at hD ⊢
+  have hD0 : D toks i (tk x first ln :: tk "=" false ln :: (T ln false e ++ rest)) := by simpa using hD
+  have h0 := hD0.head
+  have hD1 := hD0.tail
+  have h1 := hD1.head
+  have hD2 := hD1.tail
+  have hs' : Stop e ln rest := stop_tail hs (by simp [endsDot]) (by simp [tailRet]) (by simp [pnl, printExpr, nlc, w])
+  have hin := he f ln false (i + 1 + 1) rest d toks (by omega) hD2 hs'
+  have hj : i + (tk x first ln :: tk "=" false ln :: T ln false e).length
+      = i + 1 + 1 + (T ln false e).length := by simp; omega
+  rw [hj]
+  refine fu_finish (toks := toks) (i := i) (d := d) (f := f + 1) (ln := ln) (e := .assign x e)
+    (j := i + 1 + 1 + (T ln false e).length) ?_ hD2.skip hs
+  refine ok_rw ((nt_assign toks (f + 1) i d _ _ h0 h1).1 rfl) ?_
+  rw [parseAssign]
+  oksimp
+  rw [ok_det (parseSymbol_ok toks i d _ h0 hx)]
+  simp only [h1, tk_text, beq_self_eq_true, Bool.not_true, Bool.false_eq_true, ↓reduceIte]
+  rw [ok_det (requireToken_ok toks "=" (i + 1) d _ h1 rfl)]
+  refine ok_mono hin ?_
+  rintro r s1' ⟨hr1, hr2, rfl⟩
+  simp [Res1, hr1, hr2, Pos.merge]
+  omega
+
+theorem fu_update {op x : String} {e : Expr} {n : Nat} (hop : op = "+=" ∨ op = "-=") (hx : ValidName x)
+    (he : FU e n) (pe : PF e) : FU (.update op x e) (n + 3) := by
+  intro fuel ln first i rest d toks hf hD hs
+  obtain ⟨f, rfl⟩ : ∃ f, fuel = f + 3 := ⟨fuel - 3, by omega⟩
+  have hT : T ln first (.update op x e) = tk x first ln :: tk op false ln :: T ln false e := by
+    simp [T, printExpr, lexAux, tk, w]
+  rw [hT] at hD ⊢
+  have hD0 : D toks i (tk x first ln :: tk op false ln :: (T ln false e ++ rest)) := by simpa using hD
+  have h0 := hD0.head
+  have hD1 := hD0.tail
+  have h1 := hD1.head
+  have hD2 := hD1.tail
+  have hs' : Stop e ln rest := stop_tail hs (by simp [endsDot]) (by simp [tailRet]) (by simp [pnl, printExpr, nlc, w])
+  have hin := he f ln false (i + 1 + 1) rest d toks (by omega) hD2 hs'
+  have hj : i + (tk x first ln :: tk op false ln :: T ln false e).length
+      = i + 1 + 1 + (T ln false e).length := by simp; omega
+  rw [hj]
+  refine fu_finish (toks := toks) (i := i) (d := d) (f := f + 1) (ln := ln) (e := .update op x e)
+    (j := i + 1 + 1 + (T ln false e).length) ?_ hD2.skip hs
+  refine ok_rw ((nt_assign toks (f + 1) i d _ _ h0 h1).2 (by simpa using hop)) ?_
+  rw [parseAssignUpdate]
+  oksimp
+  rw [ok_det (parseSymbol_ok toks i d _ h0 hx)]
+  simp only [requireAToken]
+  oksimp
+  simp only [h1]
+  rcases hop with rfl | rfl
+  · simp only [TokI.text, tk_text, beq_self_eq_true, ↓reduceIte]
+    (try oksimp)
+    refine ok_mono hin ?_
+    rintro r s1' ⟨hr1, hr2, rfl⟩
+    simp [Res1, hr1, hr2, Pos.merge]
+    omega
+  · simp only [TokI.text, tk_text, show (("-=" : String) == "+=") = false by decide, beq_self_eq_true,
+      Bool.false_eq_true, ↓reduceIte]
+    (try oksimp)
+    refine ok_mono hin ?_
+    rintro r s1' ⟨hr1, hr2, rfl⟩
+    simp [Res1, hr1, hr2, Pos.merge]
+    omega
+
+/-! ### Loops and conditionals -/
+
+/-- hypotheses about the items of a block -/
+structure BlockOK (es : List Expr) : Prop where
+  fu : ∀ e ∈ es, ∃ n, FU e n
+  pf : ∀ e ∈ es, PF e
+  adj : Adj es
+
+theorem r_while {c : Expr} {es : List Expr} {nc : Nat} (hc : FU c nc) (pc : PF c) (tc : tailRet c = false)
+    (hb : BlockOK es) : ∃ n, R true (.whileE c (.mk es)) n := by
+  obtain ⟨NB, hNB⟩ := block_ok es hb.fu hb.pf hb.adj
+  refine ⟨nc + NB + 3, ?_⟩
+  intro b fuel ln first i rest d toks Q _ hfu hD hfo _ ha
+  obtain ⟨f, rfl⟩ : ∃ f, fuel = f + 3 := ⟨fuel - 3, by omega⟩
+  have hT : T ln first (.whileE c (.mk es)) = tk "while" first ln :: (T ln false c ++
+      tk "{" false (ln + pnl c) :: (TItems (ln + pnl c) es ++ [tk "}" false (LItems (ln + pnl c) es + 1)])) := by
+    simp only [T, printExpr, List.cons_append, List.nil_append, lexAux_tok, Bool.not_false, Bool.and_true]
+    rw [T_then pc tc]
+    have := TB_eq es hb.pf (ln + pnl c) []
+    simp only [List.append_nil] at this
+    rw [this]
+    simp [lexAux, T]
+  rw [hT] at hD ha
+  have hD0 : D toks i (tk "while" first ln :: (T ln false c ++ (tk "{" false (ln + pnl c) ::
+      (TItems (ln + pnl c) es ++ tk "}" false (LItems (ln + pnl c) es + 1) :: rest)))) := by
+    simpa [List.append_assoc] using hD
+  have h0 := hD0.head
+  have hD1 := hD0.tail
+  obtain ⟨s1, tl1, hT1, hbad⟩ := T_head pc ln false
+  have h1 : toks[i + 1]? = some (tk s1 false ln) := by
+    have := hD1.head?; rw [hT1] at this; simpa using this
+  have hcond := hc f ln false (i + 1) _ d toks (by omega) hD1 (stop_lbrace tc)
+  have hblock := hNB f (ln + pnl c) (i + 1 + (T ln false c).length) rest d toks false (by omega) hD1.skip
+  refine ok_exprT' (ok_rw ((nt_kw toks (f + 1) i d _ h0 (fun t2 h2 => by
+    rw [h1] at h2; cases h2; exact bad_second hbad)).2.2.1 rfl) ?_)
+  rw [parseWhile]
+  oksimp
+  rw [ok_det (requireToken_ok toks "while" i d _ h0 rfl)]
+  refine ok_mono hcond ?_
+  rintro rc s1' ⟨hr1, hr2, rfl⟩
+  refine ok_mono hblock ?_
+  rintro rb s2 ⟨hb1, hb2, rfl⟩
+  have := ha ln (f + 2) (by omega)
+  simp only [hr1, PBlock.block, hb1, TokI.pos, Pos.merge, tk_line, hb2]
+  have e1 : max (i + 1) (i + 1 + (T ln false c).length + 1 + (TItems (ln + pnl c) es).length + 1)
+      = i + (tk "while" first ln :: (T ln false c ++ tk "{" false (ln + pnl c) ::
+        (TItems (ln + pnl c) es ++ [tk "}" false (LItems (ln + pnl c) es + 1)]))).length := by simp; omega
+  have e2 : i + 1 + (T ln false c).length + 1 + (TItems (ln + pnl c) es).length + 1
+      = i + (tk "while" first ln :: (T ln false c ++ tk "{" false (ln + pnl c) ::
+        (TItems (ln + pnl c) es ++ [tk "}" false (LItems (ln + pnl c) es + 1)]))).length := by simp; omega
+  rw [e1, e2]
+  exact this
+
+theorem r_for {x : String} {c : Expr} {es : List Expr} {nc : Nat} (hx : ValidName x) (hc : FU c nc) (pc : PF c)
+    (tc : tailRet c = false) (hb : BlockOK es) : ∃ n, R true (.forIn (.sym x) c (.mk es)) n := by
+  obtain ⟨NB, hNB⟩ := block_ok es hb.fu hb.pf hb.adj
+  refine ⟨nc + NB + 3, ?_⟩
+  intro b fuel ln first i rest d toks Q _ hfu hD hfo _ ha
+  obtain ⟨f, rfl⟩ : ∃ f, fuel = f + 3 := ⟨fuel - 3, by omega⟩
+  have hT : T ln first (.forIn (.sym x) c (.mk es)) = tk "for" first ln :: tk x false ln :: tk "in" false ln ::
+      (T ln false c ++ tk "{" false (ln + pnl c) ::
+        (TItems (ln + pnl c) es ++ [tk "}" false (LItems (ln + pnl c) es + 1)])) := by
+    simp only [T, printExpr, printDest, List.cons_append, List.nil_append, lexAux_tok, Bool.not_false, Bool.and_true, w,
+      Bool.false_and]
+    rw [T_then pc tc]
+    have := TB_eq es hb.pf (ln + pnl c) []
+    simp only [List.append_nil] at this
+    rw [this]
+    simp [lexAux, T, tk]
+  rw [hT] at hD ha
+  have hD0 : D toks i (tk "for" first ln :: tk x false ln :: tk "in" false ln :: (T ln false c ++
+      (tk "{" false (ln + pnl c) :: (TItems (ln + pnl c) es ++ tk "}" false (LItems (ln + pnl c) es + 1) :: rest)))) := by
+    simpa [List.append_assoc] using hD
+  have h0 := hD0.head
+  have hD1 := hD0.tail
+  have h1 := hD1.head
+  have hD2 := hD1.tail
+  have h2 := hD2.head
+  have hD3 := hD2.tail
+  have hcond := hc f ln false (i + 1 + 1 + 1) _ d toks (by omega) hD3 (stop_lbrace tc)
+  have hblock := hNB f (ln + pnl c) (i + 1 + 1 + 1 + (T ln false c).length) rest d toks false (by omega) hD3.skip
+  refine ok_exprT' (ok_rw ((nt_kw toks (f + 1) i d _ h0 (fun t2 h2' => by
+    rw [h1] at h2'; cases h2'
+    exact ⟨ne_of_isSymbolTok hx.sym (by decide), ne_of_isSymbolTok hx.sym (by decide), ne_of_isSymbolTok hx.sym (by decide)⟩)).2.2.2.1 rfl) ?_)
+  rw [parseForIn]
+  oksimp
+  rw [ok_det (requireToken_ok toks "for" i d _ h0 rfl)]
+  simp only [parseLetDestination]
+  oksimp
+  simp only [h1, tk_text, hx.beq_nonsym (lit := "(") (by decide), Bool.false_eq_true, ↓reduceIte]
+  rw [ok_det (parseSymbol_ok toks (i + 1) d _ h1 hx)]
+  oksimp
+  rw [ok_det (requireToken_ok toks "in" (i + 1 + 1) d _ h2 rfl)]
+  refine ok_mono hcond ?_
+  rintro rc s1' ⟨hr1, hr2, rfl⟩
+  refine ok_mono hblock ?_
+  rintro rb s2 ⟨hb1, hb2, rfl⟩
+  have := ha ln (f + 2) (by omega)
+  simp only [hr1, PBlock.block, hb1, TokI.pos, Pos.merge, tk_line, hb2, tk_text]
+  have e1 : max (i + 1) (i + 1 + 1 + 1 + (T ln false c).length + 1 + (TItems (ln + pnl c) es).length + 1)
+      = i + (tk "for" first ln :: tk x false ln :: tk "in" false ln :: (T ln false c ++ tk "{" false (ln + pnl c) ::
+        (TItems (ln + pnl c) es ++ [tk "}" false (LItems (ln + pnl c) es + 1)]))).length := by simp; omega
+  have e2 : i + 1 + 1 + 1 + (T ln false c).length + 1 + (TItems (ln + pnl c) es).length + 1
+      = i + (tk "for" first ln :: tk x false ln :: tk "in" false ln :: (T ln false c ++ tk "{" false (ln + pnl c) ::
+        (TItems (ln + pnl c) es ++ [tk "}" false (LItems (ln + pnl c) es + 1)]))).length := by simp; omega
+  rw [e1, e2]
+  exact this
+
+theorem r_if_none {c : Expr} {es : List Expr} {nc : Nat} (hc : FU c nc) (pc : PF c) (tc : tailRet c = false)
+    (hb : BlockOK es) : ∃ n, R true (.ifE c (.mk es) none) n := by
+  obtain ⟨NB, hNB⟩ := block_ok es hb.fu hb.pf hb.adj
+  refine ⟨nc + NB + 3, ?_⟩
+  intro b fuel ln first i rest d toks Q _ hfu hD hfo _ ha
+  obtain ⟨f, rfl⟩ : ∃ f, fuel = f + 3 := ⟨fuel - 3, by omega⟩
+  have hT : T ln first (.ifE c (.mk es) none) = tk "if" first ln :: (T ln false c ++
+      tk "{" false (ln + pnl c) :: (TItems (ln + pnl c) es ++ [tk "}" false (LItems (ln + pnl c) es + 1)])) := by
+    simp only [T, printExpr, List.cons_append, List.nil_append, lexAux_tok, Bool.not_false, Bool.and_true]
+    rw [T_then pc tc]
+    have := TB_eq es hb.pf (ln + pnl c) []
+    simp only [List.append_nil] at this
+    rw [this]
+    simp [lexAux, T]
+  rw [hT] at hD ha
+  have hD0 : D toks i (tk "if" first ln :: (T ln false c ++ (tk "{" false (ln + pnl c) ::
+      (TItems (ln + pnl c) es ++ tk "}" false (LItems (ln + pnl c) es + 1) :: rest)))) := by
+    simpa [List.append_assoc] using hD
+  have h0 := hD0.head
+  have hD1 := hD0.tail
+  obtain ⟨s1, tl1, hT1, hbad⟩ := T_head pc ln false
+  have h1 : toks[i + 1]? = some (tk s1 false ln) := by
+    have := hD1.head?; rw [hT1] at this; simpa using this
+  have hcond := hc f ln false (i + 1) _ d toks (by omega) hD1 (stop_lbrace tc)
+  have hblock := hNB f (ln + pnl c) (i + 1 + (T ln false c).length) rest d toks false (by omega) hD1.skip
+  have hnext := hD1.skip.tail.skip.tail.head?
+  have hnoelse : (match toks[i + 1 + (T ln false c).length + 1 + (TItems (ln + pnl c) es).length + 1]? with
+      | some t => t.text == "else" | none => false) = false := by
+    rw [hnext]
+    cases hr' : rest.head? with
+    | none => rfl
+    | some t => simp; exact (hfo t hr').2.2.2.2.2
+  refine ok_exprT' (ok_rw ((nt_kw toks (f + 1) i d _ h0 (fun t2 h2 => by
+    rw [h1] at h2; cases h2; exact bad_second hbad)).2.2.2.2.1 rfl) ?_)
+  rw [parseIf]
+  oksimp
+  rw [ok_det (requireToken_ok toks "if" i d _ h0 rfl)]
+  refine ok_mono hcond ?_
+  rintro rc s1' ⟨hr1, hr2, rfl⟩
+  refine ok_mono hblock ?_
+  rintro rb s2 ⟨hb1, hb2, rfl⟩
+  simp only [hnoelse, Bool.false_eq_true, ↓reduceIte]
+  have := ha ln (f + 2) (by omega)
+  simp only [hr1, PBlock.block, hb1, TokI.pos, Pos.merge, tk_line, hb2]
+  have e1 : max (i + 1) (i + 1 + (T ln false c).length + 1 + (TItems (ln + pnl c) es).length + 1)
+      = i + (tk "if" first ln :: (T ln false c ++ tk "{" false (ln + pnl c) ::
+        (TItems (ln + pnl c) es ++ [tk "}" false (LItems (ln + pnl c) es + 1)]))).length := by simp; omega
+  have e2 : i + 1 + (T ln false c).length + 1 + (TItems (ln + pnl c) es).length + 1
+      = i + (tk "if" first ln :: (T ln false c ++ tk "{" false (ln + pnl c) ::
+        (TItems (ln + pnl c) es ++ [tk "}" false (LItems (ln + pnl c) es + 1)]))).length := by simp; omega
+  rw [e1, e2]
+  exact this
+
+theorem r_if_some {c : Expr} {es es2 : List Expr} {nc : Nat} (hc : FU c nc) (pc : PF c) (tc : tailRet c = false)
+    (hb : BlockOK es) (hb2 : BlockOK es2) : ∃ n, R true (.ifE c (.mk es) (some (.mk es2))) n := by
+  obtain ⟨NB, hNB⟩ := block_ok es hb.fu hb.pf hb.adj
+  obtain ⟨NB2, hNB2⟩ := block_ok es2 hb2.fu hb2.pf hb2.adj
+  refine ⟨nc + NB + NB2 + 3, ?_⟩
+  intro b fuel ln first i rest d toks Q _ hfu hD hfo _ ha
+  obtain ⟨f, rfl⟩ : ∃ f, fuel = f + 3 := ⟨fuel - 3, by omega⟩
+  -- abbreviations for the lines
+  generalize hl1 : ln + pnl c = l1 at *
+  generalize hl2 : LItems l1 es + 1 = l2 at *
+  have hT : T ln first (.ifE c (.mk es) (some (.mk es2))) = tk "if" first ln :: (T ln false c ++
+      tk "{" false l1 :: (TItems l1 es ++ tk "}" false l2 :: tk "else" false l2 :: tk "{" false l2 ::
+        (TItems l2 es2 ++ [tk "}" false (LItems l2 es2 + 1)]))) := by
+    simp only [T, printExpr, List.cons_append, List.nil_append, lexAux_tok, Bool.not_false, Bool.and_true,
+      List.append_assoc]
+    rw [T_then pc tc, hl1, TB_eq es hb.pf l1, hl2]
+    have := TB_eq es2 hb2.pf l2 []
+    simp only [List.append_nil] at this
+    simp only [List.cons_append, List.nil_append, lexAux_tok, w, Bool.false_and]
+    rw [show lexAux false l2 (printBlock (Block.mk es2)) = _ from this]
+    simp [lexAux, T]
+  rw [hT] at hD ha
+  have hD0 : D toks i (tk "if" first ln :: (T ln false c ++ (tk "{" false l1 ::
+      (TItems l1 es ++ tk "}" false l2 :: (tk "else" false l2 :: tk "{" false l2 ::
+        (TItems l2 es2 ++ tk "}" false (LItems l2 es2 + 1) :: rest)))))) := by
+    simpa [List.append_assoc] using hD
+  have h0 := hD0.head
+  have hD1 := hD0.tail
+  obtain ⟨s1, tl1, hT1, hbad⟩ := T_head pc ln false
+  have h1 : toks[i + 1]? = some (tk s1 false ln) := by
+    have := hD1.head?; rw [hT1] at this; simpa using this
+  have hcond := hc f ln false (i + 1) _ d toks (by omega) hD1 (by rw [← hl1]; exact stop_lbrace tc)
+  have hD2 := hD1.skip
+  have hblock := hNB f l1 (i + 1 + (T ln false c).length) _ d toks false (by omega) (by rw [hl2]; exact hD2)
+  have hD3 := hD2.tail.skip.tail
+  have helse := hD3.head
+  have hD4 := hD3.tail
+  have hbrace := hD4.head
+  have hblock2 := hNB2 f l2 (i + 1 + (T ln false c).length + 1 + (TItems l1 es).length + 1 + 1) rest d toks false
+    (by omega) hD4
+  refine ok_exprT' (ok_rw ((nt_kw toks (f + 1) i d _ h0 (fun t2 h2 => by
+    rw [h1] at h2; cases h2; exact bad_second hbad)).2.2.2.2.1 rfl) ?_)
+  rw [parseIf]
+  oksimp
+  rw [ok_det (requireToken_ok toks "if" i d _ h0 rfl)]
+  refine ok_mono hcond ?_
+  rintro rc s1' ⟨hr1, hr2, rfl⟩
+  refine ok_mono hblock ?_
+  rintro rb s2 ⟨hb1, hb2', rfl⟩
+  simp only [helse, tk_text, beq_self_eq_true, ↓reduceIte]
+  simp only [hbrace, tk_text, show (("{" : String) == "if") = false by decide, Bool.false_eq_true, ↓reduceIte]
+  refine ok_mono hblock2 ?_
+  rintro rb2 s3 ⟨hc1, hc2, rfl⟩
+  have := ha ln (f + 2) (by omega)
+  simp only [hr1, PBlock.block, hb1, hc1, TokI.pos, Pos.merge, tk_line, hc2]
+  have e1 : max (i + 1) (i + 1 + (T ln false c).length + 1 + (TItems l1 es).length + 1 + 1 + 1 + (TItems l2 es2).length + 1)
+      = i + (tk "if" first ln :: (T ln false c ++ tk "{" false l1 :: (TItems l1 es ++ tk "}" false l2 ::
+        tk "else" false l2 :: tk "{" false l2 :: (TItems l2 es2 ++ [tk "}" false (LItems l2 es2 + 1)])))).length := by
+    simp; omega
+  have e2 : i + 1 + (T ln false c).length + 1 + (TItems l1 es).length + 1 + 1 + 1 + (TItems l2 es2).length + 1
+      = i + (tk "if" first ln :: (T ln false c ++ tk "{" false l1 :: (TItems l1 es ++ tk "}" false l2 ::
+        tk "else" false l2 :: tk "{" false l2 :: (TItems l2 es2 ++ [tk "}" false (LItems l2 es2 + 1)])))).length := by
+    simp; omega
+  rw [e1, e2]
+  exact this
+
+/-! ### Print facts for every constructor -/
+
+theorem fl_tok (b : Bool) (a : List PTok) (s : String) (t : Bool) : fl b (a ++ [PTok.t s t]) = false := by
+  rw [fl_append]; rfl
+
+theorem pf_leaf (e : Expr) (s : String) (hp : ∀ first, printExpr first e = [PTok.t s first]) (hs : s ∉ badFirst)
+    (ht : tailRet e = false) (hn : e.isInvalidOrPlaceholder = false) : PF e :=
+  ⟨⟨s, [], hp, hs⟩, fun b first => by rw [hp, ht]; rfl, hn⟩
+
+theorem intTok_not_bad {s : String} {i : Int} (h : IntTok s i) : s ∉ badFirst := by
+  intro hm
+  have : ∀ x ∈ badFirst, isIntTok x = false := by decide
+  have := this s hm
+  rw [h.int] at this; cases this
+
+theorem validName_not_bad {x : String} (h : ValidName x) : x ∉ badFirst := by
+  intro hm
+  have : ∀ y ∈ badFirst, isSymbolTok y = false ∨ keywords.contains y = true := by decide
+  rcases this x hm with h1 | h1
+  · rw [h.sym] at h1; cases h1
+  · rw [h.notKw] at h1; cases h1
+
+theorem pf_int {i : Int} (h : IntTok (toString i) i) : PF (.intLit i) :=
+  pf_leaf _ (toString i) (fun _ => by simp [printExpr]) (intTok_not_bad h) rfl rfl
+
+theorem pf_var {x : String} (h : ValidName x) : PF (.var x) :=
+  pf_leaf _ x (fun _ => by simp [printExpr]) (validName_not_bad h) rfl
+    (by simpa [Expr.isInvalidOrPlaceholder, isPlaceholderName] using h.notPh)
+
+theorem pf_brk : PF .brk := pf_leaf _ "break" (fun _ => by simp [printExpr]) (by decide) rfl rfl
+theorem pf_cont : PF .cont := pf_leaf _ "continue" (fun _ => by simp [printExpr]) (by decide) rfl rfl
+
+/-- a compound form that starts with the text of `r` and ends with a token -/
+theorem pf_post {r e : Expr} (pr : PF r) (X : List PTok) (s : String) (t : Bool)
+    (hp : ∀ first, printExpr first e = printExpr first r ++ X ++ [PTok.t s t])
+    (ht : tailRet e = false) (hn : e.isInvalidOrPlaceholder = false) : PF e := by
+  obtain ⟨s0, tl, h1, h2⟩ := pr.hd
+  refine ⟨⟨s0, tl ++ X ++ [PTok.t s t], fun first => by rw [hp, h1]; simp, h2⟩, fun b first => ?_, hn⟩
+  rw [hp, fl_tok, ht]
+
+/-- a compound form that starts with a keyword / bracket and ends with a token -/
+theorem pf_kw {e : Expr} (k : String) (X : List PTok) (s : String) (t : Bool)
+    (hp : ∀ first, printExpr first e = PTok.t k first :: (X ++ [PTok.t s t])) (hk : k ∉ badFirst)
+    (ht : tailRet e = false) (hn : e.isInvalidOrPlaceholder = false) : PF e := by
+  refine ⟨⟨k, X ++ [PTok.t s t], hp, hk⟩, fun b first => ?_, hn⟩
+  rw [hp, ht]
+  show fl false (X ++ [PTok.t s t]) = false
+  exact fl_tok _ _ _ _
+
+theorem pf_dot {r : Expr} {f : String} (pr : PF r) : PF (.dot r f) :=
+  pf_post pr [g "."] f true (fun first => by simp [printExpr, g]) rfl rfl
+theorem pf_ns {r : Expr} {f : String} (pr : PF r) : PF (.ns r f) :=
+  pf_post pr [g "::"] f true (fun first => by simp [printExpr, g]) rfl rfl
+theorem pf_call {f : Expr} {args : List Expr} (pf : PF f) : PF (.call f args) :=
+  pf_post pf ([g "("] ++ printArgs true args) ")" true (fun first => by simp [printExpr, g]) rfl rfl
+theorem pf_paren {e : Expr} : PF (.paren e) :=
+  pf_kw "(" (printExpr true e) ")" true (fun first => by simp [printExpr, g]) (by decide) rfl rfl
+
+theorem printBlock_split (es : List Expr) : ∃ X, printBlock (.mk es) = X ++ [PTok.t "}" false] :=
+  ⟨[w "{"] ++ printBlockItems es ++ [PTok.nl], by simp [printBlock, w]⟩
+
+theorem pf_while {c : Expr} {es : List Expr} : PF (.whileE c (.mk es)) := by
+  obtain ⟨X, hX⟩ := printBlock_split es
+  exact pf_kw "while" (printExpr false c ++ X) "}" false (fun first => by simp [printExpr, hX]) (by decide) rfl rfl
+theorem pf_for {d : LetDest} {c : Expr} {es : List Expr} : PF (.forIn d c (.mk es)) := by
+  obtain ⟨X, hX⟩ := printBlock_split es
+  exact pf_kw "for" (printDest d ++ [w "in"] ++ printExpr false c ++ X) "}" false
+    (fun first => by simp [printExpr, hX]) (by decide) rfl rfl
+theorem pf_if_none {c : Expr} {es : List Expr} : PF (.ifE c (.mk es) none) := by
+  obtain ⟨X, hX⟩ := printBlock_split es
+  exact pf_kw "if" (printExpr false c ++ X) "}" false (fun first => by simp [printExpr, hX]) (by decide) rfl rfl
+theorem pf_if_some {c : Expr} {es es2 : List Expr} : PF (.ifE c (.mk es) (some (.mk es2))) := by
+  obtain ⟨X, hX⟩ := printBlock_split es2
+  exact pf_kw "if" (printExpr false c ++ printBlock (.mk es) ++ [w "else"] ++ X) "}" false
+    (fun first => by simp [printExpr, hX]) (by decide) rfl rfl
+
+theorem pf_binop {l r : Expr} {op : String} (pl : PF l) (pr : PF r) (tr : tailRet r = false) : PF (.binop l op r) := by
+  obtain ⟨s0, tl, h1, h2⟩ := pl.hd
+  refine ⟨⟨s0, tl ++ [w op] ++ printExpr false r, fun first => by simp [printExpr, h1], h2⟩, fun b first => ?_, rfl⟩
+  simp only [printExpr]
+  rw [fl_append, pr.fl, tr]; rfl
+
+/-- a statement `kw … = e` / `x = e` / `return e`: starts with a token, ends like `e` -/
+theorem pf_stmt {e' e : Expr} (pe : PF e) (k : String) (X : List PTok)
+    (hp : ∀ first, printExpr first e' = PTok.t k first :: (X ++ printExpr false e)) (hk : k ∉ badFirst)
+    (ht : tailRet e' = tailRet e) (hn : e'.isInvalidOrPlaceholder = false) : PF e' := by
+  refine ⟨⟨k, X ++ printExpr false e, hp, hk⟩, fun b first => ?_, hn⟩
+  rw [hp, ht]
+  show fl false (X ++ printExpr false e) = tailRet e
+  rw [fl_append, pe.fl]
+
+theorem pf_let {x : String} {e : Expr} (pe : PF e) : PF (.letE (.sym x) none e) :=
+  pf_stmt pe "let" [w x, w "="] (fun first => by simp [printExpr, printDest, printHintOpt, w]) (by decide) rfl rfl
+theorem pf_assign {x : String} {e : Expr} (hx : ValidName x) (pe : PF e) : PF (.assign x e) :=
+  pf_stmt pe x [w "="] (fun first => by simp [printExpr, w]) (validName_not_bad hx) rfl rfl
+theorem pf_update {op x : String} {e : Expr} (hx : ValidName x) (pe : PF e) : PF (.update op x e) :=
+  pf_stmt pe x [w op] (fun first => by simp [printExpr, w]) (validName_not_bad hx) rfl rfl
+theorem pf_ret_some {e : Expr} (pe : PF e) : PF (.ret (some e)) :=
+  pf_stmt pe "return" [] (fun first => by simp [printExpr]) (by decide) rfl rfl
+theorem pf_ret_none : PF (.ret none) :=
+  ⟨⟨"return", [PTok.nl], fun first => by simp [printExpr], by decide⟩, fun b first => by simp [printExpr, fl, tailRet], rfl⟩
+
+/-! ### Method calls, lists, strings, tuples -/
+
+theorem r_mcall {r : Expr} {m : String} {args : List Expr} {nr : Nat} (hr : R true r nr) (pr : PF r)
+    (tr : tailRet r = false) (hm : ValidName m)
+    (hfu : ∀ a ∈ args, ∃ n, FU a n) (hpf : ∀ a ∈ args, PF a ∧ tailRet a = false) :
+    ∃ n, R true (.mcall r m args) n := by
+  obtain ⟨N, hN⟩ := callArgs_ok args hfu hpf
+  refine ⟨nr + N + 2, ?_⟩
+  intro b fuel ln first i rest d toks Q _ hfu' hD hfo _ ha
+  generalize hl1 : ln + pnl r = l1 at *
+  have hT : T ln first (.mcall r m args) = T ln first r ++ tk "." true l1 :: tk m true l1 :: tk "(" true l1 ::
+      (TA l1 true args ++ [tk ")" true (l1 + pnlA args)]) := by
+    simp only [T, printExpr, List.append_assoc]
+    rw [T_then pr tr, hl1]
+    simp only [List.cons_append, List.nil_append, lexAux_tok, g, Bool.and_true, Bool.not_false]
+    rw [TA_then args hpf]
+    simp [lexAux, tk, T]
+  rw [hT] at hD ha
+  have hD' : D toks i (T ln first r ++ (tk "." true l1 :: tk m true l1 :: tk "(" true l1 ::
+      (TA l1 true args ++ tk ")" true (l1 + pnlA args) :: rest))) := by
+    simpa [List.append_assoc] using hD
+  refine hr b fuel ln first i _ d toks Q (fun h => by cases h) (by omega) hD' ?_ (fun h => by cases h) ?_
+  · intro t ht; simp at ht; subst ht; simp
+  · intro ln' fuel' hl
+    obtain ⟨k, rfl⟩ : ∃ k, fuel' = k + 1 := ⟨fuel' - 1, by omega⟩
+    have hD1 := hD'.skip
+    have h0 := hD1.head
+    have hD2 := hD1.tail
+    have h1 := hD2.head
+    have hD3 := hD2.tail
+    have h2 := hD3.head
+    have hsym := parseSymbol_ok toks (i + (T ln first r).length + 1) d _ h1 hm
+    have hca := hN k l1 (i + (T ln first r).length + 1 + 1) rest d toks true true _ _ (by omega) hD3
+    rw [trailing]
+    oksimp
+    simp only [h0, Option.map_some, TokI.text, tk_text, tk_touch, h1]
+    simp only [show (("." : String) == "(") = false by decide, show (("." : String) == ".") = true by decide,
+      Bool.false_and, Bool.false_eq_true, ↓reduceIte]
+    oksimp
+    simp only [h0, h1, Option.map_some, tk_touch, ↓reduceIte]
+    rw [ok_det hsym]
+    simp only [h2, tk_text, beq_self_eq_true, ↓reduceIte]
+    refine ok_mono hca ?_
+    rintro ⟨as, cl⟩ s1 ⟨e1, e2, rfl⟩
+    simp only at e1 e2
+    have hlt : i + (T ln first r).length < i + (T ln first r).length + 1 + 1 + 1 + (TA l1 true args).length + 1 := by omega
+    simp only [gt_iff_lt, hlt, ↓reduceIte, e1, Pos.merge, e2, tk_text]
+    have := ha ln' k (by omega)
+    have x1 : max (i + (T ln first r).length) (i + (T ln first r).length + 1 + 1 + 1 + (TA l1 true args).length + 1)
+        = i + (T ln first r ++ tk "." true l1 :: tk m true l1 :: tk "(" true l1 ::
+          (TA l1 true args ++ [tk ")" true (l1 + pnlA args)])).length := by simp; omega
+    have x2 : i + (T ln first r).length + 1 + 1 + 1 + (TA l1 true args).length + 1
+        = i + (T ln first r ++ tk "." true l1 :: tk m true l1 :: tk "(" true l1 ::
+          (TA l1 true args ++ [tk ")" true (l1 + pnlA args)])).length := by simp; omega
+    rw [x1, x2]
+    exact this
+
+theorem simple_list (toks : Toks) (fuel i : Nat) (d : List DiagKind) (t : Tok)
+    (h1 : toks[i]? = some t) (hx : t.text = "[") :
+    parseSimple toks false (fuel + 1) ⟨i, d⟩ = parseListLiteral toks false fuel ⟨i, d⟩ := by
+  rw [parseSimple]
+  simp [bind_apply, P.bind, peek, peekAt, h1, TokI.text, hx]
+
+theorem TA_head {a : Expr} {r : List Expr} (pa : PF a) (ln : Nat) (first : Bool) :
+    ∃ s tl, TA ln first (a :: r) = tk s first ln :: tl ∧ s ∉ badFirst := by
+  obtain ⟨s0, tl, hp, hb⟩ := pa.hd
+  cases r with
+  | nil => exact ⟨s0, lexAux false ln tl, by simp [TA, printArgs, hp, lexAux, tk], hb⟩
+  | cons a2 r2 =>
+    exact ⟨s0, lexAux false ln (tl ++ g "," :: printArgs false (a2 :: r2)), by simp [TA, printArgs, hp, lexAux, tk], hb⟩
+
+theorem r_list {items : List Expr} (hfu : ∀ a ∈ items, ∃ n, FU a n) (hpf : ∀ a ∈ items, PF a ∧ tailRet a = false) :
+    ∃ n, R true (.list items) n := by
+  obtain ⟨N, hN⟩ := comma_ok items hfu hpf
+  refine ⟨N + 4, ?_⟩
+  intro b fuel ln first i rest d toks Q _ hfu' hD hfo _ ha
+  obtain ⟨f, rfl⟩ : ∃ f, fuel = f + 4 := ⟨fuel - 4, by omega⟩
+  have hT : T ln first (.list items) = tk "[" first ln :: (TA ln true items ++ [tk "]" true (ln + pnlA items)]) := by
+    simp only [T, printExpr, List.cons_append, List.nil_append, lexAux_tok, Bool.not_false, Bool.and_true]
+    rw [TA_then items hpf]
+    simp [lexAux, tk, g, TA]
+  rw [hT] at hD ha
+  have hD0 : D toks i (tk "[" first ln :: (TA ln true items ++ (tk "]" true (ln + pnlA items) :: rest))) := by
+    simpa [List.append_assoc] using hD
+  have h0 := hD0.head
+  have hD1 := hD0.tail
+  have hitems := hN f ln true (i + 1) rest d toks [] ln "]" true _ (by omega) (Or.inr rfl) hD1
+  have hclose := hD1.skip.head
+  -- the token after `[` is the first token of the first item, or `]`
+  have h2 : ∀ t2, toks[i + 1]? = some t2 → t2.text ≠ "=" ∧ t2.text ≠ "+=" ∧ t2.text ≠ "-=" := by
+    intro t2 ht2
+    cases items with
+    | nil =>
+      have hD1' : D toks (i + 1) (tk "]" true (ln + pnlA []) :: rest) := by simpa [TA, printArgs, lexAux] using hD1
+      rw [hD1'.head] at ht2; cases ht2
+      refine ⟨?_, ?_, ?_⟩ <;> (simp only [tk_text]; decide)
+    | cons a r =>
+      obtain ⟨pa, _⟩ := hpf a (List.mem_cons_self ..)
+      obtain ⟨s0, tl', htl, hb⟩ := TA_head (r := r) pa ln true
+      rw [htl] at hD1
+      have := hD1.head
+      rw [this] at ht2; cases ht2
+      exact bad_second hb
+  refine enter_simple (f := f + 2) h0 (by simp [stmtKeywords]) h2 ?_
+  refine ok_rw (simple_list toks (f + 1) i d _ h0 rfl) ?_
+  rw [parseListLiteral]
+  oksimp
+  rw [ok_det (requireToken_ok toks "[" i d _ h0 rfl)]
+  simp only [tk_line]
+  refine ok_mono hitems ?_
+  rintro r s1 ⟨hr, rfl⟩
+  simp only [closePos]
+  oksimp
+  simp only [TA] at hclose ⊢
+  simp only [hclose, Option.map_some, TokI.text, tk_text, beq_self_eq_true, ↓reduceIte]
+  oksimp
+  simp only [hclose]
+  have := ha ln (f + 3) (by omega)
+  simp only [List.nil_append] at hr
+  simp only [hr, TokI.pos, Pos.merge, tk_line]
+  have e1 : max (i + 1) (i + 1 + (lexAux false ln (printArgs true items)).length + 1)
+      = i + (tk "[" first ln :: (TA ln true items ++ [tk "]" true (ln + pnlA items)])).length := by simp [TA]; omega
+  have e2 : i + 1 + (lexAux false ln (printArgs true items)).length + 1
+      = i + (tk "[" first ln :: (TA ln true items ++ [tk "]" true (ln + pnlA items)])).length := by simp [TA]; omega
+  rw [e1, e2]
+  exact this
+
+/-! ### String literals -/
+
+theorem unescape_escape (cs : List Char) : unescapeChars (escapeChars cs) = (0, cs) := by
+  induction cs with
+  | nil => simp [escapeChars, unescapeChars]
+  | cons c r ih =>
+    unfold escapeChars
+    by_cases h1 : c = '\\'
+    · subst h1; simp [unescapeChars, ih]
+    · by_cases h2 : c = '"'
+      · subst h2; simp [unescapeChars, ih]
+      · by_cases h3 : c = '\n'
+        · subst h3; simp [unescapeChars, ih]
+        · by_cases h4 : c = '\t'
+          · subst h4; simp [unescapeChars, ih]
+          · simp only [beq_iff_eq, h1, h2, h3, h4, ↓reduceIte]
+            rw [unescapeChars]
+            · simp [ih]
+            all_goals (intros; simp_all)
+
+theorem dropLastQuote_snoc (l : List Char) : dropLastQuote (l ++ ['"']) = l := by
+  simp [dropLastQuote]
+
+theorem strTok_toList (s : String) : (strTok s).toList = '"' :: (escapeChars s.toList ++ ['"']) := by
+  simp [strTok]
+
+theorem unescapeTok_strTok (s : String) : unescapeTok (strTok s) = (0, s) := by
+  simp [unescapeTok, strTok_toList, dropLastQuote_snoc, unescape_escape]
+
+/-- facts about the text of a string literal token -/
+structure StrFacts (x : String) : Prop where
+  str : isStringTok x = true
+  notSym : isSymbolTok x = false
+  notBad : x ∉ badFirst
+  notStmt : x ∉ stmtKeywords
+  ne1 : x ≠ "(" ∧ x ≠ "[" ∧ x ≠ "Dict" ∧ x ≠ "fun" ∧ x ≠ "assert"
+
+theorem strFacts (s : String) : StrFacts (strTok s) := by
+  have hstr : isStringTok (strTok s) = true := by simp [isStringTok, strTok_toList]
+  have hsym : isSymbolTok (strTok s) = false := by simp [isSymbolTok, strTok_toList, isSymStart]
+  have key : ∀ y : String, isStringTok y = false → strTok s ≠ y := by
+    intro y hy e; rw [e, hy] at hstr; cases hstr
+  refine ⟨hstr, hsym, ?_, ?_, ?_⟩
+  · intro hm
+    have : ∀ y ∈ badFirst, isStringTok y = false := by decide
+    exact key _ (this _ hm) rfl
+  · intro hm
+    have : ∀ y ∈ stmtKeywords, isStringTok y = false := by decide
+    exact key _ (this _ hm) rfl
+  · exact ⟨key _ (by decide), key _ (by decide), key _ (by decide), key _ (by decide), key _ (by decide)⟩
+
+theorem simple_str (toks : Toks) (fuel i : Nat) (d : List DiagKind) (t : Tok) (s : String)
+    (h1 : toks[i]? = some t) (ht : t.text = strTok s) :
+    parseSimple toks false (fuel + 1) ⟨i, d⟩ = .ok ⟨.strLit s, ⟨t.line, i + 1⟩⟩ ⟨i + 1, d⟩ := by
+  have hf := strFacts s
+  rw [parseSimple]
+  obtain ⟨n1, n2, n3, n4, n5⟩ := hf.ne1
+  simp [bind_apply, P.bind, pure_apply, peek, peekAt, h1, TokI.text, ht, n1, n2, n3, n4, n5, hf.notSym, hf.str, pop,
+    unescapeTok_strTok, diagN, TokI.pos]
+
+theorem T_str (ln : Nat) (first : Bool) (s : String) : T ln first (.strLit s) = [tk (strTok s) first ln] := by
+  simp [T, printExpr, lexAux, tk]
+
+theorem r_str (s : String) : R true (.strLit s) 3 := by
+  intro b fuel ln first i rest d toks Q _ hf hD hfo _ ha
+  obtain ⟨f, rfl⟩ : ∃ f, fuel = f + 3 := ⟨fuel - 3, by omega⟩
+  rw [T_str] at hD ha
+  replace hD : D toks i (tk (strTok s) first ln :: rest) := by simpa using hD
+  have h0 := hD.head
+  have h1 := hD.second
+  have hnt : parseNoTrailing toks false (f + 2) ⟨i, d⟩ = .ok ⟨.strLit s, ⟨ln, i + 1⟩⟩ ⟨i + 1, d⟩ := by
+    rw [noTrailing_simple toks (f + 1) i d _ h0 (strFacts s).notStmt (fun t2 h2 => (fol_second hfo t2 (h1 ▸ h2)).1)]
+    simpa using simple_str toks f i d _ s h0 rfl
+  exact ok_exprT hnt (ha ln (f + 2) (by omega))
+
+theorem pf_str (s : String) : PF (.strLit s) :=
+  pf_leaf _ (strTok s) (fun _ => by simp [printExpr]) (strFacts s).notBad rfl rfl
+
+/-! ### Tuple literals -/
+
+/-- tokens of `, e2, e3 …` (the part of a tuple after its first element) -/
+def TLs : Nat → List Expr → List Tok
+  | _, [] => []
+  | l, e :: r => tk "," true l :: (T l false e ++ TLs (l + pnl e) r)
+
+def LLs : Nat → List Expr → Nat
+  | l, [] => l
+  | l, e :: r => LLs (l + pnl e) r
+
+theorem args_tail (a : Expr) (rs : List Expr) (pa : PF a) (ta : tailRet a = false)
+    (hpf : ∀ x ∈ rs, PF x ∧ tailRet x = false) (ln : Nat) (first : Bool) (B : List PTok) :
+    lexAux false ln (printArgs first (a :: rs) ++ B) =
+      T ln first a ++ (TLs (ln + pnl a) rs ++ lexAux false (LLs (ln + pnl a) rs) B) := by
+  induction rs generalizing a ln first with
+  | nil =>
+    simp only [printArgs, TLs, LLs, List.nil_append]
+    exact T_then pa ta ln first B
+  | cons a2 r2 ih =>
+    obtain ⟨pa2, ta2⟩ := hpf a2 (List.mem_cons_self ..)
+    have hpa : printArgs first (a :: a2 :: r2) = printExpr first a ++ ([g ","] ++ printArgs false (a2 :: r2)) := by
+      simp [printArgs]
+    rw [hpa, List.append_assoc, T_then pa ta]
+    simp only [List.cons_append, List.nil_append, List.append_assoc, lexAux_tok, g, Bool.and_true, Bool.not_false, TLs, LLs]
+    rw [ih a2 pa2 ta2 (fun x hx => hpf x (List.mem_cons_of_mem _ hx))]
+
+theorem tupleLoop_ok (rs : List Expr) (hfu : ∀ a ∈ rs, ∃ n, FU a n) (hpf : ∀ a ∈ rs, PF a ∧ tailRet a = false) :
+    ∃ N, ∀ (fuel l i : Nat) (rest : List Tok) (d : List DiagKind) (toks : Toks) (acc : List Expr) (tt : Bool) (lt : Nat),
+      N ≤ fuel → D toks i (TLs l rs ++ tk ")" tt lt :: rest) →
+      Ok (tupleLoop toks false fuel acc) ⟨i, d⟩ (fun r s' => r = acc ++ rs ∧ s' = ⟨i + (TLs l rs).length, d⟩) := by
+  induction rs with
+  | nil =>
+    refine ⟨1, ?_⟩
+    intro fuel l i rest d toks acc tt lt hf hD
+    obtain ⟨f, rfl⟩ : ∃ f, fuel = f + 1 := ⟨fuel - 1, by omega⟩
+    simp only [TLs, List.nil_append] at hD ⊢
+    have h0 := hD.head
+    rw [tupleLoop]
+    oksimp
+    simp [h0, ok_pure]
+  | cons a r ih =>
+    obtain ⟨na, hna⟩ := hfu a (List.mem_cons_self ..)
+    obtain ⟨pa, ta⟩ := hpf a (List.mem_cons_self ..)
+    obtain ⟨N', hN'⟩ := ih (fun x hx => hfu x (List.mem_cons_of_mem _ hx)) (fun x hx => hpf x (List.mem_cons_of_mem _ hx))
+    refine ⟨na + N' + 2, ?_⟩
+    intro fuel l i rest d toks acc tt lt hf hD
+    obtain ⟨f, rfl⟩ : ∃ f, fuel = f + 1 := ⟨fuel - 1, by omega⟩
+    simp only [TLs, List.cons_append, List.append_assoc] at hD ⊢
+    have h0 := hD.head
+    have hD1 := hD.tail
+    obtain ⟨s0, tl0, hT0, hbad⟩ := T_head pa l false
+    have h1 : toks[i + 1]? = some (tk s0 false l) := by
+      have := hD1.head?; rw [hT0] at this; simpa using this
+    have hstop : Stop a l (TLs (l + pnl a) r ++ tk ")" tt lt :: rest) := by
+      cases r with
+      | nil => simp only [TLs, List.nil_append]; exact stop_sep (Or.inr (Or.inl rfl)) ta
+      | cons a2 r2 => simp only [TLs, List.cons_append]; exact stop_sep (Or.inl rfl) ta
+    have hres := hna f l false (i + 1) _ d toks (by omega) hD1 hstop
+    have hrec := hN' f (l + pnl a) (i + 1 + (T l false a).length) rest d toks (acc ++ [a]) tt lt (by omega) hD1.skip
+    have hpos := T_pos pa l false
+    rw [tupleLoop]
+    oksimp
+    simp only [h0, tk_text, beq_self_eq_true, show (("," : String) == ")") = false by decide, Bool.not_true,
+      Bool.false_and, Bool.false_eq_true, ↓reduceIte]
+    (try oksimp)
+    simp only [h0, h1, tk_text, not_badFirst hbad (show ")" ∈ badFirst by decide), Bool.false_eq_true, ↓reduceIte]
+    refine ok_mono hres ?_
+    rintro re s1 ⟨hr1, hr2, rfl⟩
+    have hlt : i + 1 < i + 1 + (T l false a).length := by omega
+    simp only [hr1, pa.ninv, Bool.and_false, Bool.false_eq_true, ↓reduceIte, gt_iff_lt, hlt]
+    refine ok_mono hrec ?_
+    rintro r2' s2 ⟨h1', h2'⟩
+    refine ⟨by simp [h1'], ?_⟩
+    rw [h2']; simp; omega
+
+theorem r_tuple_nil : R true (.tuple []) 4 := by
+  intro b fuel ln first i rest d toks Q _ hfu hD hfo _ ha
+  obtain ⟨f, rfl⟩ : ∃ f, fuel = f + 4 := ⟨fuel - 4, by omega⟩
+  have hT : T ln first (.tuple []) = [tk "(" first ln, tk ")" true ln] := by simp [T, printExpr, lexAux, tk, g]
+  rw [hT] at hD ha
+  replace hD : D toks i (tk "(" first ln :: tk ")" true ln :: rest) := by simpa using hD
+  have h0 := hD.head
+  have h1 := hD.tail.head
+  refine enter_simple (f := f + 2) h0 (by simp [stmtKeywords]) (fun t2 h2 => ?_) ?_
+  · rw [h1] at h2; cases h2; refine ⟨?_, ?_, ?_⟩ <;> (simp only [tk_text]; decide)
+  · refine ok_rw (simple_paren toks (f + 1) i d _ h0 rfl) ?_
+    rw [parseTupleOrParen]
+    oksimp
+    rw [ok_det (requireToken_ok toks "(" i d _ h0 rfl)]
+    simp only [h1, tk_text, beq_self_eq_true, ↓reduceIte]
+    rw [ok_det (requireToken_ok toks ")" (i + 1) d _ h1 rfl)]
+    have := ha ln (f + 3) (by omega)
+    simpa [TokI.pos, Pos.merge] using this
+
+/-- a tuple with at least one element: `(e,)` or `(e, e2, …)` -/
+theorem r_tuple_cons {e : Expr} {rs : List Expr} {ne : Nat} (he : FU e ne) (pe : PF e) (te : tailRet e = false)
+    (hfu : ∀ a ∈ rs, ∃ n, FU a n) (hpf : ∀ a ∈ rs, PF a ∧ tailRet a = false) :
+    ∃ n, R true (.tuple (e :: rs)) n := by
+  obtain ⟨N, hN⟩ := tupleLoop_ok rs hfu hpf
+  refine ⟨ne + N + 6, ?_⟩
+  intro b fuel ln first i rest d toks Q _ hfu' hD hfo _ ha
+  obtain ⟨f, rfl⟩ : ∃ f, fuel = f + 4 := ⟨fuel - 4, by omega⟩
+  obtain ⟨s1, tl1, hT1, hbad⟩ := T_head pe ln true
+  -- the shape of the tokens after the first element
+  have hshape : ∃ (X : List Tok) (lc : Nat), T ln first (.tuple (e :: rs)) = tk "(" first ln :: (T ln true e ++ X ++ [tk ")" true lc]) ∧
+      (∀ (rest' : List Tok) (d' : List DiagKind) (i' : Nat), D toks i' (X ++ tk ")" true lc :: rest') →
+        Ok (tupleLoop toks false f [e]) ⟨i', d'⟩ (fun r s' => r = e :: rs ∧ s' = ⟨i' + X.length, d'⟩)) ∧
+      (∃ xt, X = tk "," true (ln + pnl e) :: xt) := by
+    cases rs with
+    | nil =>
+      refine ⟨[tk "," true (ln + pnl e)], ln + pnl e, ?_, ?_, ⟨[], rfl⟩⟩
+      · simp only [T, printExpr, List.cons_append, List.nil_append, lexAux_tok, Bool.not_false, Bool.and_true]
+        rw [T_then pe te]
+        simp [lexAux, tk, g, T]
+      · intro rest' d' i' hD'
+        have hc := hD'.head
+        have hp := hD'.tail.head
+        obtain ⟨f', hf'⟩ : ∃ f', f = f' + 1 := ⟨f - 1, by omega⟩
+        rw [hf']
+        rw [tupleLoop]
+        oksimp
+        simp only [hc, tk_text, beq_self_eq_true, show (("," : String) == ")") = false by decide, Bool.not_true,
+          Bool.false_and, Bool.false_eq_true, ↓reduceIte]
+        (try oksimp)
+        simp only [hc, hp, tk_text, beq_self_eq_true, ↓reduceIte]
+        simp [ok_pure]
+    | cons a2 r2 =>
+      refine ⟨TLs (ln + pnl e) (a2 :: r2), LLs (ln + pnl e) (a2 :: r2), ?_, ?_, ⟨_, rfl⟩⟩
+      · simp only [T, printExpr, List.cons_append, List.nil_append, lexAux_tok, Bool.not_false, Bool.and_true]
+        rw [args_tail e (a2 :: r2) pe te hpf]
+        simp [lexAux, tk, g, T]
+      · intro rest' d' i' hD'
+        refine ok_mono (hN f (ln + pnl e) i' rest' d' toks [e] true _ (by omega) hD') ?_
+        rintro r s' ⟨h1, h2⟩
+        exact ⟨by simpa using h1, h2⟩
+  obtain ⟨X, lc, hT, hloop, ⟨xt, hX⟩⟩ := hshape
+  rw [hT] at hD ha
+  have hD0 : D toks i (tk "(" first ln :: (T ln true e ++ (X ++ tk ")" true lc :: rest))) := by
+    simpa [List.append_assoc] using hD
+  have h0 := hD0.head
+  have hD1 := hD0.tail
+  have h1 : toks[i + 1]? = some (tk s1 true ln) := by
+    have := hD1.head?; rw [hT1] at this; simpa using this
+  have hstop : Stop e ln (X ++ tk ")" true lc :: rest) := by
+    rw [hX]; exact stop_sep (Or.inl rfl) te
+  have hin := he f ln true (i + 1) _ d toks (by omega) hD1 hstop
+  have hD2 := hD1.skip
+  have hcomma : toks[i + 1 + (T ln true e).length]? = some (tk "," true (ln + pnl e)) := by
+    have := hD2.head?; rw [hX] at this; simpa using this
+  have hl := hloop rest d (i + 1 + (T ln true e).length) hD2
+  have hclose := hD2.skip.head
+  refine enter_simple (f := f + 2) h0 (by simp [stmtKeywords]) (fun t2 h2 => ?_) ?_
+  · rw [h1] at h2; cases h2; exact bad_second hbad
+  · refine ok_rw (simple_paren toks (f + 1) i d _ h0 rfl) ?_
+    rw [parseTupleOrParen]
+    oksimp
+    rw [ok_det (requireToken_ok toks "(" i d _ h0 rfl)]
+    simp only [h1, tk_text, not_badFirst hbad (show ")" ∈ badFirst by decide), Bool.false_eq_true, ↓reduceIte]
+    refine ok_mono hin ?_
+    rintro r s2 ⟨hr1, hr2, rfl⟩
+    simp only [hcomma, tk_text, beq_self_eq_true, ↓reduceIte, hr1]
+    refine ok_mono hl ?_
+    rintro es s3 ⟨hes, rfl⟩
+    rw [ok_det (requireToken_ok toks ")" _ d _ hclose rfl)]
+    have := ha ln (f + 3) (by omega)
+    simp only [hes, TokI.pos, Pos.merge, tk_line]
+    have e1 : max (i + 1) (i + 1 + (T ln true e).length + X.length + 1)
+        = i + (tk "(" first ln :: (T ln true e ++ X ++ [tk ")" true lc])).length := by simp; omega
+    have e2 : i + 1 + (T ln true e).length + X.length + 1
+        = i + (tk "(" first ln :: (T ln true e ++ X ++ [tk ")" true lc])).length := by simp; omega
+    rw [e1, e2]
+    exact this
+
+theorem pf_tuple {es : List Expr} : PF (.tuple es) := by
+  cases es with
+  | nil => exact pf_kw "(" [] ")" true (fun first => by simp [printExpr, g]) (by decide) rfl rfl
+  | cons e r =>
+    cases r with
+    | nil => exact pf_kw "(" (printExpr true e ++ [g ","]) ")" true (fun first => by simp [printExpr, g]) (by decide) rfl rfl
+    | cons e2 r2 =>
+      exact pf_kw "(" (printArgs true (e :: e2 :: r2)) ")" true (fun first => by simp [printExpr, g]) (by decide) rfl rfl
+
+theorem pf_list {es : List Expr} : PF (.list es) :=
+  pf_kw "[" (printArgs true es) "]" true (fun first => by simp [printExpr, g]) (by decide) rfl rfl
+
+theorem pf_mcall {r : Expr} {m : String} {args : List Expr} (pr : PF r) : PF (.mcall r m args) :=
+  pf_post pr ([g ".", g m, g "("] ++ printArgs true args) ")" true (fun first => by simp [printExpr, g]) rfl rfl
+
+
+/-! ### Pieces without newlines (type hints, parameters, destinations, patterns) -/
+
+/-- a print-token list without newlines -/
+def Flat (A : List PTok) : Prop := fl false A = false ∧ nlc A = 0
+
+theorem Flat.nil : Flat [] := ⟨rfl, rfl⟩
+theorem Flat.cons {s : String} {t : Bool} {A : List PTok} (h : Flat A) : Flat (PTok.t s t :: A) := ⟨h.1, h.2⟩
+theorem Flat.append {A B : List PTok} (ha : Flat A) (hb : Flat B) : Flat (A ++ B) := by
+  refine ⟨?_, ?_⟩
+  · rw [fl_append, ha.1, hb.1]
+  · rw [nlc_append, ha.2, hb.2]
+
+theorem lex_flat {A : List PTok} (h : Flat A) (ln : Nat) (B : List PTok) :
+    lexAux false ln (A ++ B) = lexAux false ln A ++ lexAux false ln B := by
+  rw [lexAux_append, h.1, h.2]; rfl
+
+/-- Type hints the grammar can express. -/
+inductive WTH : TypeHint → Prop
+  | named {name : String} {args : List TypeHint} : ValidName name → name ≠ "Tuple" → (∀ a ∈ args, WTH a) →
+      WTH (.mk name args)
+  | tuple {args : List TypeHint} : (∀ a ∈ args, WTH a) → WTH (.mk "Tuple" args)
+
+theorem printHints_flat (args : List TypeHint) (h : ∀ a ∈ args, Flat (printHint a)) : Flat (printHints args) := by
+  induction args with
+  | nil => simp [printHints]; exact Flat.nil
+  | cons a r ih =>
+    cases r with
+    | nil => simp [printHints]; exact h a (List.mem_cons_self ..)
+    | cons a2 r2 =>
+      have : printHints (a :: a2 :: r2) = printHint a ++ ([g ","] ++ printHints (a2 :: r2)) := by simp [printHints]
+      rw [this]
+      exact (h a (List.mem_cons_self ..)).append (Flat.cons (ih (fun x hx => h x (List.mem_cons_of_mem _ hx))))
+
+theorem hint_flat {h : TypeHint} (wh : WTH h) : Flat (printHint h) := by
+  induction wh with
+  | @named name args hn hnt _ ih =>
+    have hne : (name == "Tuple") = false := by simp [hnt]
+    have := printHints_flat args ih
+    cases args with
+    | nil => simp [printHint, hne, w]; exact Flat.cons Flat.nil
+    | cons a r =>
+      simp only [printHint, hne, Bool.false_eq_true, ↓reduceIte, w, g]
+      exact Flat.cons (Flat.cons (this.append (Flat.cons Flat.nil)))
+  | @tuple args _ ih =>
+    have := printHints_flat args ih
+    simp only [printHint, beq_self_eq_true, ↓reduceIte, w, g]
+    exact Flat.cons (this.append (Flat.cons Flat.nil))
+
+def TH (ln : Nat) (h : TypeHint) : List Tok := lexAux false ln (printHint h)
+def THs (ln : Nat) (hs : List TypeHint) : List Tok := lexAux false ln (printHints hs)
+
+/-- what the first token of a hint is -/
+def HintStart (s : String) : Prop := ValidName s ∨ s = "("
+
+theorem HintStart.ne {s : String} (h : HintStart s) : s ≠ ">" ∧ s ≠ ")" ∧ s ≠ "," ∧ s ≠ "<" := by
+  rcases h with h | rfl
+  · exact ⟨ne_of_isSymbolTok h.sym (by decide), ne_of_isSymbolTok h.sym (by decide), ne_of_isSymbolTok h.sym (by decide),
+      ne_of_isSymbolTok h.sym (by decide)⟩
+  · exact ⟨by decide, by decide, by decide, by decide⟩
+
+theorem hint_print_head {h : TypeHint} (wh : WTH h) : ∃ s X, printHint h = w s :: X ∧ HintStart s := by
+  cases wh with
+  | @named name args hn hnt _ =>
+    have hne : (name == "Tuple") = false := by simp [hnt]
+    cases args with
+    | nil => exact ⟨name, [], by simp [printHint, hne], Or.inl hn⟩
+    | cons a r => exact ⟨name, _, by simp only [printHint, hne, Bool.false_eq_true, ↓reduceIte]; rfl, Or.inl hn⟩
+  | @tuple args _ => exact ⟨"(", _, by simp only [printHint, beq_self_eq_true, ↓reduceIte]; rfl, Or.inr rfl⟩
+
+theorem hint_head {h : TypeHint} (wh : WTH h) (ln : Nat) : ∃ s tl, TH ln h = tk s false ln :: tl ∧ HintStart s := by
+  obtain ⟨s, X, h1, h2⟩ := hint_print_head wh
+  exact ⟨s, lexAux false ln X, by simp [TH, h1, w, lexAux, tk], h2⟩
+
+theorem THs_one (a : TypeHint) (ln : Nat) : THs ln [a] = TH ln a := by simp [THs, TH, printHints]
+
+theorem THs_cons2 (a a2 : TypeHint) (r2 : List TypeHint) (wa : WTH a) (ln : Nat) :
+    THs ln (a :: a2 :: r2) = TH ln a ++ tk "," true ln :: THs ln (a2 :: r2) := by
+  have : printHints (a :: a2 :: r2) = printHint a ++ ([g ","] ++ printHints (a2 :: r2)) := by simp [printHints]
+  simp only [THs, this]
+  rw [lex_flat (hint_flat wa)]
+  simp [TH, lexAux, tk, g]
+
+/-- `parse_type_hint` returns exactly `h` on its canonical text. -/
+def HOk (h : TypeHint) (N : Nat) : Prop :=
+  ∀ (fuel ln i : Nat) (rest : List Tok) (d : List DiagKind) (toks : Toks), N ≤ fuel →
+    D toks i (TH ln h ++ rest) → (∀ t, rest.head? = some t → t.text ≠ "<") →
+    Ok (parseTypeHint toks false fuel) ⟨i, d⟩ (fun r s' => r = h ∧ s' = ⟨i + (TH ln h).length, d⟩)
+
+theorem typeArgsLoop_ok (args : List TypeHint) (hw : ∀ a ∈ args, WTH a) (hok : ∀ a ∈ args, ∃ N, HOk a N)
+    (hne : args ≠ []) :
+    ∃ N, ∀ (fuel ln i : Nat) (rest : List Tok) (d : List DiagKind) (toks : Toks) (acc : List TypeHint),
+      N ≤ fuel → D toks i (THs ln args ++ tk ">" true ln :: rest) →
+      Ok (typeArgsLoop toks false fuel acc) ⟨i, d⟩
+        (fun r s' => r = acc ++ args ∧ s' = ⟨i + (THs ln args).length, d⟩) := by
+  induction args with
+  | nil => exact absurd rfl hne
+  | cons a r ih =>
+    obtain ⟨na, hna⟩ := hok a (List.mem_cons_self ..)
+    have wa := hw a (List.mem_cons_self ..)
+    cases r with
+    | nil =>
+      refine ⟨na + 1, ?_⟩
+      intro fuel ln i rest d toks acc hf hD
+      obtain ⟨f, rfl⟩ : ∃ f, fuel = f + 1 := ⟨fuel - 1, by omega⟩
+      rw [THs_one] at hD ⊢
+      obtain ⟨s0, tl0, hT0, hs0⟩ := hint_head wa ln
+      have h0 : toks[i]? = some (tk s0 false ln) := by
+        have := hD.head?; rw [hT0] at this; simpa using this
+      have hres := hna f ln i _ d toks (by omega) hD (by intro t ht; simp at ht; subst ht; simp)
+      have hclose := hD.skip.head
+      rw [typeArgsLoop]
+      oksimp
+      simp only [h0, tk_text, show (s0 == ">") = false by simp [hs0.ne.1], Bool.false_eq_true, ↓reduceIte,
+        Option.isNone_some, Bool.and_false]
+      refine ok_mono hres ?_
+      rintro r1 s1 ⟨rfl, rfl⟩
+      simp [hclose, TokI.text, ok_pure]
+    | cons a2 r2 =>
+      obtain ⟨N', hN'⟩ := ih (fun x hx => hw x (List.mem_cons_of_mem _ hx)) (fun x hx => hok x (List.mem_cons_of_mem _ hx))
+        (by simp)
+      refine ⟨na + N' + 1, ?_⟩
+      intro fuel ln i rest d toks acc hf hD
+      obtain ⟨f, rfl⟩ : ∃ f, fuel = f + 1 := ⟨fuel - 1, by omega⟩
+      rw [THs_cons2 a a2 r2 wa] at hD ⊢
+      have hD' : D toks i (TH ln a ++ (tk "," true ln :: (THs ln (a2 :: r2) ++ tk ">" true ln :: rest))) := by
+        simpa [List.append_assoc] using hD
+      obtain ⟨s0, tl0, hT0, hs0⟩ := hint_head wa ln
+      have h0 : toks[i]? = some (tk s0 false ln) := by
+        have := hD'.head?; rw [hT0] at this; simpa using this
+      have hres := hna f ln i _ d toks (by omega) hD' (by intro t ht; simp at ht; subst ht; simp)
+      have hcomma := hD'.skip.head
+      have hrec := hN' f ln (i + (TH ln a).length + 1) rest d toks (acc ++ [a]) (by omega) hD'.skip.tail
+      rw [typeArgsLoop]
+      oksimp
+      simp only [h0, tk_text, show (s0 == ">") = false by simp [hs0.ne.1], Bool.false_eq_true, ↓reduceIte,
+        Option.isNone_some, Bool.and_false]
+      refine ok_mono hres ?_
+      rintro r1 s1 ⟨rfl, rfl⟩
+      simp only [hcomma, Option.map_some, TokI.text, tk_text, beq_self_eq_true, ↓reduceIte]
+      oksimp
+      simp only [hcomma]
+      refine ok_mono hrec ?_
+      rintro r2' s2 ⟨h1, h2⟩
+      refine ⟨by simp [h1], ?_⟩
+      rw [h2]; simp; omega
+
+theorem tupleHintLoop_ok (args : List TypeHint) (hw : ∀ a ∈ args, WTH a) (hok : ∀ a ∈ args, ∃ N, HOk a N) :
+    ∃ N, ∀ (fuel ln i : Nat) (rest : List Tok) (d : List DiagKind) (toks : Toks) (acc : List TypeHint),
+      N ≤ fuel → D toks i (THs ln args ++ tk ")" true ln :: rest) →
+      Ok (tupleHintLoop toks false fuel acc) ⟨i, d⟩
+        (fun r s' => r = acc ++ args ∧ s' = ⟨i + (THs ln args).length, d⟩) := by
+  induction args with
+  | nil =>
+    refine ⟨1, ?_⟩
+    intro fuel ln i rest d toks acc hf hD
+    obtain ⟨f, rfl⟩ : ∃ f, fuel = f + 1 := ⟨fuel - 1, by omega⟩
+    have hT : THs ln [] = [] := by simp [THs, printHints, lexAux]
+    rw [hT] at hD ⊢
+    replace hD : D toks i (tk ")" true ln :: rest) := by simpa using hD
+    have h0 := hD.head
+    rw [tupleHintLoop]
+    oksimp
+    simp [h0, ok_pure]
+  | cons a r ih =>
+    obtain ⟨na, hna⟩ := hok a (List.mem_cons_self ..)
+    have wa := hw a (List.mem_cons_self ..)
+    obtain ⟨N', hN'⟩ := ih (fun x hx => hw x (List.mem_cons_of_mem _ hx)) (fun x hx => hok x (List.mem_cons_of_mem _ hx))
+    refine ⟨na + N' + 1, ?_⟩
+    intro fuel ln i rest d toks acc hf hD
+    obtain ⟨f, rfl⟩ : ∃ f, fuel = f + 1 := ⟨fuel - 1, by omega⟩
+    obtain ⟨s0, tl0, hT0, hs0⟩ := hint_head wa ln
+    cases r with
+    | nil =>
+      rw [THs_one] at hD ⊢
+      have h0 : toks[i]? = some (tk s0 false ln) := by
+        have := hD.head?; rw [hT0] at this; simpa using this
+      have hres := hna f ln i _ d toks (by omega) hD (by intro t ht; simp at ht; subst ht; simp)
+      have hclose := hD.skip.head
+      rw [tupleHintLoop]
+      oksimp
+      simp only [h0, tk_text, show (s0 == ")") = false by simp [hs0.ne.2.1], Bool.false_eq_true, ↓reduceIte]
+      refine ok_mono hres ?_
+      rintro r1 s1 ⟨rfl, rfl⟩
+      simp [hclose, TokI.text, ok_pure]
+    | cons a2 r2 =>
+      rw [THs_cons2 a a2 r2 wa] at hD ⊢
+      have hD' : D toks i (TH ln a ++ (tk "," true ln :: (THs ln (a2 :: r2) ++ tk ")" true ln :: rest))) := by
+        simpa [List.append_assoc] using hD
+      have h0 : toks[i]? = some (tk s0 false ln) := by
+        have := hD'.head?; rw [hT0] at this; simpa using this
+      have hres := hna f ln i _ d toks (by omega) hD' (by intro t ht; simp at ht; subst ht; simp)
+      have hcomma := hD'.skip.head
+      have hrec := hN' f ln (i + (TH ln a).length + 1) rest d toks (acc ++ [a]) (by omega) hD'.skip.tail
+      rw [tupleHintLoop]
+      oksimp
+      simp only [h0, tk_text, show (s0 == ")") = false by simp [hs0.ne.2.1], Bool.false_eq_true, ↓reduceIte]
+      have hlt : i < i + (TH ln a).length + 1 := by omega
+      refine ok_mono hres ?_
+      rintro r1 s1 ⟨rfl, rfl⟩
+      simp only [hcomma, Option.map_some, TokI.text, tk_text, show (("," : String) == ")") = false by decide,
+        beq_self_eq_true, Bool.false_eq_true, ↓reduceIte]
+      oksimp
+      simp only [hcomma]
+      simp only [gt_iff_lt, hlt, ↓reduceIte]
+      refine ok_mono hrec ?_
+      rintro r2' s2 ⟨h1, h2⟩
+      refine ⟨by simp [h1], ?_⟩
+      rw [h2]; simp; omega
+
+theorem hint_ok {h : TypeHint} (wh : WTH h) : ∃ N, HOk h N := by
+  induction wh with
+  | @named name args hn hnt hw ih =>
+    have hne : (name == "Tuple") = false := by simp [hnt]
+    cases args with
+    | nil =>
+      refine ⟨2, ?_⟩
+      intro fuel ln i rest d toks hf hD hfol
+      obtain ⟨f, rfl⟩ : ∃ f, fuel = f + 2 := ⟨fuel - 2, by omega⟩
+      have hT : TH ln (.mk name []) = [tk name false ln] := by simp [TH, printHint, hne, w, lexAux, tk]
+      rw [hT] at hD ⊢
+      replace hD : D toks i (tk name false ln :: rest) := by simpa using hD
+      have h0 := hD.head
+      have h1 := hD.second
+      have hno : (match toks[i + 1]? with | some t => t.text == "<" | none => false) = false := by
+        rw [h1]
+        cases hr : rest.head? with
+        | none => rfl
+        | some t => simp; exact hfol t hr
+      rw [parseTypeHint]
+      oksimp
+      simp only [h0, tk_text, hn.beq_nonsym (lit := "(") (by decide), Bool.false_eq_true, ↓reduceIte]
+      rw [ok_det (parseSymbol_ok toks i d _ h0 hn)]
+      rw [parseTypeArguments]
+      oksimp
+      rw [h1]
+      cases hr : rest.head? with
+      | none => simp [ok_pure, hne]
+      | some t => have := hfol t hr; simp [ok_pure, hne, this]
+    | cons a r =>
+      obtain ⟨NL, hNL⟩ := typeArgsLoop_ok (a :: r) hw ih (by simp)
+      refine ⟨NL + 2, ?_⟩
+      intro fuel ln i rest d toks hf hD hfol
+      obtain ⟨f, rfl⟩ : ∃ f, fuel = f + 2 := ⟨fuel - 2, by omega⟩
+      have hT : TH ln (.mk name (a :: r)) = tk name false ln :: tk "<" true ln :: (THs ln (a :: r) ++ [tk ">" true ln]) := by
+        have hfl : Flat (printHints (a :: r)) := printHints_flat _ (fun x hx => hint_flat (hw x hx))
+        simp only [TH, printHint, hne, Bool.false_eq_true, ↓reduceIte, List.cons_append, List.nil_append, w, g, lexAux_tok]
+        rw [lex_flat hfl]
+        simp [THs, lexAux, tk]
+      rw [hT] at hD ⊢
+      replace hD : D toks i (tk name false ln :: tk "<" true ln :: (THs ln (a :: r) ++ tk ">" true ln :: rest)) := by
+        simpa [List.append_assoc] using hD
+      have h0 := hD.head
+      have hD1 := hD.tail
+      have h1 := hD1.head
+      have hD2 := hD1.tail
+      have hloop := hNL f ln (i + 1 + 1) rest d toks [] (by omega) hD2
+      have hclose := hD2.skip.head
+      rw [parseTypeHint]
+      oksimp
+      simp only [h0, tk_text, hn.beq_nonsym (lit := "(") (by decide), Bool.false_eq_true, ↓reduceIte]
+      rw [ok_det (parseSymbol_ok toks i d _ h0 hn)]
+      rw [parseTypeArguments]
+      oksimp
+      simp only [h1, tk_text, beq_self_eq_true, Bool.not_true, Bool.false_eq_true, ↓reduceIte]
+      rw [ok_det (requireToken_ok toks "<" (i + 1) d _ h1 rfl)]
+      refine ok_mono hloop ?_
+      rintro r1 s1 ⟨hr, rfl⟩
+      rw [ok_det (requireToken_ok toks ">" _ d _ hclose rfl)]
+      simp [ok_pure, hne, hr]
+      omega
+  | @tuple args hw ih =>
+    obtain ⟨NL, hNL⟩ := tupleHintLoop_ok args hw ih
+    refine ⟨NL + 2, ?_⟩
+    intro fuel ln i rest d toks hf hD hfol
+    obtain ⟨f, rfl⟩ : ∃ f, fuel = f + 2 := ⟨fuel - 2, by omega⟩
+    have hT : TH ln (.mk "Tuple" args) = tk "(" false ln :: (THs ln args ++ [tk ")" true ln]) := by
+      have hfl : Flat (printHints args) := printHints_flat _ (fun x hx => hint_flat (hw x hx))
+      simp only [TH, printHint, beq_self_eq_true, ↓reduceIte, List.cons_append, List.nil_append, w, g, lexAux_tok]
+      rw [lex_flat hfl]
+      simp [THs, lexAux, tk]
+    rw [hT] at hD ⊢
+    replace hD : D toks i (tk "(" false ln :: (THs ln args ++ tk ")" true ln :: rest)) := by
+      simpa [List.append_assoc] using hD
+    have h0 := hD.head
+    have hD1 := hD.tail
+    have hloop := hNL f ln (i + 1) rest d toks [] (by omega) hD1
+    have hclose := hD1.skip.head
+    rw [parseTypeHint]
+    oksimp
+    simp only [h0, tk_text, beq_self_eq_true, ↓reduceIte]
+    rw [parseTupleTypeHint]
+    oksimp
+    rw [ok_det (requireToken_ok toks "(" i d _ h0 rfl)]
+    refine ok_mono hloop ?_
+    rintro r1 s1 ⟨hr, rfl⟩
+    rw [ok_det (requireToken_ok toks ")" _ d _ hclose rfl)]
+    simp [ok_pure, hr]
+    omega
+
+/-! ### Optional hints, parameters, destinations, patterns, type parameters -/
+
+def WTHO : Option TypeHint → Prop
+  | none => True
+  | some h => WTH h
+
+def THO (ln : Nat) (ho : Option TypeHint) : List Tok := lexAux false ln (printHintOpt ho)
+
+theorem hintOpt_flat {ho : Option TypeHint} (wh : WTHO ho) : Flat (printHintOpt ho) := by
+  cases ho with
+  | none => exact Flat.nil
+  | some h => exact Flat.cons (hint_flat wh)
+
+/-- a token that is neither `:` nor a plain symbol nor `<` (what follows an optional hint) -/
+def NoHint (rest : List Tok) : Prop :=
+  ∀ t, rest.head? = some t → t.text ≠ "<" ∧ t.text ≠ ":" ∧ (isSymbolTok t.text = false ∨ keywords.contains t.text = true)
+
+theorem noHint_tok {s : String} {tt : Bool} {l : Nat} {rest : List Tok}
+    (h : s = "=" ∨ s = "," ∨ s = ")" ∨ s = "{") : NoHint (tk s tt l :: rest) := by
+  intro t ht; simp at ht; subst ht
+  simp only [tk_text]
+  rcases h with rfl | rfl | rfl | rfl <;> exact ⟨by decide, by decide, Or.inl (by decide)⟩
+
+theorem hintOpt_ok {ho : Option TypeHint} (wh : WTHO ho) :
+    ∃ N, ∀ (fuel ln i : Nat) (rest : List Tok) (d : List DiagKind) (toks : Toks), N ≤ fuel →
+      D toks i (THO ln ho ++ rest) → NoHint rest →
+      Ok (parseColonAndHintOpt toks false fuel) ⟨i, d⟩ (fun r s' => r = ho ∧ s' = ⟨i + (THO ln ho).length, d⟩) := by
+  cases ho with
+  | none =>
+    refine ⟨0, ?_⟩
+    intro fuel ln i rest d toks _ hD hno
+    have hT : THO ln none = [] := by simp [THO, printHintOpt, lexAux]
+    rw [hT] at hD ⊢
+    replace hD : D toks i rest := by simpa using hD
+    have h0 := hD.head?
+    simp only [parseColonAndHintOpt]
+    oksimp
+    rw [h0]
+    cases hr : rest.head? with
+    | none => simp [ok_pure]
+    | some t =>
+      obtain ⟨_, h2, h3⟩ := hno t hr
+      have h2' : (t.text == ":") = false := by simp [h2]
+      have h3' : (isSymbolTok t.text && !keywords.contains t.text) = false := by
+        rcases h3 with h3 | h3
+        · simp [h3]
+        · rw [h3]; simp
+      simp only [Option.map_some, TokI.text, h2', h3', Bool.false_eq_true, ↓reduceIte]
+      simp [ok_pure]
+  | some h =>
+    obtain ⟨N, hN⟩ := hint_ok wh
+    refine ⟨N, ?_⟩
+    intro fuel ln i rest d toks hf hD hno
+    have hT : THO ln (some h) = tk ":" true ln :: TH ln h := by simp [THO, TH, printHintOpt, lexAux, tk, g]
+    rw [hT] at hD ⊢
+    replace hD : D toks i (tk ":" true ln :: (TH ln h ++ rest)) := by simpa using hD
+    have h0 := hD.head
+    have hres := hN fuel ln (i + 1) rest d toks hf hD.tail (fun t ht => (hno t ht).1)
+    simp only [parseColonAndHintOpt]
+    oksimp
+    simp only [h0, Option.map_some, TokI.text, tk_text, beq_self_eq_true, ↓reduceIte]
+    simp only [parseColonAnd]
+    oksimp
+    rw [ok_det (requireToken_ok toks ":" i d _ h0 rfl)]
+    refine ok_mono hres ?_
+    rintro r s1 ⟨rfl, rfl⟩
+    simp; omega
+
+/-- no repeated names (as `dupDiags` sees them: `_` may repeat) -/
+def dupFree : List String → List String → Bool
+  | [], _ => true
+  | x :: xs, seen => if x == "_" then dupFree xs seen else if seen.contains x then false else dupFree xs (x :: seen)
+
+theorem dupDiags_ok (xs seen : List String) (h : dupFree xs seen = true) (s : St) : dupDiags xs seen s = .ok () s := by
+  induction xs generalizing seen with
+  | nil => rfl
+  | cons x xs ih =>
+    unfold dupFree at h
+    unfold dupDiags
+    by_cases h1 : (x == "_") = true
+    · simp only [h1, ↓reduceIte] at h ⊢; exact ih seen h
+    · simp only [h1, Bool.false_eq_true, ↓reduceIte] at h ⊢
+      by_cases h2 : seen.contains x = true
+      · exfalso; simp at h2; simp [h2] at h
+      · simp only [h2, Bool.false_eq_true, ↓reduceIte] at h ⊢; exact ih _ h
+
+theorem commaJoin_flat (xs : List (List PTok)) (h : ∀ x ∈ xs, Flat x) : Flat (commaJoin xs) := by
+  induction xs with
+  | nil => exact Flat.nil
+  | cons x r ih =>
+    cases r with
+    | nil => simpa [commaJoin] using h x (List.mem_cons_self ..)
+    | cons y r2 =>
+      have : commaJoin (x :: y :: r2) = x ++ ([g ","] ++ commaJoin (y :: r2)) := by simp [commaJoin]
+      rw [this]
+      exact (h x (List.mem_cons_self ..)).append (Flat.cons (ih (fun z hz => h z (List.mem_cons_of_mem _ hz))))
+
+/-- names glued with commas -/
+def TNs (ln : Nat) (xs : List String) : List Tok := lexAux false ln (commaJoin (xs.map fun x => [g x]))
+
+theorem names_flat (xs : List String) : Flat (commaJoin (xs.map fun x => [g x])) :=
+  commaJoin_flat _ (by intro x hx; simp at hx; obtain ⟨a, _, rfl⟩ := hx; exact Flat.cons Flat.nil)
+
+theorem TNs_nil (ln : Nat) : TNs ln [] = [] := by simp [TNs, commaJoin, lexAux]
+theorem TNs_one (ln : Nat) (x : String) : TNs ln [x] = [tk x true ln] := by simp [TNs, commaJoin, lexAux, tk, g]
+theorem TNs_cons2 (ln : Nat) (x y : String) (r : List String) :
+    TNs ln (x :: y :: r) = tk x true ln :: tk "," true ln :: TNs ln (y :: r) := by
+  simp [TNs, commaJoin, lexAux, tk, g]
+
+theorem checkRequiredToken_ok (toks : Toks) (x : String) (i : Nat) (d : List DiagKind) (t : Tok)
+    (h : toks[i]? = some t) (hx : t.text = x) :
+    checkRequiredToken toks x ⟨i, d⟩ = .ok (true, ⟨t, i⟩) ⟨i + 1, d⟩ := by
+  simp [checkRequiredToken, bind_apply, P.bind, pure_apply, prev, pop, h, TokI.text, hx]
+
+/-! #### Parameters -/
+
+structure WTP (p : Param) : Prop where
+  name : ValidName p.name
+  hint : WTHO p.hint
+
+def TP (ln : Nat) (p : Param) : List Tok := lexAux false ln (printParam p)
+def TPs (ln : Nat) (ps : List Param) : List Tok := lexAux false ln (commaJoin (ps.map printParam))
+
+theorem param_flat {p : Param} (wp : WTP p) : Flat (printParam p) := Flat.cons (hintOpt_flat wp.hint)
+
+theorem TP_eq (ln : Nat) (p : Param) : TP ln p = tk p.name true ln :: THO ln p.hint := by
+  simp [TP, THO, printParam, lexAux, tk, g]
+
+theorem TPs_nil (ln : Nat) : TPs ln [] = [] := by simp [TPs, commaJoin, lexAux]
+theorem TPs_one (ln : Nat) (p : Param) : TPs ln [p] = TP ln p := by simp [TPs, TP, commaJoin]
+theorem TPs_cons2 (ln : Nat) (p p2 : Param) (r : List Param) (wp : WTP p) :
+    TPs ln (p :: p2 :: r) = TP ln p ++ tk "," true ln :: TPs ln (p2 :: r) := by
+  have : commaJoin ((p :: p2 :: r).map printParam) = printParam p ++ ([g ","] ++ commaJoin ((p2 :: r).map printParam)) := by
+    simp [commaJoin]
+  simp only [TPs, this]
+  rw [lex_flat (param_flat wp)]
+  simp [TP, lexAux, tk, g]
+
+theorem params_flat (ps : List Param) (hw : ∀ p ∈ ps, WTP p) : Flat (commaJoin (ps.map printParam)) :=
+  commaJoin_flat _ (by intro x hx; simp at hx; obtain ⟨a, ha, rfl⟩ := hx; exact param_flat (hw a ha))
+
+theorem paramsLoop_ok (ps : List Param) (hw : ∀ p ∈ ps, WTP p) :
+    ∃ N, ∀ (fuel ln i : Nat) (rest : List Tok) (d : List DiagKind) (toks : Toks) (acc : List Param),
+      N ≤ fuel → D toks i (TPs ln ps ++ tk ")" true ln :: rest) →
+      Ok (paramsLoop toks false fuel acc) ⟨i, d⟩ (fun r s' => r = acc ++ ps ∧ s' = ⟨i + (TPs ln ps).length, d⟩) := by
+  induction ps with
+  | nil =>
+    refine ⟨1, ?_⟩
+    intro fuel ln i rest d toks acc hf hD
+    obtain ⟨f, rfl⟩ : ∃ f, fuel = f + 1 := ⟨fuel - 1, by omega⟩
+    rw [TPs_nil] at hD ⊢
+    replace hD : D toks i (tk ")" true ln :: rest) := by simpa using hD
+    have h0 := hD.head
+    rw [paramsLoop]
+    oksimp
+    simp [h0, ok_pure]
+  | cons p r ih =>
+    have wp := hw p (List.mem_cons_self ..)
+    obtain ⟨NH, hNH⟩ := hintOpt_ok wp.hint
+    obtain ⟨N', hN'⟩ := ih (fun x hx => hw x (List.mem_cons_of_mem _ hx))
+    refine ⟨NH + N' + 1, ?_⟩
+    intro fuel ln i rest d toks acc hf hD
+    obtain ⟨f, rfl⟩ : ∃ f, fuel = f + 1 := ⟨fuel - 1, by omega⟩
+    have hnp : (p.name == ")") = false := wp.name.beq_nonsym (by decide)
+    cases r with
+    | nil =>
+      rw [TPs_one, TP_eq] at hD ⊢
+      replace hD : D toks i (tk p.name true ln :: (THO ln p.hint ++ tk ")" true ln :: rest)) := by simpa using hD
+      have h0 := hD.head
+      have hD1 := hD.tail
+      have hh := hNH f ln (i + 1) _ d toks (by omega) hD1 (noHint_tok (Or.inr (Or.inr (Or.inl rfl))))
+      have hclose := hD1.skip.head
+      rw [paramsLoop]
+      oksimp
+      simp only [h0, tk_text, hnp, Bool.false_eq_true, ↓reduceIte]
+      simp only [parseParameter]
+      oksimp
+      rw [ok_det (parseSymbol_ok toks i d _ h0 wp.name)]
+      refine ok_mono hh ?_
+      rintro r1 s1 ⟨rfl, rfl⟩
+      simp [hclose, TokI.text, ok_pure]
+      omega
+    | cons p2 r2 =>
+      rw [TPs_cons2 ln p p2 r2 wp, TP_eq] at hD ⊢
+      replace hD : D toks i (tk p.name true ln :: (THO ln p.hint ++ (tk "," true ln ::
+          (TPs ln (p2 :: r2) ++ tk ")" true ln :: rest)))) := by simpa [List.append_assoc] using hD
+      have h0 := hD.head
+      have hD1 := hD.tail
+      have hh := hNH f ln (i + 1) _ d toks (by omega) hD1 (noHint_tok (Or.inr (Or.inl rfl)))
+      have hcomma := hD1.skip.head
+      have hrec := hN' f ln (i + 1 + (THO ln p.hint).length + 1) rest d toks (acc ++ [p]) (by omega) hD1.skip.tail
+      have hlt : i < i + 1 + (THO ln p.hint).length + 1 := by omega
+      rw [paramsLoop]
+      oksimp
+      simp only [h0, tk_text, hnp, Bool.false_eq_true, ↓reduceIte]
+      simp only [parseParameter]
+      oksimp
+      rw [ok_det (parseSymbol_ok toks i d _ h0 wp.name)]
+      refine ok_mono hh ?_
+      rintro r1 s1 ⟨rfl, rfl⟩
+      simp only [hcomma, Option.map_some, TokI.text, tk_text, beq_self_eq_true, ↓reduceIte]
+      oksimp
+      simp only [hcomma]
+      simp only [gt_iff_lt, hlt, ↓reduceIte]
+      refine ok_mono hrec ?_
+      rintro r2' s2 ⟨h1, h2⟩
+      refine ⟨by simp [h1], ?_⟩
+      rw [h2]; simp; omega
+
+def TParams (ln : Nat) (ps : List Param) : List Tok := lexAux false ln (printParams ps)
+
+theorem TParams_eq (ln : Nat) (ps : List Param) (hw : ∀ p ∈ ps, WTP p) :
+    TParams ln ps = tk "(" true ln :: (TPs ln ps ++ [tk ")" true ln]) := by
+  simp only [TParams, printParams, List.cons_append, List.nil_append, g, lexAux_tok]
+  rw [lex_flat (params_flat ps hw)]
+  simp [TPs, lexAux, tk]
+
+theorem params_ok (ps : List Param) (hw : ∀ p ∈ ps, WTP p) (hdup : dupFree (ps.map (·.name)) [] = true) :
+    ∃ N, ∀ (fuel ln i : Nat) (rest : List Tok) (d : List DiagKind) (toks : Toks),
+      N ≤ fuel → D toks i (TParams ln ps ++ rest) →
+      Ok (parseParameters toks false fuel) ⟨i, d⟩ (fun r s' => r = ps ∧ s' = ⟨i + (TParams ln ps).length, d⟩) := by
+  obtain ⟨N, hN⟩ := paramsLoop_ok ps hw
+  refine ⟨N, ?_⟩
+  intro fuel ln i rest d toks hf hD
+  rw [TParams_eq ln ps hw] at hD ⊢
+  replace hD : D toks i (tk "(" true ln :: (TPs ln ps ++ tk ")" true ln :: rest)) := by
+    simpa [List.append_assoc] using hD
+  have h0 := hD.head
+  have hloop := hN fuel ln (i + 1) rest d toks [] hf hD.tail
+  have hclose := hD.tail.skip.head
+  simp only [parseParameters]
+  oksimp
+  rw [ok_det (checkRequiredToken_ok toks "(" i d _ h0 rfl)]
+  simp only [Bool.not_true, Bool.false_eq_true, ↓reduceIte]
+  (try oksimp)
+  refine ok_mono hloop ?_
+  rintro r1 s1 ⟨hr, rfl⟩
+  rw [ok_det (requireToken_ok toks ")" _ d _ hclose rfl)]
+  simp only [List.nil_append] at hr
+  subst hr
+  rw [ok_det (dupDiags_ok _ _ hdup _)]
+  simp; omega
+
+/-! #### Destinations, patterns, type parameters -/
+
+inductive WTD : LetDest → Prop
+  | sym {x : String} : ValidName x → WTD (.sym x)
+  | destr {xs : List String} : (∀ x ∈ xs, ValidName x) → dupFree xs [] = true → WTD (.destr xs)
+
+def TD (ln : Nat) (dst : LetDest) : List Tok := lexAux false ln (printDest dst)
+
+theorem dest_flat (dst : LetDest) : Flat (printDest dst) := by
+  cases dst with
+  | sym x => exact Flat.cons Flat.nil
+  | destr xs => exact Flat.cons ((names_flat xs).append (Flat.cons Flat.nil))
+
+theorem TD_sym (ln : Nat) (x : String) : TD ln (.sym x) = [tk x false ln] := by simp [TD, printDest, lexAux, tk, w]
+theorem TD_destr (ln : Nat) (xs : List String) :
+    TD ln (.destr xs) = tk "(" false ln :: (TNs ln xs ++ [tk ")" true ln]) := by
+  simp only [TD, printDest, List.cons_append, List.nil_append, w, lexAux_tok]
+  rw [lex_flat (names_flat xs)]
+  simp [TNs, lexAux, tk, g]
+
+theorem destLoop_ok (xs : List String) (hv : ∀ x ∈ xs, ValidName x) :
+    ∃ N, ∀ (fuel ln i : Nat) (rest : List Tok) (d : List DiagKind) (toks : Toks) (acc : List String),
+      N ≤ fuel → D toks i (TNs ln xs ++ tk ")" true ln :: rest) →
+      Ok (destLoop toks false fuel acc) ⟨i, d⟩ (fun r s' => r = acc ++ xs ∧ s' = ⟨i + (TNs ln xs).length + 1, d⟩) := by
+  induction xs with
+  | nil =>
+    refine ⟨1, ?_⟩
+    intro fuel ln i rest d toks acc hf hD
+    obtain ⟨f, rfl⟩ : ∃ f, fuel = f + 1 := ⟨fuel - 1, by omega⟩
+    rw [TNs_nil] at hD ⊢
+    replace hD : D toks i (tk ")" true ln :: rest) := by simpa using hD
+    have h0 := hD.head
+    rw [destLoop]
+    oksimp
+    simp [h0, ok_pure]
+  | cons x r ih =>
+    have vx := hv x (List.mem_cons_self ..)
+    obtain ⟨N', hN'⟩ := ih (fun y hy => hv y (List.mem_cons_of_mem _ hy))
+    refine ⟨N' + 1, ?_⟩
+    intro fuel ln i rest d toks acc hf hD
+    obtain ⟨f, rfl⟩ : ∃ f, fuel = f + 1 := ⟨fuel - 1, by omega⟩
+    have hnp : (x == ")") = false := vx.beq_nonsym (by decide)
+    have hph : PSym.isPlaceholder ⟨x, ⟨ln, i + 1⟩⟩ = false := by simpa [PSym.isPlaceholder] using vx.notPh
+    cases r with
+    | nil =>
+      rw [TNs_one] at hD ⊢
+      replace hD : D toks i (tk x true ln :: tk ")" true ln :: rest) := by simpa using hD
+      have h0 := hD.head
+      have h1 := hD.tail.head
+      have hrec := hN' f ln (i + 1) rest d toks (acc ++ [x]) (by omega) (by rw [TNs_nil]; simpa using hD.tail)
+      rw [destLoop]
+      oksimp
+      simp only [h0, tk_text, hnp, Bool.false_eq_true, ↓reduceIte]
+      rw [ok_det (parseSymbol_ok toks i d _ h0 vx)]
+      simp only [tk_text, tk_line, hph, h1, Bool.false_and, Bool.false_eq_true, ↓reduceIte, beq_self_eq_true,
+        Bool.not_true]
+      (try oksimp)
+      have hlt : i < i + 1 := by omega
+      simp only [gt_iff_lt, hlt, ↓reduceIte]
+      refine ok_mono hrec ?_
+      rintro r2' s2 ⟨e1, e2⟩
+      refine ⟨by simp [e1], ?_⟩
+      rw [e2]; simp [TNs_nil]
+    | cons y r2 =>
+      rw [TNs_cons2] at hD ⊢
+      replace hD : D toks i (tk x true ln :: tk "," true ln :: (TNs ln (y :: r2) ++ tk ")" true ln :: rest)) := by
+        simpa using hD
+      have h0 := hD.head
+      have h1 := hD.tail.head
+      have hrec := hN' f ln (i + 1 + 1) rest d toks (acc ++ [x]) (by omega) hD.tail.tail
+      rw [destLoop]
+      oksimp
+      simp only [h0, tk_text, hnp, Bool.false_eq_true, ↓reduceIte]
+      rw [ok_det (parseSymbol_ok toks i d _ h0 vx)]
+      simp only [tk_text, tk_line, hph, h1, Bool.false_and, Bool.false_eq_true, ↓reduceIte,
+        show (("," : String) == ")") = false by decide, Bool.not_false]
+      (try oksimp)
+      rw [ok_det (requireToken_ok toks "," (i + 1) d _ h1 rfl)]
+      have hlt : i < i + 1 + 1 := by omega
+      simp only [gt_iff_lt, hlt, ↓reduceIte]
+      refine ok_mono hrec ?_
+      rintro r2' s2 ⟨e1, e2⟩
+      refine ⟨by simp [e1], ?_⟩
+      rw [e2]; simp; omega
+
+theorem dest_ok {dst : LetDest} (wd : WTD dst) :
+    ∃ N, ∀ (fuel ln i : Nat) (rest : List Tok) (d : List DiagKind) (toks : Toks),
+      N ≤ fuel → D toks i (TD ln dst ++ rest) →
+      Ok (parseLetDestination toks false fuel) ⟨i, d⟩ (fun r s' => r = dst ∧ s' = ⟨i + (TD ln dst).length, d⟩) := by
+  cases wd with
+  | @sym x vx =>
+    refine ⟨0, ?_⟩
+    intro fuel ln i rest d toks _ hD
+    rw [TD_sym] at hD ⊢
+    replace hD : D toks i (tk x false ln :: rest) := by simpa using hD
+    have h0 := hD.head
+    simp only [parseLetDestination]
+    oksimp
+    simp only [h0, tk_text, vx.beq_nonsym (lit := "(") (by decide), Bool.false_eq_true, ↓reduceIte]
+    rw [ok_det (parseSymbol_ok toks i d _ h0 vx)]
+    simp [ok_pure]
+  | @destr xs hv hdup =>
+    obtain ⟨N, hN⟩ := destLoop_ok xs hv
+    refine ⟨N, ?_⟩
+    intro fuel ln i rest d toks hf hD
+    rw [TD_destr] at hD ⊢
+    replace hD : D toks i (tk "(" false ln :: (TNs ln xs ++ tk ")" true ln :: rest)) := by
+      simpa [List.append_assoc] using hD
+    have h0 := hD.head
+    have hloop := hN fuel ln (i + 1) rest d toks [] hf hD.tail
+    simp only [parseLetDestination]
+    oksimp
+    simp only [h0, tk_text, beq_self_eq_true, ↓reduceIte]
+    refine ok_mono hloop ?_
+    rintro r1 s1 ⟨hr, rfl⟩
+    simp only [List.nil_append] at hr
+    subst hr
+    rw [ok_det (dupDiags_ok _ _ hdup _)]
+    simp; omega
+
+structure WTPat (p : Pattern) : Prop where
+  variant : ValidName p.variant
+  payload : ∀ dst, p.payload = some dst → WTD dst
+
+def TPat (ln : Nat) (p : Pattern) : List Tok := lexAux false ln (printPattern p)
+
+theorem pattern_flat (p : Pattern) : Flat (printPattern p) := by
+  unfold printPattern
+  cases p.payload with
+  | none => exact Flat.cons Flat.nil
+  | some dst => exact Flat.cons (Flat.cons ((dest_flat dst).append (Flat.cons Flat.nil)))
+
+theorem pattern_ok {p : Pattern} (wp : WTPat p) :
+    ∃ N, ∀ (fuel ln i : Nat) (rest : List Tok) (d : List DiagKind) (toks : Toks),
+      N ≤ fuel → D toks i (TPat ln p ++ rest) → (∀ t, rest.head? = some t → t.text ≠ "(") →
+      Ok (parsePattern toks false fuel) ⟨i, d⟩ (fun r s' => r = p ∧ s' = ⟨i + (TPat ln p).length, d⟩) := by
+  obtain ⟨v, pl⟩ := p
+  cases pl with
+  | none =>
+    refine ⟨0, ?_⟩
+    intro fuel ln i rest d toks _ hD hno
+    have hT : TPat ln ⟨v, none⟩ = [tk v false ln] := by simp [TPat, printPattern, lexAux, tk, w]
+    rw [hT] at hD ⊢
+    replace hD : D toks i (tk v false ln :: rest) := by simpa using hD
+    have h0 := hD.head
+    have h1 := hD.second
+    simp only [parsePattern]
+    oksimp
+    rw [ok_det (parseSymbol_ok toks i d _ h0 wp.variant)]
+    oksimp
+    rw [h1]
+    cases hr : rest.head? with
+    | none => simp [ok_pure]
+    | some t => have := hno t hr; simp [ok_pure, this]
+  | some dst =>
+    obtain ⟨N, hN⟩ := dest_ok (wp.payload dst rfl)
+    refine ⟨N, ?_⟩
+    intro fuel ln i rest d toks hf hD hno
+    have hT : TPat ln ⟨v, some dst⟩ = tk v false ln :: tk "(" true ln :: (TD ln dst ++ [tk ")" true ln]) := by
+      simp only [TPat, printPattern, List.cons_append, List.nil_append, w, g, lexAux_tok]
+      rw [lex_flat (dest_flat dst)]
+      simp [TD, lexAux, tk]
+    rw [hT] at hD ⊢
+    replace hD : D toks i (tk v false ln :: tk "(" true ln :: (TD ln dst ++ tk ")" true ln :: rest)) := by
+      simpa [List.append_assoc] using hD
+    have h0 := hD.head
+    have h1 := hD.tail.head
+    have hd := hN fuel ln (i + 1 + 1) _ d toks hf hD.tail.tail
+    have hclose := hD.tail.tail.skip.head
+    simp only [parsePattern]
+    oksimp
+    rw [ok_det (parseSymbol_ok toks i d _ h0 wp.variant)]
+    oksimp
+    simp only [h1, tk_text, beq_self_eq_true, ↓reduceIte]
+    rw [ok_det (requireToken_ok toks "(" (i + 1) d _ h1 rfl)]
+    refine ok_mono hd ?_
+    rintro r1 s1 ⟨rfl, rfl⟩
+    rw [ok_det (requireToken_ok toks ")" _ d _ hclose rfl)]
+    simp [ok_pure]; omega
+
+def TTP (ln : Nat) (ts : List String) : List Tok := lexAux false ln (printTParams ts)
+
+theorem tparams_flat (ts : List String) : Flat (printTParams ts) := by
+  cases ts with
+  | nil => exact Flat.nil
+  | cons x r => exact Flat.cons ((names_flat (x :: r)).append (Flat.cons Flat.nil))
+
+theorem typeParamsLoop_ok (xs : List String) (hv : ∀ x ∈ xs, ValidName x) (hne : xs ≠ []) :
+    ∃ N, ∀ (fuel ln i : Nat) (rest : List Tok) (d : List DiagKind) (toks : Toks) (acc : List String),
+      N ≤ fuel → D toks i (TNs ln xs ++ tk ">" true ln :: rest) →
+      Ok (typeParamsLoop toks false fuel acc) ⟨i, d⟩ (fun r s' => r = acc ++ xs ∧ s' = ⟨i + (TNs ln xs).length, d⟩) := by
+  induction xs with
+  | nil => exact absurd rfl hne
+  | cons x r ih =>
+    have vx := hv x (List.mem_cons_self ..)
+    have hnp : (x == ">") = false := vx.beq_nonsym (by decide)
+    cases r with
+    | nil =>
+      refine ⟨1, ?_⟩
+      intro fuel ln i rest d toks acc hf hD
+      obtain ⟨f, rfl⟩ : ∃ f, fuel = f + 1 := ⟨fuel - 1, by omega⟩
+      rw [TNs_one] at hD ⊢
+      replace hD : D toks i (tk x true ln :: tk ">" true ln :: rest) := by simpa using hD
+      have h0 := hD.head
+      have h1 := hD.tail.head
+      rw [typeParamsLoop]
+      oksimp
+      simp only [h0, tk_text, hnp, Bool.false_eq_true, ↓reduceIte]
+      rw [ok_det (parseSymbol_ok toks i d _ h0 vx)]
+      simp [h1, TokI.text, ok_pure]
+    | cons y r2 =>
+      obtain ⟨N', hN'⟩ := ih (fun z hz => hv z (List.mem_cons_of_mem _ hz)) (by simp)
+      refine ⟨N' + 1, ?_⟩
+      intro fuel ln i rest d toks acc hf hD
+      obtain ⟨f, rfl⟩ : ∃ f, fuel = f + 1 := ⟨fuel - 1, by omega⟩
+      rw [TNs_cons2] at hD ⊢
+      replace hD : D toks i (tk x true ln :: tk "," true ln :: (TNs ln (y :: r2) ++ tk ">" true ln :: rest)) := by
+        simpa using hD
+      have h0 := hD.head
+      have h1 := hD.tail.head
+      have hrec := hN' f ln (i + 1 + 1) rest d toks (acc ++ [x]) (by omega) hD.tail.tail
+      rw [typeParamsLoop]
+      oksimp
+      simp only [h0, tk_text, hnp, Bool.false_eq_true, ↓reduceIte]
+      rw [ok_det (parseSymbol_ok toks i d _ h0 vx)]
+      simp only [h1, Option.map_some, TokI.text, tk_text, beq_self_eq_true, ↓reduceIte]
+      oksimp
+      simp only [h1]
+      have hlt : ¬ (i + 1 + 1 ≤ i) := by omega
+      simp only [hlt, decide_false, Bool.false_eq_true, ↓reduceIte]
+      refine ok_mono hrec ?_
+      rintro r2' s2 ⟨e1, e2⟩
+      refine ⟨by simp [e1], ?_⟩
+      rw [e2]; simp; omega
+
+theorem tparams_ok (ts : List String) (hv : ∀ x ∈ ts, ValidName x) :
+    ∃ N, ∀ (fuel ln i : Nat) (rest : List Tok) (d : List DiagKind) (toks : Toks),
+      N ≤ fuel → D toks i (TTP ln ts ++ rest) → (∀ t, rest.head? = some t → t.text ≠ "<") →
+      Ok (parseTypeParams toks false fuel) ⟨i, d⟩ (fun r s' => r = ts ∧ s' = ⟨i + (TTP ln ts).length, d⟩) := by
+  cases ts with
+  | nil =>
+    refine ⟨0, ?_⟩
+    intro fuel ln i rest d toks _ hD hno
+    have hT : TTP ln [] = [] := by simp [TTP, printTParams, lexAux]
+    rw [hT] at hD ⊢
+    replace hD : D toks i rest := by simpa using hD
+    have h0 := hD.head?
+    simp only [parseTypeParams]
+    oksimp
+    rw [h0]
+    cases hr : rest.head? with
+    | none => simp [ok_pure]
+    | some t => have := hno t hr; simp [ok_pure, this]
+  | cons x r =>
+    obtain ⟨N, hN⟩ := typeParamsLoop_ok (x :: r) hv (by simp)
+    refine ⟨N, ?_⟩
+    intro fuel ln i rest d toks hf hD hno
+    have hT : TTP ln (x :: r) = tk "<" true ln :: (TNs ln (x :: r) ++ [tk ">" true ln]) := by
+      simp only [TTP, printTParams, List.cons_append, List.nil_append]
+      rw [show (g "<" : PTok) = PTok.t "<" true from rfl, lexAux_tok, lex_flat (names_flat (x :: r))]
+      simp [TNs, lexAux, tk, g]
+    rw [hT] at hD ⊢
+    replace hD : D toks i (tk "<" true ln :: (TNs ln (x :: r) ++ tk ">" true ln :: rest)) := by
+      simpa [List.append_assoc] using hD
+    have h0 := hD.head
+    have hloop := hN fuel ln (i + 1) rest d toks [] hf hD.tail
+    have hclose := hD.tail.skip.head
+    simp only [parseTypeParams]
+    oksimp
+    simp only [h0, tk_text, beq_self_eq_true, Bool.not_true, Bool.false_eq_true, ↓reduceIte]
+    rw [ok_det (requireToken_ok toks "<" i d _ h0 rfl)]
+    refine ok_mono hloop ?_
+    rintro r1 s1 ⟨hr, rfl⟩
+    rw [ok_det (requireToken_ok toks ">" _ d _ hclose rfl)]
+    simp only [List.nil_append] at hr
+    simp [ok_pure, hr]; omega
+
+/-! ### Function signatures and bodies; lambdas -/
+
+structure WTF (tps : List String) (ps : List Param) (r : Option TypeHint) : Prop where
+  tpsOk : ∀ x ∈ tps, ValidName x
+  psOk : ∀ p ∈ ps, WTP p
+  dup : dupFree (List.map (fun p : Param => p.name) ps) [] = true
+  ret : WTHO r
+
+def TF (ln : Nat) (tps : List String) (ps : List Param) (r : Option TypeHint) (es : List Expr) : List Tok :=
+  lexAux false ln (printFun (.mk tps ps r (.mk es)))
+
+theorem TF_eq {tps : List String} {ps : List Param} {r : Option TypeHint} (wf : WTF tps ps r) {es : List Expr}
+    (hpf : ∀ e ∈ es, PF e) (ln : Nat) (B : List PTok) :
+    lexAux false ln (printFun (.mk tps ps r (.mk es)) ++ B) =
+      TTP ln tps ++ (TParams ln ps ++ (THO ln r ++ tk "{" false ln ::
+        (TItems ln es ++ tk "}" false (LItems ln es + 1) :: lexAux false (LItems ln es + 1) B))) := by
+  have hfp : Flat (printParams ps) := Flat.cons ((params_flat ps wf.psOk).append (Flat.cons Flat.nil))
+  simp only [printFun, List.append_assoc]
+  rw [lex_flat (tparams_flat tps), lex_flat hfp, lex_flat (hintOpt_flat wf.ret), TB_eq es hpf]
+  rfl
+
+theorem funTail_ok {tps : List String} {ps : List Param} {r : Option TypeHint} (wf : WTF tps ps r) {es : List Expr}
+    (hb : BlockOK es) :
+    ∃ N, ∀ (fuel ln i : Nat) (rest : List Tok) (d : List DiagKind) (toks : Toks) (j : Nat)
+      (K : List String → List Param → Option TypeHint → PBlock → St → Prop),
+      N ≤ fuel →
+      D toks i (TTP ln tps ++ (TParams ln ps ++ (THO ln r ++ tk "{" false ln ::
+        (TItems ln es ++ tk "}" false (LItems ln es + 1) :: rest)))) →
+      j = i + (TTP ln tps).length + (TParams ln ps).length + (THO ln r).length + 1 + (TItems ln es).length + 1 →
+      (∀ body : PBlock, body.exprs = es → body.close.endPos = j → K tps ps r body ⟨j, d⟩) →
+      Ok (parseTypeParams toks false fuel) ⟨i, d⟩ (fun a s1 =>
+        Ok (parseParameters toks false fuel) s1 (fun b s2 =>
+          Ok (parseColonAndHintOpt toks false fuel) s2 (fun c s3 =>
+            Ok (parseBlock toks false fuel) s3 (fun body s4 => K a b c body s4)))) := by
+  obtain ⟨N1, h1⟩ := tparams_ok tps wf.tpsOk
+  obtain ⟨N2, h2⟩ := params_ok ps wf.psOk wf.dup
+  obtain ⟨N3, h3⟩ := hintOpt_ok wf.ret
+  obtain ⟨N4, h4⟩ := block_ok es hb.fu hb.pf hb.adj
+  refine ⟨N1 + N2 + N3 + N4, ?_⟩
+  intro fuel ln i rest d toks j K hf hD hj hK
+  have hparen : ∀ t, (TParams ln ps ++ (THO ln r ++ tk "{" false ln ::
+      (TItems ln es ++ tk "}" false (LItems ln es + 1) :: rest))).head? = some t → t.text ≠ "<" := by
+    intro t ht
+    rw [TParams_eq ln ps wf.psOk] at ht
+    simp at ht; subst ht; simp
+  refine ok_mono (h1 fuel ln i _ d toks (by omega) hD hparen) ?_
+  rintro a s1 ⟨rfl, rfl⟩
+  refine ok_mono (h2 fuel ln _ _ d toks (by omega) hD.skip) ?_
+  rintro b s2 ⟨rfl, rfl⟩
+  refine ok_mono (h3 fuel ln _ _ d toks (by omega) hD.skip.skip (noHint_tok (Or.inr (Or.inr (Or.inr rfl))))) ?_
+  rintro c s3 ⟨rfl, rfl⟩
+  refine ok_mono (h4 fuel ln _ rest d toks false (by omega) hD.skip.skip.skip) ?_
+  rintro body s4 ⟨hb1, hb2, rfl⟩
+  have := hK body hb1 (by rw [hb2, hj])
+  rw [hj] at this
+  exact this
+
+theorem simple_lambda (toks : Toks) (fuel i : Nat) (d : List DiagKind) (t t2 : Tok)
+    (h1 : toks[i]? = some t) (hx : t.text = "fun") (h2 : toks[i + 1]? = some t2) (hx2 : t2.text = "(") :
+    parseSimple toks false (fuel + 1) ⟨i, d⟩ = parseLambda toks false fuel ⟨i, d⟩ := by
+  rw [parseSimple]
+  simp [bind_apply, P.bind, peek, peekAt, h1, h2, TokI.text, hx, hx2]
+
+theorem r_lambda {ps : List Param} {r : Option TypeHint} {es : List Expr} (wf : WTF [] ps r) (hb : BlockOK es) :
+    ∃ n, R true (.lambda (.mk [] ps r (.mk es))) n := by
+  obtain ⟨N, hN⟩ := funTail_ok wf hb
+  refine ⟨N + 4, ?_⟩
+  intro b fuel ln first i rest d toks Q _ hfu hD hfo _ ha
+  obtain ⟨f, rfl⟩ : ∃ f, fuel = f + 4 := ⟨fuel - 4, by omega⟩
+  have hT : T ln first (.lambda (.mk [] ps r (.mk es))) = tk "fun" first ln :: (TTP ln [] ++ (TParams ln ps ++
+      (THO ln r ++ tk "{" false ln :: (TItems ln es ++ [tk "}" false (LItems ln es + 1)])))) := by
+    simp only [T, printExpr, List.cons_append, List.nil_append, lexAux_tok, Bool.not_false, Bool.and_true]
+    have := TF_eq wf hb.pf ln []
+    simp only [List.append_nil] at this
+    rw [this]
+    simp [lexAux]
+  rw [hT] at hD ha
+  have hD0 : D toks i (tk "fun" first ln :: (TTP ln [] ++ (TParams ln ps ++
+      (THO ln r ++ tk "{" false ln :: (TItems ln es ++ tk "}" false (LItems ln es + 1) :: rest))))) := by
+    simpa [List.append_assoc] using hD
+  have h0 := hD0.head
+  have hD1 := hD0.tail
+  have h1 : toks[i + 1]? = some (tk "(" true ln) := by
+    have := hD1.head?
+    rw [this, TParams_eq ln ps wf.psOk]
+    simp [TTP, printTParams, lexAux]
+  refine enter_simple (f := f + 2) h0 (by simp [stmtKeywords]) (fun t2 h2 => ?_) ?_
+  · rw [h1] at h2; cases h2; refine ⟨?_, ?_, ?_⟩ <;> (simp only [tk_text]; decide)
+  · refine ok_rw (simple_lambda toks (f + 1) i d _ _ h0 rfl h1 rfl) ?_
+    rw [parseLambda]
+    oksimp
+    rw [ok_det (requireToken_ok toks "fun" i d _ h0 rfl)]
+    refine hN f ln (i + 1) rest d toks _ _ (by omega) hD1 rfl ?_
+    intro body hb1 hb2
+    have := ha ln (f + 3) (by omega)
+    simp only [PBlock.block, hb1, TokI.pos, Pos.merge, tk_line, hb2]
+    have e1 : max (i + 1) (i + 1 + (TTP ln []).length + (TParams ln ps).length + (THO ln r).length + 1 +
+        (TItems ln es).length + 1) = i + (tk "fun" first ln :: (TTP ln [] ++ (TParams ln ps ++
+          (THO ln r ++ tk "{" false ln :: (TItems ln es ++ [tk "}" false (LItems ln es + 1)]))))).length := by
+      simp; omega
+    have e2 : i + 1 + (TTP ln []).length + (TParams ln ps).length + (THO ln r).length + 1 + (TItems ln es).length + 1
+        = i + (tk "fun" first ln :: (TTP ln [] ++ (TParams ln ps ++
+          (THO ln r ++ tk "{" false ln :: (TItems ln es ++ [tk "}" false (LItems ln es + 1)]))))).length := by
+      simp; omega
+    rw [e1, e2]
+    exact this
+
+theorem pf_lambda {f : FunInfo} : PF (.lambda f) := by
+  obtain ⟨tps, ps, r, ⟨es⟩⟩ := f
+  obtain ⟨X, hX⟩ := printBlock_split es
+  exact pf_kw "fun" (printTParams tps ++ printParams ps ++ printHintOpt r ++ X) "}" false
+    (fun first => by simp [printExpr, printFun, hX]) (by decide) rfl rfl
+
+/-! ### `match` -/
+
+def CaseOK : Case → Prop
+  | .mk p (.mk es) => WTPat p ∧ BlockOK es
+
+/-- tokens of the arms of a `match` whose `{` is on line `l` -/
+def TCases : Nat → List Case → List Tok
+  | _, [] => []
+  | l, .mk p (.mk es) :: r =>
+    TPat (l + 1) p ++ tk "=>" false (l + 1) :: tk "{" false (l + 1) ::
+      (TItems (l + 1) es ++ tk "}" false (LItems (l + 1) es + 1) :: tk "," true (LItems (l + 1) es + 1) ::
+        TCases (LItems (l + 1) es + 1) r)
+
+def LCases : Nat → List Case → Nat
+  | l, [] => l
+  | l, .mk _ (.mk es) :: r => LCases (LItems (l + 1) es + 1) r
+
+theorem printPattern_head (p : Pattern) : ∃ X, printPattern p = w p.variant :: X := by
+  unfold printPattern
+  cases p.payload with
+  | none => exact ⟨[], rfl⟩
+  | some dst => exact ⟨_, rfl⟩
+
+theorem cases_tokens (cases : List Case) (hok : ∀ c ∈ cases, CaseOK c) (l : Nat) (B : List PTok) :
+    lexAux false l (printCases cases ++ (PTok.nl :: w "}" :: B)) =
+      TCases l cases ++ tk "}" false (LCases l cases + 1) :: lexAux false (LCases l cases + 1) B := by
+  induction cases generalizing l with
+  | nil => simp [printCases, TCases, LCases, lexAux, tk, w]
+  | cons c r ih =>
+    obtain ⟨p, ⟨es⟩⟩ := c
+    obtain ⟨wp, hb⟩ := hok _ (List.mem_cons_self ..)
+    have ih' := ih (fun x hx => hok x (List.mem_cons_of_mem _ hx))
+    obtain ⟨X, hX⟩ := printPattern_head p
+    have h1 : lexAux true (l + 1) (printPattern p ++ (w "=>" :: (printBlock (.mk es) ++ (g "," :: (printCases r ++ (PTok.nl :: w "}" :: B))))))
+        = lexAux false (l + 1) (printPattern p ++ (w "=>" :: (printBlock (.mk es) ++ (g "," :: (printCases r ++ (PTok.nl :: w "}" :: B)))))) := by
+      rw [hX]; simp [lexAux, w]
+    simp only [printCases, List.cons_append, List.nil_append, List.append_assoc, lexAux_nl, TCases, LCases]
+    rw [h1, lex_flat (pattern_flat p)]
+    rw [show (w "=>" : PTok) = PTok.t "=>" false from rfl, lexAux_tok, TB_eq es hb.pf]
+    rw [show (g "," : PTok) = PTok.t "," true from rfl, lexAux_tok, ih']
+    simp [TPat, tk]
+
+theorem matchLoop_ok (cases : List Case) (hok : ∀ c ∈ cases, CaseOK c) :
+    ∃ N, ∀ (fuel l i : Nat) (rest : List Tok) (d : List DiagKind) (toks : Toks) (acc : List Case) (tt : Bool),
+      N ≤ fuel → D toks i (TCases l cases ++ tk "}" tt (LCases l cases + 1) :: rest) →
+      Ok (matchLoop toks false fuel acc) ⟨i, d⟩ (fun r s' => r = acc ++ cases ∧ s' = ⟨i + (TCases l cases).length, d⟩) := by
+  induction cases with
+  | nil =>
+    refine ⟨1, ?_⟩
+    intro fuel l i rest d toks acc tt hf hD
+    obtain ⟨f, rfl⟩ : ∃ f, fuel = f + 1 := ⟨fuel - 1, by omega⟩
+    simp only [TCases, LCases, List.nil_append] at hD ⊢
+    have h0 := hD.head
+    rw [matchLoop]
+    oksimp
+    simp [h0, TokI.text, ok_pure]
+  | cons c r ih =>
+    obtain ⟨p, ⟨es⟩⟩ := c
+    obtain ⟨wp, hb⟩ := hok _ (List.mem_cons_self ..)
+    obtain ⟨N', hN'⟩ := ih (fun x hx => hok x (List.mem_cons_of_mem _ hx))
+    obtain ⟨NP, hNP⟩ := pattern_ok wp
+    obtain ⟨NB, hNB⟩ := block_ok es hb.fu hb.pf hb.adj
+    refine ⟨NP + NB + N' + 2, ?_⟩
+    intro fuel l i rest d toks acc tt hf hD
+    obtain ⟨f, rfl⟩ : ∃ f, fuel = f + 2 := ⟨fuel - 2, by omega⟩
+    simp only [TCases, LCases, List.append_assoc, List.cons_append] at hD ⊢
+    generalize hl2 : LItems (l + 1) es + 1 = l2 at *
+    obtain ⟨X, hX⟩ := printPattern_head p
+    have hTP : TPat (l + 1) p = tk p.variant false (l + 1) :: lexAux false (l + 1) X := by
+      simp [TPat, hX, w, lexAux, tk]
+    have h0 : toks[i]? = some (tk p.variant false (l + 1)) := by
+      have := hD.head?; rw [hTP] at this; simpa using this
+    have hne : (p.variant == "}") = false := wp.variant.beq_nonsym (by decide)
+    have hpat := hNP (f + 1) (l + 1) i _ d toks (by omega) hD (by intro t ht; simp at ht; subst ht; simp)
+    have hD1 := hD.skip
+    have harrow := hD1.head
+    have hD2 := hD1.tail
+    have hbrace := hD2.head
+    have hblock := hNB f (l + 1) (i + (TPat (l + 1) p).length + 1) _ d toks false (by omega) (by rw [hl2]; exact hD2)
+    have hD3 := hD2.tail.skip.tail
+    have hcomma := hD3.head
+    have hrec := hN' (f + 1) l2 (i + (TPat (l + 1) p).length + 1 + 1 + (TItems (l + 1) es).length + 1 + 1) rest d toks
+      (acc ++ [Case.mk p (.mk es)]) tt (by omega) hD3.tail
+    rw [matchLoop]
+    oksimp
+    simp only [h0, Option.map_some, TokI.text, tk_text, hne, Bool.false_eq_true, ↓reduceIte]
+    oksimp
+    refine ok_mono hpat ?_
+    rintro rp s1 ⟨rfl, rfl⟩
+    rw [ok_det (requireToken_ok toks "=>" _ d _ harrow rfl)]
+    rw [parseCaseBlock]
+    oksimp
+    simp only [hbrace, tk_text, beq_self_eq_true, ↓reduceIte]
+    refine ok_mono hblock ?_
+    rintro rb s2 ⟨hb1, hb2, rfl⟩
+    simp only [hcomma, tk_text, beq_self_eq_true, ↓reduceIte]
+    have hlt : ¬ (i + (TPat (l + 1) rp).length + 1 + 1 + (TItems (l + 1) es).length + 1 + 1 ≤ i) := by omega
+    simp only [hlt, ↓reduceIte, PBlock.block, hb1]
+    refine ok_mono hrec ?_
+    rintro r2' s3 ⟨e1, e2⟩
+    refine ⟨by simp [e1], ?_⟩
+    rw [e2]; simp; omega
+
+theorem nt_kw2 (toks : Toks) (f i : Nat) (d : List DiagKind) (t : Tok) (h0 : toks[i]? = some t)
+    (h2 : ∀ t2, toks[i + 1]? = some t2 → t2.text ≠ "=" ∧ t2.text ≠ "+=" ∧ t2.text ≠ "-=") :
+    (t.text = "match" → parseNoTrailing toks false (f + 1) ⟨i, d⟩ = parseMatch toks false f ⟨i, d⟩) ∧
+    (t.text = "try" → parseNoTrailing toks false (f + 1) ⟨i, d⟩ = parseTry toks false f ⟨i, d⟩) := by
+  refine ⟨?_, ?_⟩ <;> intro ht <;> rw [parseNoTrailing] <;>
+    (cases h3 : toks[i + 1]? with
+     | none => simp [bind_apply, P.bind, pure_apply, peek, peekAt, h0, h3, TokI.text, ht]
+     | some t2 =>
+       obtain ⟨e1, e2, e3⟩ := h2 t2 h3
+       simp [bind_apply, P.bind, pure_apply, peek, peekAt, h0, h3, TokI.text, e1, e2, e3, ht])
+
+theorem r_match {s : Expr} {cases : List Case} {ns : Nat} (hs : FU s ns) (ps : PF s) (ts : tailRet s = false)
+    (hok : ∀ c ∈ cases, CaseOK c) : ∃ n, R true (.matchE s cases) n := by
+  obtain ⟨NL, hNL⟩ := matchLoop_ok cases hok
+  refine ⟨ns + NL + 3, ?_⟩
+  intro b fuel ln first i rest d toks Q _ hfu hD hfo _ ha
+  obtain ⟨f, rfl⟩ : ∃ f, fuel = f + 3 := ⟨fuel - 3, by omega⟩
+  generalize hl1 : ln + pnl s = l1 at *
+  have hT : T ln first (.matchE s cases) = tk "match" first ln :: (T ln false s ++
+      tk "{" false l1 :: (TCases l1 cases ++ [tk "}" false (LCases l1 cases + 1)])) := by
+    simp only [T, printExpr, List.cons_append, List.nil_append, lexAux_tok, Bool.not_false, Bool.and_true,
+      List.append_assoc]
+    rw [T_then ps ts, hl1]
+    rw [show (w "{" : PTok) = PTok.t "{" false from rfl, lexAux_tok]
+    have := cases_tokens cases hok l1 []
+    rw [this]
+    simp [lexAux, T]
+  rw [hT] at hD ha
+  have hD0 : D toks i (tk "match" first ln :: (T ln false s ++ (tk "{" false l1 ::
+      (TCases l1 cases ++ tk "}" false (LCases l1 cases + 1) :: rest)))) := by
+    simpa [List.append_assoc] using hD
+  have h0 := hD0.head
+  have hD1 := hD0.tail
+  obtain ⟨s1, tl1, hT1, hbad⟩ := T_head ps ln false
+  have h1 : toks[i + 1]? = some (tk s1 false ln) := by
+    have := hD1.head?; rw [hT1] at this; simpa using this
+  have hscrut := hs f ln false (i + 1) _ d toks (by omega) hD1 (by rw [← hl1]; exact stop_lbrace ts)
+  have hD2 := hD1.skip
+  have hbrace := hD2.head
+  have hloop := hNL f l1 (i + 1 + (T ln false s).length + 1) rest d toks [] false (by omega) hD2.tail
+  have hclose := hD2.tail.skip.head
+  refine ok_exprT' (ok_rw ((nt_kw2 toks (f + 1) i d _ h0 (fun t2 h2 => by
+    rw [h1] at h2; cases h2; exact bad_second hbad)).1 rfl) ?_)
+  rw [parseMatch]
+  oksimp
+  rw [ok_det (requireToken_ok toks "match" i d _ h0 rfl)]
+  refine ok_mono hscrut ?_
+  rintro rc s1' ⟨hr1, hr2, rfl⟩
+  rw [ok_det (requireToken_ok toks "{" _ d _ hbrace rfl)]
+  simp only [TokI.text, tk_text, bne_self_eq_false, Bool.false_eq_true, ↓reduceIte]
+  refine ok_mono hloop ?_
+  rintro rcs s2 ⟨hcs, rfl⟩
+  rw [ok_det (requireToken_ok toks "}" _ d _ hclose rfl)]
+  have := ha ln (f + 2) (by omega)
+  simp only [List.nil_append] at hcs
+  simp only [hr1, hcs, TokI.pos, Pos.merge, tk_line]
+  have e1 : max (i + 1) (i + 1 + (T ln false s).length + 1 + (TCases l1 cases).length + 1)
+      = i + (tk "match" first ln :: (T ln false s ++ tk "{" false l1 ::
+        (TCases l1 cases ++ [tk "}" false (LCases l1 cases + 1)]))).length := by simp; omega
+  have e2 : i + 1 + (T ln false s).length + 1 + (TCases l1 cases).length + 1
+      = i + (tk "match" first ln :: (T ln false s ++ tk "{" false l1 ::
+        (TCases l1 cases ++ [tk "}" false (LCases l1 cases + 1)]))).length := by simp; omega
+  rw [e1, e2]
+  exact this
+
+theorem pf_match {s : Expr} {cases : List Case} : PF (.matchE s cases) :=
+  pf_kw "match" (printExpr false s ++ [w "{"] ++ printCases cases ++ [PTok.nl]) "}" false
+    (fun first => by simp [printExpr, w]) (by decide) rfl rfl
+
+/-! ### Struct literals -/
+
+def FieldOK : Field → Prop
+  | .mk n e => ValidName n ∧ (∃ k, FU e k) ∧ PF e ∧ tailRet e = false
+
+def TFields : Nat → List Field → List Tok
+  | _, [] => []
+  | l, .mk n e :: r => tk n false l :: tk ":" true l :: (T l false e ++ tk "," true (l + pnl e) :: TFields (l + pnl e) r)
+
+def LFields : Nat → List Field → Nat
+  | l, [] => l
+  | l, .mk _ e :: r => LFields (l + pnl e) r
+
+theorem fields_tokens (fs : List Field) (hok : ∀ x ∈ fs, FieldOK x) (l : Nat) (B : List PTok) :
+    lexAux false l (printFields fs ++ B) = TFields l fs ++ lexAux false (LFields l fs) B := by
+  induction fs generalizing l with
+  | nil => simp [printFields, TFields, LFields]
+  | cons c r ih =>
+    obtain ⟨n, e⟩ := c
+    obtain ⟨_, _, pe, te⟩ := hok _ (List.mem_cons_self ..)
+    have ih' := ih (fun x hx => hok x (List.mem_cons_of_mem _ hx))
+    simp only [printFields, List.cons_append, List.nil_append, List.append_assoc, TFields, LFields, w, g, lexAux_tok]
+    rw [T_then pe te, lexAux_tok, ih']
+    simp [tk]
+
+theorem fieldsLoop_ok (fs : List Field) (hok : ∀ x ∈ fs, FieldOK x) :
+    ∃ N, ∀ (fuel l i : Nat) (rest : List Tok) (d : List DiagKind) (toks : Toks) (acc : List Field) (tt : Bool) (lc : Nat),
+      N ≤ fuel → D toks i (TFields l fs ++ tk "}" tt lc :: rest) →
+      Ok (fieldsLoop toks false fuel acc) ⟨i, d⟩ (fun r s' => r = acc ++ fs ∧ s' = ⟨i + (TFields l fs).length, d⟩) := by
+  induction fs with
+  | nil =>
+    refine ⟨1, ?_⟩
+    intro fuel l i rest d toks acc tt lc hf hD
+    obtain ⟨f, rfl⟩ : ∃ f, fuel = f + 1 := ⟨fuel - 1, by omega⟩
+    simp only [TFields, List.nil_append] at hD ⊢
+    have h0 := hD.head
+    rw [fieldsLoop]
+    oksimp
+    simp [h0, ok_pure]
+  | cons c r ih =>
+    obtain ⟨n, e⟩ := c
+    obtain ⟨vn, ⟨ne, hne⟩, pe, te⟩ := hok _ (List.mem_cons_self ..)
+    obtain ⟨N', hN'⟩ := ih (fun x hx => hok x (List.mem_cons_of_mem _ hx))
+    refine ⟨ne + N' + 1, ?_⟩
+    intro fuel l i rest d toks acc tt lc hf hD
+    obtain ⟨f, rfl⟩ : ∃ f, fuel = f + 1 := ⟨fuel - 1, by omega⟩
+    simp only [TFields, List.cons_append, List.append_assoc] at hD ⊢
+    have h0 := hD.head
+    have hD1 := hD.tail
+    have h1 := hD1.head
+    have hD2 := hD1.tail
+    have hnp : (n == "}") = false := vn.beq_nonsym (by decide)
+    have hph : PSym.isPlaceholder ⟨n, ⟨l, i + 1⟩⟩ = false := by simpa [PSym.isPlaceholder] using vn.notPh
+    have hres := hne f l false (i + 1 + 1) _ d toks (by omega) hD2 (stop_sep (Or.inl rfl) te)
+    have hcomma := hD2.skip.head
+    have hrec := hN' f (l + pnl e) (i + 1 + 1 + (T l false e).length + 1) rest d toks (acc ++ [Field.mk n e]) tt lc
+      (by omega) hD2.skip.tail
+    rw [fieldsLoop]
+    oksimp
+    simp only [h0, tk_text, hnp, Bool.false_eq_true, ↓reduceIte]
+    rw [ok_det (parseSymbol_ok toks i d _ h0 vn)]
+    simp only [tk_text, tk_line, hph, Bool.false_eq_true, ↓reduceIte]
+    (try oksimp)
+    rw [ok_det (requireToken_ok toks ":" (i + 1) d _ h1 rfl)]
+    refine ok_mono hres ?_
+    rintro re s1 ⟨hr1, hr2, rfl⟩
+    have hne1 : ¬ (i + 1 + 1 + (T l false e).length = i) := by omega
+    simp only [hne1, beq_iff_eq, ↓reduceIte, hr1]
+    simp only [hcomma, Option.map_some, TokI.text, tk_text, ↓reduceIte]
+    oksimp
+    simp only [hcomma]
+    have hne2 : ¬ (i + 1 + 1 + (T l false e).length + 1 = i) := by omega
+    simp only [hne2, ↓reduceIte]
+    refine ok_mono hrec ?_
+    rintro r2' s3 ⟨e1, e2⟩
+    refine ⟨by simp [e1], ?_⟩
+    rw [e2]; simp; omega
+
+theorem simple_struct (toks : Toks) (fuel i : Nat) (d : List DiagKind) (t t2 : Tok)
+    (h1 : toks[i]? = some t) (hv : ValidName t.text) (h2 : toks[i + 1]? = some t2) (hx2 : t2.text = "{")
+    (ht2 : t2.touchesPrev = true) :
+    parseSimple toks false (fuel + 1) ⟨i, d⟩ = parseStructLiteral toks false fuel ⟨i, d⟩ := by
+  rw [parseSimple]
+  have e1 := ne_of_isSymbolTok hv.sym (lit := "(") (by decide)
+  have e2 := ne_of_isSymbolTok hv.sym (lit := "[") (by decide)
+  have e3 := hv.notDict
+  have e4 := hv.ne_kw (k := "fun") (by decide)
+  have e5 := hv.ne_kw (k := "assert") (by decide)
+  have e6 := hv.sym
+  simp [bind_apply, P.bind, pure_apply, peek, peekAt, h1, h2, TokI.text, e1, e2, e3, e4, e5, e6, hx2, ht2]
+
+theorem r_struct {n : String} {fs : List Field} (vn : ValidName n) (hok : ∀ x ∈ fs, FieldOK x) :
+    ∃ k, R true (.structLit n fs) k := by
+  obtain ⟨NL, hNL⟩ := fieldsLoop_ok fs hok
+  refine ⟨NL + 4, ?_⟩
+  intro b fuel ln first i rest d toks Q _ hfu hD hfo _ ha
+  obtain ⟨f, rfl⟩ : ∃ f, fuel = f + 4 := ⟨fuel - 4, by omega⟩
+  have hT : T ln first (.structLit n fs) = tk n first ln :: tk "{" true ln :: (TFields ln fs ++ [tk "}" false (LFields ln fs)]) := by
+    simp only [T, printExpr, List.cons_append, List.nil_append, lexAux_tok, Bool.not_false, Bool.and_true, g]
+    rw [fields_tokens fs hok]
+    simp [lexAux, tk, w]
+  rw [hT] at hD ha
+  have hD0 : D toks i (tk n first ln :: tk "{" true ln :: (TFields ln fs ++ tk "}" false (LFields ln fs) :: rest)) := by
+    simpa [List.append_assoc] using hD
+  have h0 := hD0.head
+  have hD1 := hD0.tail
+  have h1 := hD1.head
+  have hD2 := hD1.tail
+  have hloop := hNL f ln (i + 1 + 1) rest d toks [] false _ (by omega) hD2
+  have hclose := hD2.skip.head
+  refine enter_simple (f := f + 2) h0 vn.notStmt (fun t2 h2 => ?_) ?_
+  · rw [h1] at h2; cases h2; refine ⟨?_, ?_, ?_⟩ <;> (simp only [tk_text]; decide)
+  · refine ok_rw (simple_struct toks (f + 1) i d _ _ h0 vn h1 rfl rfl) ?_
+    rw [parseStructLiteral]
+    oksimp
+    rw [ok_det (parseSymbol_ok toks i d _ h0 vn)]
+    have hne1 : ¬ (i + 1 = i) := by omega
+    simp only [hne1, beq_iff_eq, decide_false, Bool.and_false, Bool.false_eq_true, ↓reduceIte]
+    rw [ok_det (requireToken_ok toks "{" (i + 1) d _ h1 rfl)]
+    refine ok_mono hloop ?_
+    rintro rf s2 ⟨hrf, rfl⟩
+    rw [ok_det (requireToken_ok toks "}" _ d _ hclose rfl)]
+    have := ha ln (f + 3) (by omega)
+    simp only [List.nil_append] at hrf
+    simp only [hrf, TokI.pos, Pos.merge, tk_line, tk_text]
+    have e1 : max (i + 1) (i + 1 + 1 + (TFields ln fs).length + 1)
+        = i + (tk n first ln :: tk "{" true ln :: (TFields ln fs ++ [tk "}" false (LFields ln fs)])).length := by
+      simp; omega
+    have e2 : i + 1 + 1 + (TFields ln fs).length + 1
+        = i + (tk n first ln :: tk "{" true ln :: (TFields ln fs ++ [tk "}" false (LFields ln fs)])).length := by
+      simp; omega
+    rw [e1, e2]
+    exact this
+
+theorem pf_struct {n : String} {fs : List Field} (vn : ValidName n) : PF (.structLit n fs) :=
+  ⟨⟨n, g "{" :: (printFields fs ++ [w "}"]), fun first => by simp [printExpr], validName_not_bad vn⟩,
+   fun b first => by
+     simp only [printExpr, tailRet]
+     rw [show ([PTok.t n first, g "{"] ++ printFields fs ++ [w "}"]) = ([PTok.t n first, g "{"] ++ printFields fs) ++ [PTok.t "}" false] from by simp [w]]
+     exact fl_tok _ _ _ _, rfl⟩
+
+/-! ### `try`, `assert`, dictionaries, floats -/
+
+theorem r_try {es es2 : List Expr} {x : String} (hb : BlockOK es) (vx : ValidName x) (hb2 : BlockOK es2) :
+    ∃ n, R true (.tryE (.mk es) x (.mk es2)) n := by
+  obtain ⟨NB, hNB⟩ := block_ok es hb.fu hb.pf hb.adj
+  obtain ⟨NB2, hNB2⟩ := block_ok es2 hb2.fu hb2.pf hb2.adj
+  refine ⟨NB + NB2 + 3, ?_⟩
+  intro b fuel ln first i rest d toks Q _ hfu hD hfo _ ha
+  obtain ⟨f, rfl⟩ : ∃ f, fuel = f + 3 := ⟨fuel - 3, by omega⟩
+  generalize hl2 : LItems ln es + 1 = l2 at *
+  have hT : T ln first (.tryE (.mk es) x (.mk es2)) = tk "try" first ln :: tk "{" false ln ::
+      (TItems ln es ++ tk "}" false l2 :: tk "catch" false l2 :: tk "(" false l2 :: tk x true l2 :: tk ")" true l2 ::
+        tk "{" false l2 :: (TItems l2 es2 ++ [tk "}" false (LItems l2 es2 + 1)])) := by
+    simp only [T, printExpr, List.cons_append, List.nil_append, lexAux_tok, Bool.not_false, Bool.and_true,
+      List.append_assoc]
+    rw [TB_eq es hb.pf ln, hl2]
+    have := TB_eq es2 hb2.pf l2 []
+    simp only [List.append_nil] at this
+    simp only [List.cons_append, List.nil_append, lexAux_tok, w, g, Bool.false_and, Bool.and_true, Bool.not_false]
+    rw [show lexAux false l2 (printBlock (Block.mk es2)) = _ from this]
+    simp [lexAux, tk]
+  rw [hT] at hD ha
+  have hD0 : D toks i (tk "try" first ln :: tk "{" false ln ::
+      (TItems ln es ++ tk "}" false l2 :: (tk "catch" false l2 :: tk "(" false l2 :: tk x true l2 :: tk ")" true l2 ::
+        tk "{" false l2 :: (TItems l2 es2 ++ tk "}" false (LItems l2 es2 + 1) :: rest)))) := by
+    simpa [List.append_assoc] using hD
+  have h0 := hD0.head
+  have hD1 := hD0.tail
+  have h1 := hD1.head
+  have hblock := hNB f ln (i + 1) _ d toks false (by omega) (by rw [hl2]; exact hD1)
+  have hD2 := hD1.tail.skip.tail
+  have hcatch := hD2.head
+  have hparen := hD2.tail.head
+  have hx := hD2.tail.tail.head
+  have hclose := hD2.tail.tail.tail.head
+  have hD3 := hD2.tail.tail.tail.tail
+  have hblock2 := hNB2 f l2 _ rest d toks false (by omega) hD3
+  refine ok_exprT' (ok_rw ((nt_kw2 toks (f + 1) i d _ h0 (fun t2 h2 => by
+    rw [h1] at h2; cases h2; refine ⟨?_, ?_, ?_⟩ <;> (simp only [tk_text]; decide))).2 rfl) ?_)
+  rw [parseTry]
+  oksimp
+  rw [ok_det (requireToken_ok toks "try" i d _ h0 rfl)]
+  refine ok_mono hblock ?_
+  rintro rb s2 ⟨hb1, hb2', rfl⟩
+  rw [ok_det (requireToken_ok toks "catch" _ d _ hcatch rfl)]
+  rw [ok_det (requireToken_ok toks "(" _ d _ hparen rfl)]
+  rw [ok_det (parseSymbol_ok toks _ d _ hx vx)]
+  rw [ok_det (requireToken_ok toks ")" _ d _ hclose rfl)]
+  refine ok_mono hblock2 ?_
+  rintro rb2 s3 ⟨hc1, hc2, rfl⟩
+  have := ha ln (f + 2) (by omega)
+  simp only [PBlock.block, hb1, hc1, TokI.pos, Pos.merge, tk_line, hc2, tk_text]
+  have e1 : max (i + 1) (i + 1 + 1 + (TItems ln es).length + 1 + 1 + 1 + 1 + 1 + 1 + (TItems l2 es2).length + 1)
+      = i + (tk "try" first ln :: tk "{" false ln ::
+      (TItems ln es ++ tk "}" false l2 :: tk "catch" false l2 :: tk "(" false l2 :: tk x true l2 :: tk ")" true l2 ::
+        tk "{" false l2 :: (TItems l2 es2 ++ [tk "}" false (LItems l2 es2 + 1)]))).length := by
+    simp; omega
+  have e2 : i + 1 + 1 + (TItems ln es).length + 1 + 1 + 1 + 1 + 1 + 1 + (TItems l2 es2).length + 1
+      = i + (tk "try" first ln :: tk "{" false ln ::
+      (TItems ln es ++ tk "}" false l2 :: tk "catch" false l2 :: tk "(" false l2 :: tk x true l2 :: tk ")" true l2 ::
+        tk "{" false l2 :: (TItems l2 es2 ++ [tk "}" false (LItems l2 es2 + 1)]))).length := by
+    simp; omega
+  rw [e1, e2]
+  exact this
+
+theorem pf_try {es es2 : List Expr} {x : String} : PF (.tryE (.mk es) x (.mk es2)) := by
+  obtain ⟨X, hX⟩ := printBlock_split es2
+  exact pf_kw "try" (printBlock (.mk es) ++ [w "catch", w "(", g x, g ")"] ++ X) "}" false
+    (fun first => by simp [printExpr, hX]) (by decide) rfl rfl
+
+theorem simple_assert (toks : Toks) (fuel i : Nat) (d : List DiagKind) (t : Tok)
+    (h1 : toks[i]? = some t) (hx : t.text = "assert") :
+    parseSimple toks false (fuel + 1) ⟨i, d⟩ = parseAssert toks false fuel ⟨i, d⟩ := by
+  rw [parseSimple]
+  simp [bind_apply, P.bind, peek, peekAt, h1, TokI.text, hx]
+
+theorem r_assert {e : Expr} {n : Nat} (he : FU e n) (pe : PF e) (te : tailRet e = false) :
+    R true (.assertE e) (n + 4) := by
+  intro b fuel ln first i rest d toks Q _ hfu hD hfo _ ha
+  obtain ⟨f, rfl⟩ : ∃ f, fuel = f + 4 := ⟨fuel - 4, by omega⟩
+  have hT : T ln first (.assertE e) = tk "assert" first ln :: tk "(" true ln :: (T ln true e ++ [tk ")" true (ln + pnl e)]) := by
+    simp only [T, printExpr, List.cons_append, List.nil_append, lexAux_tok, Bool.not_false, Bool.and_true, g]
+    rw [T_then pe te]
+    simp [lexAux, tk, T]
+  rw [hT] at hD ha
+  have hD0 : D toks i (tk "assert" first ln :: tk "(" true ln :: (T ln true e ++ (tk ")" true (ln + pnl e) :: rest))) := by
+    simpa [List.append_assoc] using hD
+  have h0 := hD0.head
+  have hD1 := hD0.tail
+  have h1 := hD1.head
+  have hD2 := hD1.tail
+  obtain ⟨s1, tl1, hT1, hbad⟩ := T_head pe ln true
+  have h2 : toks[i + 1 + 1]? = some (tk s1 true ln) := by
+    have := hD2.head?; rw [hT1] at this; simpa using this
+  have hin := he f ln true (i + 1 + 1) _ d toks (by omega) hD2 (stop_sep (Or.inr (Or.inl rfl)) te)
+  have hclose := hD2.skip.head
+  refine enter_simple (f := f + 2) h0 (by simp [stmtKeywords]) (fun t2 h2' => ?_) ?_
+  · rw [h1] at h2'; cases h2'; refine ⟨?_, ?_, ?_⟩ <;> (simp only [tk_text]; decide)
+  · refine ok_rw (simple_assert toks (f + 1) i d _ h0 rfl) ?_
+    rw [parseAssert]
+    oksimp
+    rw [ok_det (requireToken_ok toks "assert" i d _ h0 rfl)]
+    rw [ok_det (requireToken_ok toks "(" (i + 1) d _ h1 rfl)]
+    simp only [h2, tk_text, not_badFirst hbad (show ")" ∈ badFirst by decide), Bool.false_eq_true, ↓reduceIte]
+    refine ok_mono hin ?_
+    rintro r s2 ⟨hr1, hr2, rfl⟩
+    rw [ok_det (requireToken_ok toks ")" _ d _ hclose rfl)]
+    have := ha ln (f + 3) (by omega)
+    simp only [hr1, TokI.pos, Pos.merge, tk_line]
+    have e1 : max (i + 1) (i + 1 + 1 + (T ln true e).length + 1)
+        = i + (tk "assert" first ln :: tk "(" true ln :: (T ln true e ++ [tk ")" true (ln + pnl e)])).length := by
+      simp; omega
+    have e2 : i + 1 + 1 + (T ln true e).length + 1
+        = i + (tk "assert" first ln :: tk "(" true ln :: (T ln true e ++ [tk ")" true (ln + pnl e)])).length := by
+      simp; omega
+    rw [e1, e2]
+    exact this
+
+theorem pf_assert {e : Expr} : PF (.assertE e) :=
+  pf_kw "assert" ([g "("] ++ printExpr true e) ")" true (fun first => by simp [printExpr, g]) (by decide) rfl rfl
+
+/-! #### Dictionaries -/
+
+def KVOK : KV → Prop
+  | .mk k v => (∃ n, FU k n) ∧ PF k ∧ tailRet k = false ∧ (∃ n, FU v n) ∧ PF v ∧ tailRet v = false
+
+def TKVs : Nat → Bool → List KV → List Tok
+  | _, _, [] => []
+  | l, first, .mk k v :: r =>
+    T l first k ++ tk "=>" false (l + pnl k) :: (T (l + pnl k) false v ++ tk "," true (l + pnl k + pnl v) ::
+      TKVs (l + pnl k + pnl v) false r)
+
+def LKVs : Nat → List KV → Nat
+  | l, [] => l
+  | l, .mk k v :: r => LKVs (l + pnl k + pnl v) r
+
+theorem kvs_tokens (kvs : List KV) (hok : ∀ x ∈ kvs, KVOK x) (l : Nat) (first : Bool) (B : List PTok) :
+    lexAux false l (printKVs first kvs ++ B) = TKVs l first kvs ++ lexAux false (LKVs l kvs) B := by
+  induction kvs generalizing l first with
+  | nil => simp [printKVs, TKVs, LKVs]
+  | cons c r ih =>
+    obtain ⟨k, v⟩ := c
+    obtain ⟨_, pk, tk', _, pv, tv⟩ := hok _ (List.mem_cons_self ..)
+    have ih' := ih (fun x hx => hok x (List.mem_cons_of_mem _ hx))
+    simp only [printKVs, List.cons_append, List.nil_append, List.append_assoc, TKVs, LKVs]
+    rw [T_then pk tk']
+    simp only [w, g, lexAux_tok]
+    rw [T_then pv tv, lexAux_tok, ih']
+    simp [tk]
+
+theorem dictLoop_ok (kvs : List KV) (hok : ∀ x ∈ kvs, KVOK x) :
+    ∃ N, ∀ (fuel l : Nat) (first : Bool) (i : Nat) (rest : List Tok) (d : List DiagKind) (toks : Toks) (acc : List KV)
+      (tt : Bool) (lc : Nat),
+      N ≤ fuel → D toks i (TKVs l first kvs ++ tk "]" tt lc :: rest) →
+      Ok (dictLoop toks false fuel acc) ⟨i, d⟩ (fun r s' => r = acc ++ kvs ∧ s' = ⟨i + (TKVs l first kvs).length, d⟩) := by
+  induction kvs with
+  | nil =>
+    refine ⟨1, ?_⟩
+    intro fuel l first i rest d toks acc tt lc hf hD
+    obtain ⟨f, rfl⟩ : ∃ f, fuel = f + 1 := ⟨fuel - 1, by omega⟩
+    simp only [TKVs, List.nil_append] at hD ⊢
+    have h0 := hD.head
+    rw [dictLoop]
+    oksimp
+    simp [h0, ok_pure]
+  | cons c r ih =>
+    obtain ⟨k, v⟩ := c
+    obtain ⟨⟨nk, hnk⟩, pk, tk', ⟨nv, hnv⟩, pv, tv⟩ := hok _ (List.mem_cons_self ..)
+    obtain ⟨N', hN'⟩ := ih (fun x hx => hok x (List.mem_cons_of_mem _ hx))
+    refine ⟨nk + nv + N' + 1, ?_⟩
+    intro fuel l first i rest d toks acc tt lc hf hD
+    obtain ⟨f, rfl⟩ : ∃ f, fuel = f + 1 := ⟨fuel - 1, by omega⟩
+    simp only [TKVs, List.cons_append, List.append_assoc] at hD ⊢
+    obtain ⟨s0, tl0, hT0, hbad⟩ := T_head pk l first
+    have h0 : toks[i]? = some (tk s0 first l) := by
+      have := hD.head?; rw [hT0] at this; simpa using this
+    have hkey := hnk f l first i _ d toks (by omega) hD (stop_sep (Or.inr (Or.inr (Or.inr (Or.inr rfl)))) tk')
+    have hD1 := hD.skip
+    have harrow := hD1.head
+    have hD2 := hD1.tail
+    have hval := hnv f (l + pnl k) false (i + (T l first k).length + 1) _ d toks (by omega) hD2 (stop_sep (Or.inl rfl) tv)
+    have hcomma := hD2.skip.head
+    have hrec := hN' f (l + pnl k + pnl v) false (i + (T l first k).length + 1 + (T (l + pnl k) false v).length + 1)
+      rest d toks (acc ++ [KV.mk k v]) tt lc (by omega) hD2.skip.tail
+    have hposk := T_pos pk l first
+    rw [dictLoop]
+    oksimp
+    simp only [h0, tk_text, not_badFirst hbad (show "]" ∈ badFirst by decide), Bool.false_eq_true, ↓reduceIte]
+    refine ok_mono hkey ?_
+    rintro rk s1 ⟨hk1, hk2, rfl⟩
+    simp only [hk1, pk.ninv, Bool.false_eq_true, ↓reduceIte]
+    rw [ok_det (requireToken_ok toks "=>" _ d _ harrow rfl)]
+    refine ok_mono hval ?_
+    rintro rv s2 ⟨hv1, hv2, rfl⟩
+    have hlt : i < i + (T l first k).length + 1 + (T (l + pnl k) false v).length := by omega
+    simp only [gt_iff_lt, hlt, decide_true, Bool.not_true, Bool.false_eq_true, ↓reduceIte, hv1]
+    simp only [hcomma, Option.map_some, TokI.text, tk_text, beq_self_eq_true, ↓reduceIte]
+    (try oksimp)
+    (try simp only [hcomma])
+    refine ok_mono hrec ?_
+    rintro r2' s3 ⟨e1, e2⟩
+    refine ⟨by simp [e1], ?_⟩
+    rw [e2]; simp; omega
+
+theorem simple_dict (toks : Toks) (fuel i : Nat) (d : List DiagKind) (t : Tok)
+    (h1 : toks[i]? = some t) (hx : t.text = "Dict") :
+    parseSimple toks false (fuel + 1) ⟨i, d⟩ = parseDictLiteral toks false fuel ⟨i, d⟩ := by
+  rw [parseSimple]
+  simp [bind_apply, P.bind, peek, peekAt, h1, TokI.text, hx]
+
+theorem r_dict {kvs : List KV} (hok : ∀ x ∈ kvs, KVOK x) : ∃ n, R true (.dict kvs) n := by
+  obtain ⟨NL, hNL⟩ := dictLoop_ok kvs hok
+  refine ⟨NL + 4, ?_⟩
+  intro b fuel ln first i rest d toks Q _ hfu hD hfo _ ha
+  obtain ⟨f, rfl⟩ : ∃ f, fuel = f + 4 := ⟨fuel - 4, by omega⟩
+  have hT : T ln first (.dict kvs) = tk "Dict" first ln :: tk "[" true ln :: (TKVs ln true kvs ++ [tk "]" true (LKVs ln kvs)]) := by
+    simp only [T, printExpr, List.cons_append, List.nil_append, lexAux_tok, Bool.not_false, Bool.and_true, g]
+    rw [kvs_tokens kvs hok]
+    simp [lexAux, tk]
+  rw [hT] at hD ha
+  have hD0 : D toks i (tk "Dict" first ln :: tk "[" true ln :: (TKVs ln true kvs ++ tk "]" true (LKVs ln kvs) :: rest)) := by
+    simpa [List.append_assoc] using hD
+  have h0 := hD0.head
+  have h1 := hD0.tail.head
+  have hD2 := hD0.tail.tail
+  have hloop := hNL f ln true (i + 1 + 1) rest d toks [] true _ (by omega) hD2
+  have hclose := hD2.skip.head
+  refine enter_simple (f := f + 2) h0 (by simp [stmtKeywords]) (fun t2 h2 => ?_) ?_
+  · rw [h1] at h2; cases h2; refine ⟨?_, ?_, ?_⟩ <;> (simp only [tk_text]; decide)
+  · refine ok_rw (simple_dict toks (f + 1) i d _ h0 rfl) ?_
+    rw [parseDictLiteral]
+    oksimp
+    rw [ok_det (requireToken_ok toks "Dict" i d _ h0 rfl)]
+    rw [ok_det (requireToken_ok toks "[" (i + 1) d _ h1 rfl)]
+    refine ok_mono hloop ?_
+    rintro rk s2 ⟨hrk, rfl⟩
+    rw [ok_det (requireToken_ok toks "]" _ d _ hclose rfl)]
+    have := ha ln (f + 3) (by omega)
+    simp only [List.nil_append] at hrk
+    simp only [hrk, TokI.pos, Pos.merge, tk_line]
+    have e1 : max (i + 1) (i + 1 + 1 + (TKVs ln true kvs).length + 1)
+        = i + (tk "Dict" first ln :: tk "[" true ln :: (TKVs ln true kvs ++ [tk "]" true (LKVs ln kvs)])).length := by
+      simp; omega
+    have e2 : i + 1 + 1 + (TKVs ln true kvs).length + 1
+        = i + (tk "Dict" first ln :: tk "[" true ln :: (TKVs ln true kvs ++ [tk "]" true (LKVs ln kvs)])).length := by
+      simp; omega
+    rw [e1, e2]
+    exact this
+
+theorem pf_dict {kvs : List KV} : PF (.dict kvs) :=
+  pf_kw "Dict" ([g "["] ++ printKVs true kvs) "]" true (fun first => by simp [printExpr, g]) (by decide) rfl rfl
+
+/-! #### Float literals -/
+
+/-- A token text the parser reads as the float literal with the same text. -/
+structure FloatTok (s : String) : Prop where
+  flt : isFloatTok s = true
+  notSym : isSymbolTok s = false
+  notStr : isStringTok s = false
+  clean : s.toList.filter (· != '_') = s.toList
+  whole : floatWhole s.toList = true
+
+theorem FloatTok.ne {s lit : String} (h : FloatTok s) (hl : isFloatTok lit = false) : s ≠ lit := by
+  intro e; subst e; rw [h.flt] at hl; cases hl
+
+theorem FloatTok.notBad {s : String} (h : FloatTok s) : s ∉ badFirst := by
+  intro hm
+  have : ∀ x ∈ badFirst, isFloatTok x = false := by decide
+  exact h.ne (this s hm) rfl
+
+theorem FloatTok.notStmt {s : String} (h : FloatTok s) : s ∉ stmtKeywords := by
+  intro hm
+  have : ∀ x ∈ stmtKeywords, isFloatTok x = false := by decide
+  exact h.ne (this s hm) rfl
+
+theorem simple_float (toks : Toks) (fuel i : Nat) (d : List DiagKind) (t : Tok)
+    (h1 : toks[i]? = some t) (hf : FloatTok t.text) :
+    parseSimple toks false (fuel + 1) ⟨i, d⟩ = .ok ⟨.floatLit t.text, ⟨t.line, i + 1⟩⟩ ⟨i + 1, d⟩ := by
+  rw [parseSimple]
+  have e1 := hf.ne (lit := "(") (by decide)
+  have e2 := hf.ne (lit := "[") (by decide)
+  have e3 := hf.ne (lit := "Dict") (by decide)
+  have e4 := hf.ne (lit := "fun") (by decide)
+  have e5 := hf.ne (lit := "assert") (by decide)
+  simp [bind_apply, P.bind, pure_apply, peek, peekAt, h1, TokI.text, e1, e2, e3, e4, e5, hf.notSym, hf.notStr, hf.flt,
+    parseFloat, requireAToken, pop, hf.clean, hf.whole, TokI.pos, String.ofList_toList]
+
+theorem r_float {s : String} (hs : FloatTok s) : R true (.floatLit s) 3 := by
+  intro b fuel ln first i rest d toks Q _ hf hD hfo _ ha
+  obtain ⟨f, rfl⟩ : ∃ f, fuel = f + 3 := ⟨fuel - 3, by omega⟩
+  have hT : T ln first (.floatLit s) = [tk s first ln] := by simp [T, printExpr, lexAux, tk]
+  rw [hT] at hD ha
+  replace hD : D toks i (tk s first ln :: rest) := by simpa using hD
+  have h0 := hD.head
+  have h1 := hD.second
+  have hnt : parseNoTrailing toks false (f + 2) ⟨i, d⟩ = .ok ⟨.floatLit s, ⟨ln, i + 1⟩⟩ ⟨i + 1, d⟩ := by
+    rw [noTrailing_simple toks (f + 1) i d _ h0 hs.notStmt (fun t2 h2 => (fol_second hfo t2 (h1 ▸ h2)).1)]
+    simpa using simple_float toks f i d _ h0 hs
+  exact ok_exprT hnt (ha ln (f + 2) (by omega))
+
+theorem pf_float {s : String} (hs : FloatTok s) : PF (.floatLit s) :=
+  pf_leaf _ s (fun _ => by simp [printExpr]) hs.notBad rfl rfl
+
+example : FloatTok "1.5" := ⟨by decide, by decide, by decide, by decide, by decide⟩
+example : FloatTok "-0.25" := ⟨by decide, by decide, by decide, by decide, by decide⟩
+
+/-! #### `let` and `for` with destructuring and type hints -/
+
+theorem TD_head {dst : LetDest} (wd : WTD dst) (ln : Nat) :
+    ∃ s tl, TD ln dst = tk s false ln :: tl ∧ s ≠ "=" ∧ s ≠ "+=" ∧ s ≠ "-=" := by
+  cases wd with
+  | @sym x vx =>
+    exact ⟨x, [], TD_sym ln x, ne_of_isSymbolTok vx.sym (by decide), ne_of_isSymbolTok vx.sym (by decide),
+      ne_of_isSymbolTok vx.sym (by decide)⟩
+  | @destr xs _ _ => exact ⟨"(", _, TD_destr ln xs, by decide, by decide, by decide⟩
+
+theorem fu_let' {dst : LetDest} {h : Option TypeHint} {e : Expr} {n : Nat} (wd : WTD dst) (wh : WTHO h)
+    (he : FU e n) (pe : PF e) : ∃ k, FU (.letE dst h e) k := by
+  obtain ⟨ND, hND⟩ := dest_ok wd
+  obtain ⟨NH, hNH⟩ := hintOpt_ok wh
+  refine ⟨n + ND + NH + 3, ?_⟩
+  intro fuel ln first i rest d toks hf hD hs
+  obtain ⟨f, rfl⟩ : ∃ f, fuel = f + 3 := ⟨fuel - 3, by omega⟩
+  have hT : T ln first (.letE dst h e) = tk "let" first ln :: (TD ln dst ++ (THO ln h ++ tk "=" false ln :: T ln false e)) := by
+    simp only [T, printExpr, List.cons_append, List.nil_append, List.append_assoc, lexAux_tok, Bool.not_false, Bool.and_true]
+    rw [lex_flat (dest_flat dst), lex_flat (hintOpt_flat wh)]
+    simp [TD, THO, lexAux, tk, w]
+  have hpnl : pnl (.letE dst h e) = pnl e := by
+    simp only [pnl, printExpr, List.cons_append, List.nil_append, List.append_assoc, nlc]
+    rw [nlc_append, nlc_append, (dest_flat dst).2, (hintOpt_flat wh).2]
+    simp [w, nlc]
+  rw [hT] at hD ⊢
+  have hD0 : D toks i (tk "let" first ln :: (TD ln dst ++ (THO ln h ++ (tk "=" false ln :: (T ln false e ++ rest))))) := by
+    simpa [List.append_assoc] using hD
+  have h0 := hD0.head
+  have hD1 := hD0.tail
+  obtain ⟨s1, tl1, hT1, n1, n2, n3⟩ := TD_head wd ln
+  have h1 : toks[i + 1]? = some (tk s1 false ln) := by
+    have := hD1.head?; rw [hT1] at this; simpa using this
+  have hdest := hND f ln (i + 1) _ d toks (by omega) hD1
+  have hD2 := hD1.skip
+  have hhint := hNH f ln _ _ d toks (by omega) hD2 (noHint_tok (Or.inl rfl))
+  have hD3 := hD2.skip
+  have heq := hD3.head
+  have hD4 := hD3.tail
+  have hs' : Stop e ln rest := stop_tail hs (by simp [endsDot]) (by simp [tailRet]) hpnl
+  have hin := he f ln false _ rest d toks (by omega) hD4 hs'
+  have hj : i + (tk "let" first ln :: (TD ln dst ++ (THO ln h ++ tk "=" false ln :: T ln false e))).length
+      = i + 1 + (TD ln dst).length + (THO ln h).length + 1 + (T ln false e).length := by simp; omega
+  rw [hj]
+  refine fu_finish (toks := toks) (i := i) (d := d) (f := f + 1) (ln := ln) (e := .letE dst h e)
+    (j := i + 1 + (TD ln dst).length + (THO ln h).length + 1 + (T ln false e).length) ?_ hD4.skip hs
+  refine ok_rw ((nt_kw toks (f + 1) i d _ h0 (fun t2 h2' => by
+    rw [h1] at h2'; cases h2'; exact ⟨n1, n2, n3⟩)).1 rfl) ?_
+  rw [parseLet]
+  oksimp
+  rw [ok_det (requireToken_ok toks "let" i d _ h0 rfl)]
+  refine ok_mono hdest ?_
+  rintro rd s1' ⟨rfl, rfl⟩
+  refine ok_mono hhint ?_
+  rintro rh s2' ⟨rfl, rfl⟩
+  rw [ok_det (requireToken_ok toks "=" _ d _ heq rfl)]
+  refine ok_mono hin ?_
+  rintro r s3' ⟨hr1, hr2, rfl⟩
+  simp [Res1, hr1, hr2, TokI.pos, Pos.merge]
+  omega
+
+theorem pf_let' {dst : LetDest} {h : Option TypeHint} {e : Expr} (pe : PF e) : PF (.letE dst h e) :=
+  pf_stmt pe "let" (printDest dst ++ printHintOpt h ++ [w "="]) (fun first => by simp [printExpr]) (by decide) rfl rfl
+
+theorem r_for' {dst : LetDest} {c : Expr} {es : List Expr} {nc : Nat} (wd : WTD dst) (hc : FU c nc) (pc : PF c)
+    (tc : tailRet c = false) (hb : BlockOK es) : ∃ n, R true (.forIn dst c (.mk es)) n := by
+  obtain ⟨NB, hNB⟩ := block_ok es hb.fu hb.pf hb.adj
+  obtain ⟨ND, hND⟩ := dest_ok wd
+  refine ⟨nc + NB + ND + 3, ?_⟩
+  intro b fuel ln first i rest d toks Q _ hfu hD hfo _ ha
+  obtain ⟨f, rfl⟩ : ∃ f, fuel = f + 3 := ⟨fuel - 3, by omega⟩
+  have hT : T ln first (.forIn dst c (.mk es)) = tk "for" first ln :: (TD ln dst ++ tk "in" false ln ::
+      (T ln false c ++ tk "{" false (ln + pnl c) ::
+        (TItems (ln + pnl c) es ++ [tk "}" false (LItems (ln + pnl c) es + 1)]))) := by
+    simp only [T, printExpr, List.cons_append, List.nil_append, List.append_assoc, lexAux_tok, Bool.not_false, Bool.and_true]
+    rw [lex_flat (dest_flat dst)]
+    simp only [w, lexAux_tok]
+    rw [T_then pc tc]
+    have := TB_eq es hb.pf (ln + pnl c) []
+    simp only [List.append_nil] at this
+    rw [this]
+    simp [lexAux, T, tk, TD]
+  rw [hT] at hD ha
+  have hD0 : D toks i (tk "for" first ln :: (TD ln dst ++ (tk "in" false ln :: (T ln false c ++
+      (tk "{" false (ln + pnl c) :: (TItems (ln + pnl c) es ++ tk "}" false (LItems (ln + pnl c) es + 1) :: rest)))))) := by
+    simpa [List.append_assoc] using hD
+  have h0 := hD0.head
+  have hD1 := hD0.tail
+  obtain ⟨s1, tl1, hT1, n1, n2, n3⟩ := TD_head wd ln
+  have h1 : toks[i + 1]? = some (tk s1 false ln) := by
+    have := hD1.head?; rw [hT1] at this; simpa using this
+  have hdest := hND f ln (i + 1) _ d toks (by omega) hD1
+  have hD2 := hD1.skip
+  have hin' := hD2.head
+  have hD3 := hD2.tail
+  have hcond := hc f ln false _ _ d toks (by omega) hD3 (stop_lbrace tc)
+  have hblock := hNB f (ln + pnl c) _ rest d toks false (by omega) hD3.skip
+  refine ok_exprT' (ok_rw ((nt_kw toks (f + 1) i d _ h0 (fun t2 h2' => by
+    rw [h1] at h2'; cases h2'; exact ⟨n1, n2, n3⟩)).2.2.2.1 rfl) ?_)
+  rw [parseForIn]
+  oksimp
+  rw [ok_det (requireToken_ok toks "for" i d _ h0 rfl)]
+  refine ok_mono hdest ?_
+  rintro rd s1' ⟨rfl, rfl⟩
+  rw [ok_det (requireToken_ok toks "in" _ d _ hin' rfl)]
+  refine ok_mono hcond ?_
+  rintro rc s2' ⟨hr1, hr2, rfl⟩
+  refine ok_mono hblock ?_
+  rintro rb s3' ⟨hb1, hb2, rfl⟩
+  have := ha ln (f + 2) (by omega)
+  simp only [hr1, PBlock.block, hb1, TokI.pos, Pos.merge, tk_line, hb2, tk_text]
+  have e1 : max (i + 1) (i + 1 + (TD ln rd).length + 1 + (T ln false c).length + 1 + (TItems (ln + pnl c) es).length + 1)
+      = i + (tk "for" first ln :: (TD ln rd ++ tk "in" false ln :: (T ln false c ++ tk "{" false (ln + pnl c) ::
+        (TItems (ln + pnl c) es ++ [tk "}" false (LItems (ln + pnl c) es + 1)])))).length := by simp; omega
+  have e2 : i + 1 + (TD ln rd).length + 1 + (T ln false c).length + 1 + (TItems (ln + pnl c) es).length + 1
+      = i + (tk "for" first ln :: (TD ln rd ++ tk "in" false ln :: (T ln false c ++ tk "{" false (ln + pnl c) ::
+        (TItems (ln + pnl c) es ++ [tk "}" false (LItems (ln + pnl c) es + 1)])))).length := by simp; omega
+  rw [e1, e2]
+  exact this
+
+/-! ### Definitions -/
+
+/-- tokens of what follows `fun` / `fun name`: type parameters, parameters, return hint, body -/
+def TFB (ln : Nat) (tps : List String) (ps : List Param) (r : Option TypeHint) (es : List Expr) : List Tok :=
+  TTP ln tps ++ (TParams ln ps ++ (THO ln r ++ tk "{" false ln :: (TItems ln es ++ [tk "}" false (LItems ln es + 1)])))
+
+theorem TFB_eq {tps : List String} {ps : List Param} {r : Option TypeHint} (wf : WTF tps ps r) {es : List Expr}
+    (hpf : ∀ e ∈ es, PF e) (ln : Nat) :
+    lexAux false ln (printFun (.mk tps ps r (.mk es))) = TFB ln tps ps r es := by
+  have := TF_eq wf hpf ln []
+  simp only [List.append_nil] at this
+  rw [this]; simp [TFB, lexAux]
+
+theorem funTail_ok' {tps : List String} {ps : List Param} {r : Option TypeHint} (wf : WTF tps ps r) {es : List Expr}
+    (hb : BlockOK es) :
+    ∃ N, ∀ (fuel ln i : Nat) (rest : List Tok) (d : List DiagKind) (toks : Toks)
+      (K : List String → List Param → Option TypeHint → PBlock → St → Prop),
+      N ≤ fuel → D toks i (TFB ln tps ps r es ++ rest) →
+      (∀ body : PBlock, body.exprs = es → K tps ps r body ⟨i + (TFB ln tps ps r es).length, d⟩) →
+      Ok (parseTypeParams toks false fuel) ⟨i, d⟩ (fun a s1 =>
+        Ok (parseParameters toks false fuel) s1 (fun b s2 =>
+          Ok (parseColonAndHintOpt toks false fuel) s2 (fun c s3 =>
+            Ok (parseBlock toks false fuel) s3 (fun body s4 => K a b c body s4)))) := by
+  obtain ⟨N, hN⟩ := funTail_ok wf hb
+  refine ⟨N, ?_⟩
+  intro fuel ln i rest d toks K hf hD hK
+  refine hN fuel ln i rest d toks (i + (TFB ln tps ps r es).length) K hf ?_ ?_ ?_
+  · simpa [TFB, List.append_assoc] using hD
+  · simp [TFB]; omega
+  · intro body h1 _; exact hK body h1
+
+def defKw : List String := ["fun", "method", "test", "enum", "struct", "public", "import"]
+
+theorem pubTok_lex (ln : Nat) (first pub : Bool) (kw : String) :
+    lexAux false ln (pubTok first pub kw) = if pub then [tk "public" first ln, tk kw false ln] else [tk kw first ln] := by
+  cases pub <;> simp [pubTok, lexAux, tk, w]
+
+/-- `pop_if_public` then the keyword. -/
+theorem pub_kw_ok (toks : Toks) (ln : Nat) (first pub : Bool) (kw : String) (hkw : kw ≠ "public") (i : Nat)
+    (d : List DiagKind) (rest : List Tok) (hD : D toks i (lexAux false ln (pubTok first pub kw) ++ rest))
+    (K : Bool → St → Prop) (hK : K pub ⟨i + (lexAux false ln (pubTok first pub kw)).length, d⟩) :
+    Ok (popIfPublic toks) ⟨i, d⟩ (fun a s1 => Ok (requireToken toks kw) s1 (fun _ s2 => K a s2)) := by
+  rw [pubTok_lex] at hD hK
+  cases pub with
+  | false =>
+    simp only [Bool.false_eq_true, ↓reduceIte] at hD hK
+    replace hD : D toks i (tk kw first ln :: rest) := by simpa using hD
+    have h0 := hD.head
+    simp only [popIfPublic]
+    oksimp
+    simp only [h0, tk_text, show (kw == "public") = false by simp [hkw], Bool.false_eq_true, ↓reduceIte]
+    rw [ok_det (requireToken_ok toks kw i d _ h0 rfl)]
+    simpa using hK
+  | true =>
+    simp only [↓reduceIte] at hD hK
+    replace hD : D toks i (tk "public" first ln :: tk kw false ln :: rest) := by simpa using hD
+    have h0 := hD.head
+    have h1 := hD.tail.head
+    simp only [popIfPublic]
+    oksimp
+    simp only [h0, tk_text, beq_self_eq_true, ↓reduceIte]
+    rw [ok_det (requireToken_ok toks kw (i + 1) d _ h1 rfl)]
+    simpa using hK
+
+theorem pubTok_flat (first pub : Bool) (kw : String) : Flat (pubTok first pub kw) := by
+  cases pub <;> simp [pubTok, w] <;> exact Flat.cons (by first | exact Flat.nil | exact Flat.cons Flat.nil)
+
+def IT (ln : Nat) (first : Bool) (it : Item) : List Tok := lexAux false ln (printItem first it)
+
+/-- the result of `parse_toplevel_item` on the canonical text of `it` -/
+def ItemRes (it : Item) (j : Nat) (d : List DiagKind) : Option Item → St → Prop :=
+  fun r s' => r = some it ∧ s' = ⟨j, d⟩
+
+theorem notKwPh {name : String} (vn : ValidName name) : (name == "__keyword_placeholder") = false := by
+  have := vn.notPh
+  simp [isPlaceholderName] at this
+  simp [this.2]
+
+theorem top_fun (toks : Toks) (fuel i : Nat) (d : List DiagKind) (ln : Nat) (first pub : Bool) (name : String)
+    (rest' : List Tok) (vn : ValidName name)
+    (hD : D toks i (lexAux false ln (pubTok first pub "fun") ++ tk name false ln :: rest')) :
+    parseToplevelItem toks false fuel ⟨i, d⟩ = parseFunction toks false fuel ⟨i, d⟩ := by
+  rw [pubTok_lex] at hD
+  have hn : (name != "(") = true := by simp [ne_of_isSymbolTok vn.sym (lit := "(") (by decide)]
+  have hn' : (name == "(") = false := vn.beq_nonsym (by decide)
+  have hn2 : name ≠ "(" := ne_of_isSymbolTok vn.sym (by decide)
+  cases pub with
+  | false =>
+    replace hD : D toks i (tk "fun" first ln :: tk name false ln :: rest') := by simpa using hD
+    have h0 := hD.head
+    have h1 := hD.tail.head
+    simp [parseToplevelItem, parseDefinition, bind_apply, P.bind, peek, peekAt, h0, h1, TokI.text, hn, hn2]
+  | true =>
+    replace hD : D toks i (tk "public" first ln :: tk "fun" false ln :: tk name false ln :: rest') := by simpa using hD
+    have h0 := hD.head
+    have h1 := hD.tail.head
+    have h2 := hD.tail.tail.head
+    simp [parseToplevelItem, parseDefinition, bind_apply, P.bind, peek, peekAt, h0, h1, h2, TokI.text, hn', hn2]
+
+theorem item_func {pub : Bool} {name : String} {tps : List String} {ps : List Param} {r : Option TypeHint}
+    {es : List Expr} (vn : ValidName name) (wf : WTF tps ps r) (hb : BlockOK es) :
+    ∃ N, ∀ (fuel ln : Nat) (first : Bool) (i : Nat) (rest : List Tok) (d : List DiagKind) (toks : Toks), N ≤ fuel →
+      D toks i (IT ln first (.func pub name (.mk tps ps r (.mk es))) ++ rest) →
+      Ok (parseToplevelItem toks false fuel) ⟨i, d⟩
+        (ItemRes (.func pub name (.mk tps ps r (.mk es))) (i + (IT ln first (.func pub name (.mk tps ps r (.mk es)))).length) d) := by
+  obtain ⟨N, hN⟩ := funTail_ok' wf hb
+  refine ⟨N, ?_⟩
+  intro fuel ln first i rest d toks hf hD
+  have hT : IT ln first (.func pub name (.mk tps ps r (.mk es))) =
+      lexAux false ln (pubTok first pub "fun") ++ tk name false ln :: TFB ln tps ps r es := by
+    simp only [IT, printItem, List.append_assoc]
+    rw [lex_flat (pubTok_flat first pub "fun")]
+    simp only [List.cons_append, List.nil_append, w, lexAux_tok]
+    rw [TFB_eq wf hb.pf]
+    simp [tk]
+  rw [hT] at hD ⊢
+  generalize hPK : lexAux false ln (pubTok first pub "fun") = PK at *
+  have hD' : D toks i (PK ++ tk name false ln :: (TFB ln tps ps r es ++ rest)) := by
+    simpa [List.append_assoc] using hD
+  refine ok_rw (top_fun toks fuel i d ln first pub name _ vn (by rw [hPK]; exact hD')) ?_
+  have hname := hD'.skip.head
+  have hD2 := hD'.skip.tail
+  simp only [parseFunction]
+  oksimp
+  refine pub_kw_ok toks ln first pub "fun" (by decide) i d _ (by rw [hPK]; exact hD') _ ?_
+  rw [hPK, ok_det (parseSymbol_ok toks _ d _ hname vn)]
+  simp only [tk_text, notKwPh vn, Bool.false_eq_true, ↓reduceIte]
+  refine hN fuel ln _ rest d toks _ hf hD2 ?_
+  intro body hb1
+  simp [ItemRes, PBlock.block, hb1]
+  omega
+
+theorem top_method (toks : Toks) (fuel i : Nat) (d : List DiagKind) (ln : Nat) (first pub : Bool) (t2 : Tok)
+    (rest' : List Tok)
+    (hD : D toks i (lexAux false ln (pubTok first pub "method") ++ t2 :: rest')) :
+    parseToplevelItem toks false fuel ⟨i, d⟩ =
+      (do let m ← parseMethod toks false fuel; pure (some m) : P (Option Item)) ⟨i, d⟩ := by
+  rw [pubTok_lex] at hD
+  cases pub with
+  | false =>
+    replace hD : D toks i (tk "method" first ln :: t2 :: rest') := by simpa using hD
+    have h0 := hD.head
+    have h1 := hD.tail.head
+    simp [parseToplevelItem, parseDefinition, bind_apply, P.bind, peek, peekAt, h0, h1, TokI.text]
+  | true =>
+    replace hD : D toks i (tk "public" first ln :: tk "method" false ln :: t2 :: rest') := by simpa using hD
+    have h0 := hD.head
+    have h1 := hD.tail.head
+    simp [parseToplevelItem, parseDefinition, bind_apply, P.bind, peek, peekAt, h0, h1, TokI.text]
+
+theorem item_method {pub : Bool} {name recv : String} {rh : TypeHint} {tps : List String} {ps : List Param}
+    {r : Option TypeHint} {es : List Expr} (vn : ValidName name) (wf : WTF tps (⟨recv, some rh⟩ :: ps) r)
+    (hb : BlockOK es) :
+    ∃ N, ∀ (fuel ln : Nat) (first : Bool) (i : Nat) (rest : List Tok) (d : List DiagKind) (toks : Toks), N ≤ fuel →
+      D toks i (IT ln first (.method pub name recv rh (.mk tps ps r (.mk es))) ++ rest) →
+      Ok (parseToplevelItem toks false fuel) ⟨i, d⟩
+        (ItemRes (.method pub name recv rh (.mk tps ps r (.mk es)))
+          (i + (IT ln first (.method pub name recv rh (.mk tps ps r (.mk es)))).length) d) := by
+  obtain ⟨N, hN⟩ := funTail_ok wf hb
+  obtain ⟨N1, h1⟩ := tparams_ok tps wf.tpsOk
+  obtain ⟨N2, h2⟩ := params_ok (⟨recv, some rh⟩ :: ps) wf.psOk wf.dup
+  obtain ⟨N3, h3⟩ := hintOpt_ok wf.ret
+  obtain ⟨N4, h4⟩ := block_ok es hb.fu hb.pf hb.adj
+  refine ⟨N1 + N2 + N3 + N4, ?_⟩
+  intro fuel ln first i rest d toks hf hD
+  have hT : IT ln first (.method pub name recv rh (.mk tps ps r (.mk es))) =
+      lexAux false ln (pubTok first pub "method") ++ tk name false ln :: TFB ln tps (⟨recv, some rh⟩ :: ps) r es := by
+    simp only [IT, printItem, List.append_assoc]
+    rw [lex_flat (pubTok_flat first pub "method")]
+    simp only [List.cons_append, List.nil_append, w, lexAux_tok]
+    rw [TFB_eq wf hb.pf]
+    simp [tk]
+  rw [hT] at hD ⊢
+  generalize hPK : lexAux false ln (pubTok first pub "method") = PK at *
+  generalize hps' : (⟨recv, some rh⟩ :: ps : List Param) = ps' at *
+  have hD' : D toks i (PK ++ tk name false ln :: (TTP ln tps ++ (TParams ln ps' ++ (THO ln r ++
+      tk "{" false ln :: (TItems ln es ++ tk "}" false (LItems ln es + 1) :: rest))))) := by
+    simpa [TFB, List.append_assoc] using hD
+  refine ok_rw (top_method toks fuel i d ln first pub _ _ (by rw [hPK]; exact hD')) ?_
+  have hname := hD'.skip.head
+  have hD2 := hD'.skip.tail
+  have hparen : ∀ t, (TParams ln ps' ++ (THO ln r ++ tk "{" false ln ::
+      (TItems ln es ++ tk "}" false (LItems ln es + 1) :: rest))).head? = some t → t.text ≠ "<" := by
+    intro t ht
+    rw [TParams_eq ln ps' wf.psOk] at ht
+    simp at ht; subst ht; simp
+  simp only [parseMethod]
+  oksimp
+  refine pub_kw_ok toks ln first pub "method" (by decide) i d _ (by rw [hPK]; exact hD') _ ?_
+  rw [hPK, ok_det (parseSymbol_ok toks _ d _ hname vn)]
+  refine ok_mono (h1 fuel ln _ _ d toks (by omega) hD2 hparen) ?_
+  rintro a s1 ⟨rfl, rfl⟩
+  refine ok_mono (h2 fuel ln _ _ d toks (by omega) hD2.skip) ?_
+  rintro b s2 ⟨rfl, rfl⟩
+  subst hps'
+  simp only [ok_pure]
+  refine ok_mono (h3 fuel ln _ _ d toks (by omega) hD2.skip.skip (noHint_tok (Or.inr (Or.inr (Or.inr rfl))))) ?_
+  rintro c s3 ⟨rfl, rfl⟩
+  refine ok_mono (h4 fuel ln _ rest d toks false (by omega) hD2.skip.skip.skip) ?_
+  rintro body s4 ⟨hb1, hb2, rfl⟩
+  simp [ItemRes, PBlock.block, hb1, TFB]
+  omega
+
+theorem top_test (toks : Toks) (fuel i : Nat) (d : List DiagKind) (ln : Nat) (first : Bool) (t2 : Tok)
+    (rest' : List Tok) (hD : D toks i (tk "test" first ln :: t2 :: rest')) :
+    parseToplevelItem toks false fuel ⟨i, d⟩ =
+      (do let m ← parseTest toks false fuel; pure (some m) : P (Option Item)) ⟨i, d⟩ := by
+  have h0 := hD.head
+  have h1 := hD.tail.head
+  simp [parseToplevelItem, parseDefinition, bind_apply, P.bind, peek, peekAt, h0, h1, TokI.text]
+
+theorem item_test {name : String} {es : List Expr} (vn : ValidName name) (hb : BlockOK es) :
+    ∃ N, ∀ (fuel ln : Nat) (first : Bool) (i : Nat) (rest : List Tok) (d : List DiagKind) (toks : Toks), N ≤ fuel →
+      D toks i (IT ln first (.test name (.mk es)) ++ rest) →
+      Ok (parseToplevelItem toks false fuel) ⟨i, d⟩
+        (ItemRes (.test name (.mk es)) (i + (IT ln first (.test name (.mk es))).length) d) := by
+  obtain ⟨N4, h4⟩ := block_ok es hb.fu hb.pf hb.adj
+  refine ⟨N4, ?_⟩
+  intro fuel ln first i rest d toks hf hD
+  have hT : IT ln first (.test name (.mk es)) = tk "test" first ln :: tk name false ln :: tk "{" false ln ::
+      (TItems ln es ++ [tk "}" false (LItems ln es + 1)]) := by
+    simp only [IT, printItem, List.cons_append, List.nil_append, w, lexAux_tok]
+    have := TB_eq es hb.pf ln []
+    simp only [List.append_nil] at this
+    rw [this]
+    simp [tk, lexAux]
+  rw [hT] at hD ⊢
+  have hD' : D toks i (tk "test" first ln :: tk name false ln :: tk "{" false ln ::
+      (TItems ln es ++ tk "}" false (LItems ln es + 1) :: rest)) := by
+    simpa [List.append_assoc] using hD
+  refine ok_rw (top_test toks fuel i d ln first _ _ hD') ?_
+  have h0 := hD'.head
+  have h1 := hD'.tail.head
+  have h2 := hD'.tail.tail.head
+  simp only [parseTest]
+  oksimp
+  rw [ok_det (requireToken_ok toks "test" i d _ h0 rfl)]
+  rw [ok_det (parseSymbol_ok toks _ d _ h1 vn)]
+  simp only [h2, tk_text, show (("{" : String) == "(") = false by decide, Bool.false_eq_true, ↓reduceIte]
+  (try oksimp)
+  refine ok_mono (h4 fuel ln _ rest d toks false hf hD'.tail.tail) ?_
+  rintro body s4 ⟨hb1, hb2, rfl⟩
+  simp [ItemRes, PBlock.block, hb1]
+  omega
+
+/-! #### Enums -/
+
+structure VariantOK (v : Variant) : Prop where
+  name : ValidName v.name
+  payload : ∀ h, v.payload = some h → WTH h
+
+/-- tokens of one variant on line `l` -/
+def TVar (l : Nat) (v : Variant) : List Tok :=
+  match v.payload with
+  | none => [tk v.name false l, tk "," true l]
+  | some h => tk v.name false l :: tk "(" true l :: (TH l h ++ [tk ")" true l, tk "," true l])
+
+def TVars : Nat → List Variant → List Tok
+  | _, [] => []
+  | l, v :: r => TVar (l + 1) v ++ TVars (l + 1) r
+
+theorem lexAux_true_w (l : Nat) (s : String) (X : List PTok) :
+    lexAux true l (w s :: X) = lexAux false l (w s :: X) := by simp [lexAux, w]
+
+theorem variants_tokens (vs : List Variant) (hok : ∀ v ∈ vs, VariantOK v) (b : Bool) (l : Nat) (B : List PTok) :
+    lexAux b l (vs.flatMap printVariant ++ (PTok.nl :: w "}" :: B)) =
+      TVars l vs ++ tk "}" false (l + vs.length + 1) :: lexAux false (l + vs.length + 1) B := by
+  induction vs generalizing b l with
+  | nil => simp [TVars, lexAux, tk, w]
+  | cons v r ih =>
+    have hv := hok v (List.mem_cons_self ..)
+    have ih' := ih (fun x hx => hok x (List.mem_cons_of_mem _ hx))
+    obtain ⟨vn, pl⟩ := v
+    have e : l + 1 + r.length + 1 = l + (r.length + 1) + 1 := by omega
+    cases pl with
+    | none =>
+      simp only [List.flatMap_cons, printVariant, List.cons_append, List.nil_append, List.append_assoc, lexAux_nl,
+        lexAux_true_w, TVars, TVar, List.length_cons]
+      simp only [w, g, lexAux_tok]
+      have ih2 := ih' false (l + 1)
+      simp only [w] at ih2
+      rw [ih2, e]
+      simp [tk]
+    | some h =>
+      have wh := hv.payload h rfl
+      simp only [List.flatMap_cons, printVariant, List.cons_append, List.nil_append, List.append_assoc, lexAux_nl,
+        lexAux_true_w, TVars, TVar, List.length_cons]
+      simp only [w, g, lexAux_tok]
+      rw [lex_flat (hint_flat wh)]
+      simp only [lexAux_tok]
+      have ih2 := ih' false (l + 1)
+      simp only [w] at ih2
+      rw [ih2, e]
+      simp [tk, TH]
+
+theorem enumBodyLoop_ok (vs : List Variant) (hok : ∀ v ∈ vs, VariantOK v) :
+    ∃ N, ∀ (fuel l i : Nat) (rest : List Tok) (d : List DiagKind) (toks : Toks) (acc : List Variant) (tt : Bool) (lc : Nat),
+      N ≤ fuel → D toks i (TVars l vs ++ tk "}" tt lc :: rest) →
+      Ok (enumBodyLoop toks false fuel acc) ⟨i, d⟩ (fun r s' => r = acc ++ vs ∧ s' = ⟨i + (TVars l vs).length, d⟩) := by
+  induction vs with
+  | nil =>
+    refine ⟨1, ?_⟩
+    intro fuel l i rest d toks acc tt lc hf hD
+    obtain ⟨f, rfl⟩ : ∃ f, fuel = f + 1 := ⟨fuel - 1, by omega⟩
+    simp only [TVars, List.nil_append] at hD ⊢
+    have h0 := hD.head
+    rw [enumBodyLoop]
+    oksimp
+    simp [h0, ok_pure]
+  | cons v r ih =>
+    have hv := hok v (List.mem_cons_self ..)
+    obtain ⟨N', hN'⟩ := ih (fun x hx => hok x (List.mem_cons_of_mem _ hx))
+    obtain ⟨vn, pl⟩ := v
+    have hnp : (vn == "}") = false := hv.name.beq_nonsym (by decide)
+    cases pl with
+    | none =>
+      refine ⟨N' + 1, ?_⟩
+      intro fuel l i rest d toks acc tt lc hf hD
+      obtain ⟨f, rfl⟩ : ∃ f, fuel = f + 1 := ⟨fuel - 1, by omega⟩
+      simp only [TVars, TVar, List.cons_append, List.nil_append, List.append_assoc] at hD ⊢
+      have h0 := hD.head
+      have h1 := hD.tail.head
+      have hrec := hN' f (l + 1) (i + 1 + 1) rest d toks (acc ++ [⟨vn, none⟩]) tt lc (by omega) hD.tail.tail
+      rw [enumBodyLoop]
+      oksimp
+      simp only [h0, tk_text, hnp, Bool.false_eq_true, ↓reduceIte]
+      simp only [parseVariant]
+      oksimp
+      rw [ok_det (parseSymbol_ok toks i d _ h0 hv.name)]
+      simp only [h1, tk_text, show (("," : String) == "(") = false by decide, Bool.false_eq_true, ↓reduceIte]
+      (try oksimp)
+      simp only [h1, Option.map_some, TokI.text, tk_text, beq_self_eq_true, ↓reduceIte]
+      have hlt : ¬ (i + 1 + 1 ≤ i) := by omega
+      simp only [hlt, decide_false, Bool.false_eq_true, ↓reduceIte, Bool.and_false]
+      refine ok_mono hrec ?_
+      rintro r2' s3 ⟨e1, e2⟩
+      refine ⟨by simp [e1], ?_⟩
+      rw [e2]; simp; omega
+    | some h =>
+      obtain ⟨NH, hNH⟩ := hint_ok (hv.payload h rfl)
+      refine ⟨NH + N' + 1, ?_⟩
+      intro fuel l i rest d toks acc tt lc hf hD
+      obtain ⟨f, rfl⟩ : ∃ f, fuel = f + 1 := ⟨fuel - 1, by omega⟩
+      simp only [TVars, TVar, List.cons_append, List.nil_append, List.append_assoc] at hD ⊢
+      have h0 := hD.head
+      have h1 := hD.tail.head
+      have hD2 := hD.tail.tail
+      have hh := hNH f (l + 1) (i + 1 + 1) _ d toks (by omega) hD2 (by intro t ht; simp at ht; subst ht; simp)
+      have hclose := hD2.skip.head
+      have hcomma := hD2.skip.tail.head
+      have hrec := hN' f (l + 1) (i + 1 + 1 + (TH (l + 1) h).length + 1 + 1) rest d toks (acc ++ [⟨vn, some h⟩]) tt lc
+        (by omega) hD2.skip.tail.tail
+      rw [enumBodyLoop]
+      oksimp
+      simp only [h0, tk_text, hnp, Bool.false_eq_true, ↓reduceIte]
+      simp only [parseVariant]
+      oksimp
+      rw [ok_det (parseSymbol_ok toks i d _ h0 hv.name)]
+      simp only [h1, tk_text, beq_self_eq_true, ↓reduceIte]
+      refine ok_mono hh ?_
+      rintro rh s1 ⟨rfl, rfl⟩
+      rw [ok_det (requireToken_ok toks ")" _ d _ hclose rfl)]
+      simp only [hcomma, Option.map_some, TokI.text, tk_text, beq_self_eq_true, ↓reduceIte]
+      (try oksimp)
+      (try simp only [hcomma])
+      have hlt : ¬ (i + 1 + 1 + (TH (l + 1) rh).length + 1 + 1 ≤ i) := by omega
+      simp only [hlt, decide_false, Bool.false_eq_true, ↓reduceIte, Bool.and_false]
+      refine ok_mono hrec ?_
+      rintro r2' s3 ⟨e1, e2⟩
+      refine ⟨by simp [e1], ?_⟩
+      rw [e2]; simp; omega
+
+theorem requiredTokenOk_ok (toks : Toks) (x : String) (i : Nat) (d : List DiagKind) (t : Tok)
+    (h : toks[i]? = some t) (hx : t.text = x) :
+    requiredTokenOk toks x ⟨i, d⟩ = .ok true ⟨i + 1, d⟩ := by
+  simp [requiredTokenOk, checkRequiredToken, bind_apply, P.bind, pure_apply, prev, pop, h, TokI.text, hx]
+
+theorem top_enum (toks : Toks) (fuel i : Nat) (d : List DiagKind) (ln : Nat) (first pub : Bool) (t2 : Tok)
+    (rest' : List Tok)
+    (hD : D toks i (lexAux false ln (pubTok first pub "enum") ++ t2 :: rest')) :
+    parseToplevelItem toks false fuel ⟨i, d⟩ =
+      (do let m ← parseEnum toks false fuel; pure (some m) : P (Option Item)) ⟨i, d⟩ := by
+  rw [pubTok_lex] at hD
+  cases pub with
+  | false =>
+    replace hD : D toks i (tk "enum" first ln :: t2 :: rest') := by simpa using hD
+    have h0 := hD.head
+    have h1 := hD.tail.head
+    simp [parseToplevelItem, parseDefinition, bind_apply, P.bind, peek, peekAt, h0, h1, TokI.text]
+  | true =>
+    replace hD : D toks i (tk "public" first ln :: tk "enum" false ln :: t2 :: rest') := by simpa using hD
+    have h0 := hD.head
+    have h1 := hD.tail.head
+    simp [parseToplevelItem, parseDefinition, bind_apply, P.bind, peek, peekAt, h0, h1, TokI.text]
+
+theorem item_enum {pub : Bool} {name : String} {tps : List String} {vs : List Variant} (vn : ValidName name)
+    (htps : ∀ x ∈ tps, ValidName x) (hok : ∀ v ∈ vs, VariantOK v) :
+    ∃ N, ∀ (fuel ln : Nat) (first : Bool) (i : Nat) (rest : List Tok) (d : List DiagKind) (toks : Toks), N ≤ fuel →
+      D toks i (IT ln first (.enum pub name tps vs) ++ rest) →
+      Ok (parseToplevelItem toks false fuel) ⟨i, d⟩
+        (ItemRes (.enum pub name tps vs) (i + (IT ln first (.enum pub name tps vs)).length) d) := by
+  obtain ⟨N1, h1⟩ := tparams_ok tps htps
+  obtain ⟨N2, h2⟩ := enumBodyLoop_ok vs hok
+  refine ⟨N1 + N2, ?_⟩
+  intro fuel ln first i rest d toks hf hD
+  have hT : IT ln first (.enum pub name tps vs) =
+      lexAux false ln (pubTok first pub "enum") ++ tk name false ln :: (TTP ln tps ++ tk "{" false ln ::
+        (TVars ln vs ++ [tk "}" false (ln + vs.length + 1)])) := by
+    simp only [IT, printItem, List.append_assoc]
+    rw [lex_flat (pubTok_flat first pub "enum")]
+    simp only [List.cons_append, List.nil_append, w, lexAux_tok]
+    rw [lex_flat (tparams_flat tps), lexAux_tok]
+    have := variants_tokens vs hok false ln []
+    simp only [w] at this
+    rw [this]
+    simp [tk, TTP, lexAux]
+  rw [hT] at hD ⊢
+  generalize hPK : lexAux false ln (pubTok first pub "enum") = PK at *
+  have hD' : D toks i (PK ++ tk name false ln :: (TTP ln tps ++ (tk "{" false ln ::
+      (TVars ln vs ++ tk "}" false (ln + vs.length + 1) :: rest)))) := by
+    simpa [List.append_assoc] using hD
+  refine ok_rw (top_enum toks fuel i d ln first pub _ _ (by rw [hPK]; exact hD')) ?_
+  have hname := hD'.skip.head
+  have hD2 := hD'.skip.tail
+  have hbrace := hD2.skip.head
+  have hD3 := hD2.skip.tail
+  have hclose := hD3.skip.head
+  simp only [parseEnum]
+  oksimp
+  refine pub_kw_ok toks ln first pub "enum" (by decide) i d _ (by rw [hPK]; exact hD') _ ?_
+  rw [hPK, ok_det (parseSymbol_ok toks _ d _ hname vn)]
+  refine ok_mono (h1 fuel ln _ _ d toks (by omega) hD2 (by intro t ht; simp at ht; subst ht; simp)) ?_
+  rintro a s1 ⟨rfl, rfl⟩
+  rw [ok_det (requiredTokenOk_ok toks "{" _ d _ hbrace rfl)]
+  simp only [Bool.not_true, Bool.false_eq_true, ↓reduceIte]
+  refine ok_mono (h2 fuel ln _ _ d toks [] false _ (by omega) hD3) ?_
+  rintro vs' s2 ⟨hvs, rfl⟩
+  rw [ok_det (requireToken_ok toks "}" _ d _ hclose rfl)]
+  simp only [List.nil_append] at hvs
+  simp [ItemRes, hvs]
+  omega
+
+/-! #### Structs -/
+
+structure SFieldOK (f : StructField) : Prop where
+  name : ValidName f.name
+  hint : WTH f.hint
+
+def TSFields : Nat → List StructField → List Tok
+  | _, [] => []
+  | l, f :: r => tk f.name false (l + 1) :: tk ":" true (l + 1) :: (TH (l + 1) f.hint ++ tk "," true (l + 1) :: TSFields (l + 1) r)
+
+theorem sfields_tokens (fs : List StructField) (hok : ∀ f ∈ fs, SFieldOK f) (b : Bool) (l : Nat) (B : List PTok) :
+    lexAux b l (fs.flatMap printStructField ++ (PTok.nl :: w "}" :: B)) =
+      TSFields l fs ++ tk "}" false (l + fs.length + 1) :: lexAux false (l + fs.length + 1) B := by
+  induction fs generalizing b l with
+  | nil => simp [TSFields, lexAux, tk, w]
+  | cons f r ih =>
+    have hf := hok f (List.mem_cons_self ..)
+    have ih' := ih (fun x hx => hok x (List.mem_cons_of_mem _ hx))
+    have e : l + 1 + r.length + 1 = l + (r.length + 1) + 1 := by omega
+    simp only [List.flatMap_cons, printStructField, List.cons_append, List.nil_append, List.append_assoc, lexAux_nl,
+      lexAux_true_w, TSFields, List.length_cons]
+    simp only [w, g, lexAux_tok]
+    rw [lex_flat (hint_flat hf.hint)]
+    simp only [lexAux_tok]
+    have ih2 := ih' false (l + 1)
+    simp only [w] at ih2
+    rw [ih2, e]
+    simp [tk, TH]
+
+theorem structFieldsLoop_ok (fs : List StructField) (hok : ∀ f ∈ fs, SFieldOK f) :
+    ∃ N, ∀ (fuel l i : Nat) (rest : List Tok) (d : List DiagKind) (toks : Toks) (acc : List StructField) (tt : Bool) (lc : Nat),
+      N ≤ fuel → D toks i (TSFields l fs ++ tk "}" tt lc :: rest) →
+      Ok (structFieldsLoop toks false fuel acc) ⟨i, d⟩ (fun r s' => r = acc ++ fs ∧ s' = ⟨i + (TSFields l fs).length, d⟩) := by
+  induction fs with
+  | nil =>
+    refine ⟨1, ?_⟩
+    intro fuel l i rest d toks acc tt lc hf hD
+    obtain ⟨f, rfl⟩ : ∃ f, fuel = f + 1 := ⟨fuel - 1, by omega⟩
+    simp only [TSFields, List.nil_append] at hD ⊢
+    have h0 := hD.head
+    rw [structFieldsLoop]
+    oksimp
+    simp [h0, ok_pure]
+  | cons fl r ih =>
+    have hfl := hok fl (List.mem_cons_self ..)
+    obtain ⟨N', hN'⟩ := ih (fun x hx => hok x (List.mem_cons_of_mem _ hx))
+    obtain ⟨NH, hNH⟩ := hint_ok hfl.hint
+    refine ⟨NH + N' + 1, ?_⟩
+    intro fuel l i rest d toks acc tt lc hf hD
+    obtain ⟨f, rfl⟩ : ∃ f, fuel = f + 1 := ⟨fuel - 1, by omega⟩
+    simp only [TSFields, List.cons_append, List.nil_append, List.append_assoc] at hD ⊢
+    have hnp : (fl.name == "}") = false := hfl.name.beq_nonsym (by decide)
+    have h0 := hD.head
+    have h1 := hD.tail.head
+    have hD2 := hD.tail.tail
+    have hh := hNH f (l + 1) (i + 1 + 1) _ d toks (by omega) hD2 (by intro t ht; simp at ht; subst ht; simp)
+    have hcomma := hD2.skip.head
+    have hrec := hN' f (l + 1) (i + 1 + 1 + (TH (l + 1) fl.hint).length + 1) rest d toks (acc ++ [fl]) tt lc
+      (by omega) hD2.skip.tail
+    rw [structFieldsLoop]
+    oksimp
+    simp only [h0, tk_text, hnp, Bool.false_eq_true, ↓reduceIte, Option.map_some]
+    oksimp
+    rw [ok_det (parseSymbol_ok toks i d _ h0 hfl.name)]
+    simp only [parseColonAnd]
+    oksimp
+    rw [ok_det (requireToken_ok toks ":" (i + 1) d _ h1 rfl)]
+    refine ok_mono hh ?_
+    rintro rh s1 ⟨rfl, rfl⟩
+    simp only [hcomma, Option.map_some, TokI.text, tk_text, beq_self_eq_true, ↓reduceIte]
+    (try oksimp)
+    (try simp only [hcomma])
+    refine ok_mono hrec ?_
+    rintro r2' s3 ⟨e1, e2⟩
+    refine ⟨by simp [e1], ?_⟩
+    rw [e2]; simp; omega
+
+theorem top_struct (toks : Toks) (fuel i : Nat) (d : List DiagKind) (ln : Nat) (first pub : Bool) (t2 : Tok)
+    (rest' : List Tok)
+    (hD : D toks i (lexAux false ln (pubTok first pub "struct") ++ t2 :: rest')) :
+    parseToplevelItem toks false fuel ⟨i, d⟩ =
+      (do let m ← parseStruct toks false fuel; pure (some m) : P (Option Item)) ⟨i, d⟩ := by
+  rw [pubTok_lex] at hD
+  cases pub with
+  | false =>
+    replace hD : D toks i (tk "struct" first ln :: t2 :: rest') := by simpa using hD
+    have h0 := hD.head
+    have h1 := hD.tail.head
+    simp [parseToplevelItem, parseDefinition, bind_apply, P.bind, peek, peekAt, h0, h1, TokI.text]
+  | true =>
+    replace hD : D toks i (tk "public" first ln :: tk "struct" false ln :: t2 :: rest') := by simpa using hD
+    have h0 := hD.head
+    have h1 := hD.tail.head
+    simp [parseToplevelItem, parseDefinition, bind_apply, P.bind, peek, peekAt, h0, h1, TokI.text]
+
+theorem item_struct {pub : Bool} {name : String} {tps : List String} {fs : List StructField} (vn : ValidName name)
+    (htps : ∀ x ∈ tps, ValidName x) (hok : ∀ f ∈ fs, SFieldOK f) :
+    ∃ N, ∀ (fuel ln : Nat) (first : Bool) (i : Nat) (rest : List Tok) (d : List DiagKind) (toks : Toks), N ≤ fuel →
+      D toks i (IT ln first (.struct pub name tps fs) ++ rest) →
+      Ok (parseToplevelItem toks false fuel) ⟨i, d⟩
+        (ItemRes (.struct pub name tps fs) (i + (IT ln first (.struct pub name tps fs)).length) d) := by
+  obtain ⟨N1, h1⟩ := tparams_ok tps htps
+  obtain ⟨N2, h2⟩ := structFieldsLoop_ok fs hok
+  refine ⟨N1 + N2, ?_⟩
+  intro fuel ln first i rest d toks hf hD
+  have hT : IT ln first (.struct pub name tps fs) =
+      lexAux false ln (pubTok first pub "struct") ++ tk name false ln :: (TTP ln tps ++ tk "{" false ln ::
+        (TSFields ln fs ++ [tk "}" false (ln + fs.length + 1)])) := by
+    simp only [IT, printItem, List.append_assoc]
+    rw [lex_flat (pubTok_flat first pub "struct")]
+    simp only [List.cons_append, List.nil_append, w, lexAux_tok]
+    rw [lex_flat (tparams_flat tps), lexAux_tok]
+    have := sfields_tokens fs hok false ln []
+    simp only [w] at this
+    rw [this]
+    simp [tk, TTP, lexAux]
+  rw [hT] at hD ⊢
+  generalize hPK : lexAux false ln (pubTok first pub "struct") = PK at *
+  have hD' : D toks i (PK ++ tk name false ln :: (TTP ln tps ++ (tk "{" false ln ::
+      (TSFields ln fs ++ tk "}" false (ln + fs.length + 1) :: rest)))) := by
+    simpa [List.append_assoc] using hD
+  refine ok_rw (top_struct toks fuel i d ln first pub _ _ (by rw [hPK]; exact hD')) ?_
+  have hname := hD'.skip.head
+  have hD2 := hD'.skip.tail
+  have hbrace := hD2.skip.head
+  have hD3 := hD2.skip.tail
+  have hclose := hD3.skip.head
+  simp only [parseStruct]
+  oksimp
+  refine pub_kw_ok toks ln first pub "struct" (by decide) i d _ (by rw [hPK]; exact hD') _ ?_
+  rw [hPK, ok_det (parseSymbol_ok toks _ d _ hname vn)]
+  refine ok_mono (h1 fuel ln _ _ d toks (by omega) hD2 (by intro t ht; simp at ht; subst ht; simp)) ?_
+  rintro a s1 ⟨rfl, rfl⟩
+  rw [ok_det (requiredTokenOk_ok toks "{" _ d _ hbrace rfl)]
+  simp only [Bool.not_true, Bool.false_eq_true, ↓reduceIte]
+  refine ok_mono (h2 fuel ln _ _ d toks [] false _ (by omega) hD3) ?_
+  rintro fs' s2 ⟨hfs, rfl⟩
+  rw [ok_det (requireToken_ok toks "}" _ d _ hclose rfl)]
+  simp only [List.nil_append] at hfs
+  simp [ItemRes, hfs]
+  omega
+
+/-! #### Imports, expression items, block items -/
+
+theorem top_import (toks : Toks) (fuel i : Nat) (d : List DiagKind) (ln : Nat) (first : Bool) (t2 : Tok)
+    (rest' : List Tok) (hD : D toks i (tk "import" first ln :: t2 :: rest')) :
+    parseToplevelItem toks false fuel ⟨i, d⟩ = parseImport toks false ⟨i, d⟩ := by
+  have h0 := hD.head
+  have h1 := hD.tail.head
+  simp [parseToplevelItem, parseDefinition, bind_apply, P.bind, peek, peekAt, h0, h1, TokI.text]
+
+theorem item_import {path : String} {al : Option String} (hal : ∀ a, al = some a → ValidName a) :
+    ∀ (fuel ln : Nat) (first : Bool) (i : Nat) (rest : List Tok) (d : List DiagKind) (toks : Toks),
+      D toks i (IT ln first (.importI path al) ++ rest) →
+      (al = none → ∀ t, rest.head? = some t → t.text ≠ "as") →
+      Ok (parseToplevelItem toks false fuel) ⟨i, d⟩
+        (ItemRes (.importI path al) (i + (IT ln first (.importI path al)).length) d) := by
+  intro fuel ln first i rest d toks hD hno
+  cases al with
+  | none =>
+    have hT : IT ln first (.importI path none) = [tk "import" first ln, tk (strTok path) false ln] := by
+      simp [IT, printItem, lexAux, tk, w]
+    rw [hT] at hD ⊢
+    replace hD : D toks i (tk "import" first ln :: tk (strTok path) false ln :: rest) := by simpa using hD
+    refine ok_rw (top_import toks fuel i d ln first _ _ hD) ?_
+    have h0 := hD.head
+    have h1 := hD.tail.head
+    have h2 := hD.tail.tail.head?
+    simp only [parseImport]
+    oksimp
+    rw [ok_det (requireToken_ok toks "import" i d _ h0 rfl)]
+    simp only [h1, TokI.text, tk_text, (strFacts path).str, ↓reduceIte, unescapeTok_strTok, diagN]
+    oksimp
+    rw [h2]
+    cases hr : rest.head? with
+    | none => simp [ItemRes]
+    | some t => have := hno rfl t hr; simp [ItemRes, this]
+  | some a =>
+    have va := hal a rfl
+    have hT : IT ln first (.importI path (some a)) =
+        [tk "import" first ln, tk (strTok path) false ln, tk "as" false ln, tk a false ln] := by
+      simp [IT, printItem, lexAux, tk, w]
+    rw [hT] at hD ⊢
+    replace hD : D toks i (tk "import" first ln :: tk (strTok path) false ln :: tk "as" false ln :: tk a false ln :: rest) := by
+      simpa using hD
+    refine ok_rw (top_import toks fuel i d ln first _ _ hD) ?_
+    have h0 := hD.head
+    have h1 := hD.tail.head
+    have h2 := hD.tail.tail.head
+    have h3 := hD.tail.tail.tail.head
+    simp only [parseImport]
+    oksimp
+    rw [ok_det (requireToken_ok toks "import" i d _ h0 rfl)]
+    simp only [h1, TokI.text, tk_text, (strFacts path).str, ↓reduceIte, unescapeTok_strTok, diagN]
+    oksimp
+    simp only [h2, tk_text, beq_self_eq_true, ↓reduceIte]
+    rw [ok_det (parseSymbol_ok toks _ d _ h3 va)]
+    simp [ItemRes]
+
+theorem item_expr {e : Expr} {n : Nat} (he : FU e n) (pe : PF e)
+    (htop : ∀ s tl, printExpr true e = PTok.t s true :: tl → s ∉ defKw) :
+    ∀ (fuel ln : Nat) (first : Bool) (i : Nat) (rest : List Tok) (d : List DiagKind) (toks : Toks), n ≤ fuel →
+      D toks i (IT ln first (.expr e) ++ rest) → Stop e ln rest →
+      Ok (parseToplevelItem toks false fuel) ⟨i, d⟩ (ItemRes (.expr e) (i + (IT ln first (.expr e)).length) d) := by
+  intro fuel ln first i rest d toks hf hD hs
+  have hT : IT ln first (.expr e) = T ln first e := rfl
+  rw [hT] at hD ⊢
+  obtain ⟨s0, tl0, hp0, hbad⟩ := pe.hd
+  have hT0 : T ln first e = tk s0 first ln :: lexAux false ln tl0 := by simp [T, hp0, lexAux, tk]
+  have h0 : toks[i]? = some (tk s0 first ln) := by
+    have := hD.head?; rw [hT0] at this; simpa using this
+  have hk : s0 ∉ defKw := htop s0 tl0 (hp0 true)
+  have hk' : (["fun", "method", "test", "enum", "struct", "public", "import"].contains s0) = false := by
+    simpa [defKw] using hk
+  have hb : (s0 == "{") = false := not_badFirst hbad (by decide)
+  simp only [parseToplevelItem]
+  oksimp
+  simp only [h0, Option.map_some, TokI.text, tk_text]
+  (try oksimp)
+  simp only [tk_text, hk', hb, Bool.false_eq_true, ↓reduceIte]
+  refine ok_mono (he fuel ln first i rest d toks hf hD hs) ?_
+  rintro r s1 ⟨h1, h2, rfl⟩
+  simp [ItemRes, h1]
+
+theorem item_block {es : List Expr} (hb : BlockOK es) :
+    ∃ N, ∀ (fuel ln : Nat) (first : Bool) (i : Nat) (rest : List Tok) (d : List DiagKind) (toks : Toks), N ≤ fuel →
+      D toks i (IT ln first (.block (.mk es)) ++ rest) →
+      Ok (parseToplevelItem toks false fuel) ⟨i, d⟩
+        (ItemRes (.block (.mk es)) (i + (IT ln first (.block (.mk es))).length) d) := by
+  obtain ⟨N4, h4⟩ := block_ok es hb.fu hb.pf hb.adj
+  refine ⟨N4, ?_⟩
+  intro fuel ln first i rest d toks hf hD
+  have hT : IT ln first (.block (.mk es)) = tk "{" first ln :: (TItems ln es ++ [tk "}" false (LItems ln es + 1)]) := by
+    simp only [IT, printItem, printBlock, List.cons_append, List.nil_append, w, lexAux_tok]
+    have := items_tokens es hb.pf false ln []
+    simp only [w] at this
+    rw [this]
+    simp [tk, lexAux]
+  rw [hT] at hD ⊢
+  have hD' : D toks i (tk "{" first ln :: (TItems ln es ++ tk "}" false (LItems ln es + 1) :: rest)) := by
+    simpa [List.append_assoc] using hD
+  have h0 := hD'.head
+  simp only [parseToplevelItem]
+  oksimp
+  simp only [h0, Option.map_some, TokI.text, tk_text]
+  (try oksimp)
+  simp only [tk_text, show (["fun", "method", "test", "enum", "struct", "public", "import"].contains "{") = false by decide,
+    beq_self_eq_true, Bool.false_eq_true, ↓reduceIte]
+  refine ok_mono (h4 fuel ln _ rest d toks first hf hD') ?_
+  rintro body s4 ⟨hb1, hb2, rfl⟩
+  simp [ItemRes, PBlock.block, hb1]
+  omega
+
+/-! ### Sequences of top-level items -/
+
+/-- first tokens that would continue a preceding expression item or import -/
+def istopSet : List String := ["=", "+=", "-=", ".", "::", "else", "as"] ++ gardenBinaryOps
+
+/-- what must hold of the tokens after an item -/
+def IStop : Item → Nat → List Tok → Prop
+  | .expr e, ln, rest => Stop e ln rest
+  | .importI _ none, _, rest => ∀ t, rest.head? = some t → t.text ≠ "as"
+  | _, _, _ => True
+
+structure ItemOK (it : Item) : Prop where
+  parse : ∃ N, ∀ (fuel ln : Nat) (first : Bool) (i : Nat) (rest : List Tok) (d : List DiagKind) (toks : Toks), N ≤ fuel →
+    D toks i (IT ln first it ++ rest) → IStop it ln rest →
+    Ok (parseToplevelItem toks false fuel) ⟨i, d⟩ (ItemRes it (i + (IT ln first it).length) d)
+  head : ∃ s tl, (∀ first, printItem first it = PTok.t s first :: tl) ∧ s ∉ istopSet
+  ninv : it.isInvalidOrPlaceholder = false
+
+/-- newlines inside the text of an item -/
+def inl (it : Item) : Nat := nlc (printItem false it)
+
+/-- tokens of a sequence of items, the first one starting on line `ln` -/
+def TIs : Nat → Bool → List Item → List Tok
+  | _, _, [] => []
+  | ln, first, it :: r => IT ln first it ++ TIs (ln + inl it + 1) false r
+
+theorem ItemOK.nlc {it : Item} (h : ItemOK it) (first : Bool) : nlc (printItem first it) = inl it := by
+  obtain ⟨s, tl, h1, _⟩ := h.head
+  simp [inl, h1, RT.nlc]
+
+theorem go_lex (its : List Item) (hok : ∀ it ∈ its, ItemOK it) (b : Bool) (l : Nat) :
+    lexAux b l (printItems.go its) = TIs (l + 1) false its := by
+  induction its generalizing b l with
+  | nil => simp [printItems.go, TIs, lexAux]
+  | cons it r ih =>
+    have hit := hok it (List.mem_cons_self ..)
+    obtain ⟨s, tl, h1, _⟩ := hit.head
+    have ih' := ih (fun x hx => hok x (List.mem_cons_of_mem _ hx))
+    have e1 : lexAux true (l + 1) (printItem false it ++ printItems.go r) =
+        lexAux false (l + 1) (printItem false it ++ printItems.go r) := by
+      rw [h1]; simp [lexAux]
+    simp only [printItems.go, List.cons_append, List.nil_append, List.append_assoc, lexAux_nl, TIs]
+    rw [e1, lexAux_append, ih', hit.nlc]
+    rfl
+
+theorem printItems_cons (it : Item) (r : List Item) : printItems (it :: r) = printItem true it ++ printItems.go r := by
+  cases r with
+  | nil => simp [printItems, printItems.go]
+  | cons a r2 => simp [printItems]
+
+theorem items_lex (its : List Item) (hok : ∀ it ∈ its, ItemOK it) : lexAux false 0 (printItems its) = TIs 0 true its := by
+  cases its with
+  | nil => simp [printItems, TIs, lexAux]
+  | cons it r =>
+    have hit := hok it (List.mem_cons_self ..)
+    rw [printItems_cons, lexAux_append, go_lex r (fun x hx => hok x (List.mem_cons_of_mem _ hx)), hit.nlc]
+    simp [TIs, IT]
+
+/-- Adjacent items: an expression item that ends in a dot access is not followed by an item starting with `(`. -/
+def IAdj : List Item → Prop
+  | [] => True
+  | [_] => True
+  | a :: b :: r =>
+    (∀ e, a = .expr e → endsDot e = true → ∀ s tl, printItem false b = PTok.t s false :: tl → s ≠ "(") ∧ IAdj (b :: r)
+
+theorem stop_item2 {e : Expr} {l : Nat} {s : String} {l2 : Nat} {rest : List Tok} (hs : s ∉ istopSet)
+    (hdot : endsDot e = true → s ≠ "(") (hl : l + pnl e ≤ l2) : Stop e l (tk s false l2 :: rest) := by
+  intro t h
+  simp at h; subst h
+  have m : ∀ x, x ∈ istopSet → s ≠ x := fun x hx e => by subst e; exact hs hx
+  simp only [tk_text, tk_touch, tk_line]
+  refine ⟨m _ (by decide), m _ (by decide), m _ (by decide), by simp, hdot, by simp, m _ (by decide), m _ (by decide), ?_,
+    fun _ => hl, m _ (by decide)⟩
+  cases hc : gardenBinaryOps.contains s with
+  | false => rfl
+  | true =>
+    have : s ∈ gardenBinaryOps := by simpa using hc
+    exact absurd (List.mem_append_right _ this) hs
+
+theorem TIs_head {it : Item} (hit : ItemOK it) (ln : Nat) (first : Bool) (r : List Item) :
+    ∃ s tl, TIs ln first (it :: r) = tk s first ln :: tl ∧ s ∉ istopSet ∧
+      (∀ tl', printItem false it = PTok.t s false :: tl' → True) ∧ (∃ tl2, printItem false it = PTok.t s false :: tl2) := by
+  obtain ⟨s, tl, h1, h2⟩ := hit.head
+  exact ⟨s, lexAux false ln tl ++ TIs (ln + inl it + 1) false r, by simp [TIs, IT, h1, lexAux, tk], h2,
+    fun _ _ => trivial, tl, h1 false⟩
+
+theorem itemsLoop_ok (its : List Item) (hok : ∀ it ∈ its, ItemOK it) (hadj : IAdj its) :
+    ∃ N, ∀ (fuel ln : Nat) (first : Bool) (i : Nat) (d : List DiagKind) (toks : Toks) (acc : List Item),
+      N ≤ fuel → D toks i (TIs ln first its) →
+      Ok (itemsLoop toks false fuel acc) ⟨i, d⟩ (fun r s' => r = acc ++ its ∧ s' = ⟨i + (TIs ln first its).length, d⟩) := by
+  induction its with
+  | nil =>
+    refine ⟨1, ?_⟩
+    intro fuel ln first i d toks acc hf hD
+    obtain ⟨f, rfl⟩ : ∃ f, fuel = f + 1 := ⟨fuel - 1, by omega⟩
+    have hge : toks.length ≤ i := by
+      have : toks.drop i = [] := hD
+      exact List.drop_eq_nil_iff.mp this
+    rw [itemsLoop]
+    oksimp
+    simp [hge, TIs, ok_pure]
+  | cons it r ih =>
+    have hit := hok it (List.mem_cons_self ..)
+    obtain ⟨NI, hNI⟩ := hit.parse
+    have hadj' : IAdj r := by
+      cases r with
+      | nil => trivial
+      | cons b r2 => exact hadj.2
+    obtain ⟨N', hN'⟩ := ih (fun x hx => hok x (List.mem_cons_of_mem _ hx)) hadj'
+    refine ⟨NI + N' + 1, ?_⟩
+    intro fuel ln first i d toks acc hf hD
+    obtain ⟨f, rfl⟩ : ∃ f, fuel = f + 1 := ⟨fuel - 1, by omega⟩
+    obtain ⟨s0, tl0, hh0, _⟩ := hit.head
+    have hpos : 0 < (IT ln first it).length := by simp [IT, hh0, lexAux]
+    have hlt : ¬ (toks.length ≤ i) := by
+      intro hle
+      have : toks.drop i = [] := List.drop_eq_nil_iff.mpr hle
+      have h2 : toks.drop i = TIs ln first (it :: r) := hD
+      rw [this] at h2
+      have h3 : (TIs ln first (it :: r)).length = 0 := by rw [← h2]; rfl
+      have h4 : (TIs ln first (it :: r)).length = (IT ln first it).length + (TIs (ln + inl it + 1) false r).length := by
+        simp [TIs]
+      omega
+    simp only [TIs] at hD ⊢
+    -- the context of this item
+    have hstop : IStop it ln (TIs (ln + inl it + 1) false r) := by
+      cases r with
+      | nil =>
+        cases it with
+        | expr e => intro t ht; simp [TIs] at ht
+        | importI p al => cases al with
+          | none => intro t ht; simp [TIs] at ht
+          | some a => trivial
+        | _ => trivial
+      | cons b r2 =>
+        have hb := hok b (List.mem_cons_of_mem _ (List.mem_cons_self ..))
+        obtain ⟨s2, tl2, hT2, hs2, _, ⟨tl3, hp3⟩⟩ := TIs_head hb (ln + inl it + 1) false r2
+        cases it with
+        | expr e =>
+          show Stop e ln _
+          rw [hT2]
+          refine stop_item2 hs2 (fun hd => hadj.1 e rfl hd s2 tl3 hp3) ?_
+          have : inl (.expr e) = pnl e := rfl
+          omega
+        | importI p al => cases al with
+          | none =>
+            intro t ht
+            rw [hT2] at ht; simp at ht; subst ht
+            simp only [tk_text]
+            intro e; subst e; exact hs2 (by decide)
+          | some a => trivial
+        | _ => trivial
+    have hres := hNI f ln first i _ d toks (by omega) hD hstop
+    have hrec := hN' f (ln + inl it + 1) false (i + (IT ln first it).length) d toks (acc ++ [it]) (by omega) hD.skip
+    rw [itemsLoop]
+    oksimp
+    simp only [ge_iff_le, hlt, ↓reduceIte]
+    refine ok_mono hres ?_
+    rintro ro s1 ⟨rfl, rfl⟩
+    have hgt : i < i + (IT ln first it).length := by omega
+    simp only [hit.ninv, Bool.false_eq_true, ↓reduceIte]
+    oksimp
+    simp only [gt_iff_lt, hgt, ↓reduceIte]
+    refine ok_mono hrec ?_
+    rintro r2' s2 ⟨e1, e2⟩
+    refine ⟨by simp [e1], ?_⟩
+    rw [e2]; simp; omega
+
+/-- The whole-file round trip for a list of items that parse back individually. -/
+theorem items_roundtrip (its : List Item) (hok : ∀ it ∈ its, ItemOK it) (hadj : IAdj its) :
+    ∃ N, ∀ fuel, N ≤ fuel →
+      parseItems fuel (lexOf 0 (printItems its)) = .ok its ⟨(lexOf 0 (printItems its)).length, []⟩ := by
+  obtain ⟨N, hN⟩ := itemsLoop_ok its hok hadj
+  refine ⟨N, ?_⟩
+  intro fuel hf
+  have hl : lexOf 0 (printItems its) = TIs 0 true its := items_lex its hok
+  rw [hl]
+  obtain ⟨r, s', h1, h2, h3⟩ := hN fuel 0 true 0 [] (TIs 0 true its) [] hf (by simp [D])
+  simp only [parseItems, parseItemsCfg]
+  rw [h1, h2, h3]
+  simp
+
+/-! ### Well-formed trees (what the grammar can express), and the round trip -/
+
+/-- Syntactic position: an operand (`closed`), an operator chain (`chain`), a complete expression
+(`full tr`; `tr` = may it end in a bare `return`, i.e. is it in statement position). -/
+inductive Kind where
+  | closed | chain | full (tr : Bool)
+
+/-- The expression trees covered by the machine-checked round trip: every constructor of `Expr` except
+`invalid` (see the header of this file for the side conditions and why they are there). -/
+inductive WT : Kind → Expr → Prop
+  | int {i : Int} : I64 i → WT .closed (.intLit i)
+  | float {s : String} : FloatTok s → WT .closed (.floatLit s)
+  | str {s : String} : WT .closed (.strLit s)
+  | var {x : String} : ValidName x → WT .closed (.var x)
+  | call {f : Expr} {args : List Expr} : WT .closed f → endsDot f = false →
+      (∀ a ∈ args, WT (.full false) a) → WT .closed (.call f args)
+  | mcall {r : Expr} {m : String} {args : List Expr} : WT .closed r → ValidName m →
+      (∀ a ∈ args, WT (.full false) a) → WT .closed (.mcall r m args)
+  | dot {r : Expr} {f : String} : WT .closed r → ValidName f → WT .closed (.dot r f)
+  | ns {r : Expr} {f : String} : WT .closed r → ValidName f → WT .closed (.ns r f)
+  | paren {e : Expr} : WT (.full false) e → WT .closed (.paren e)
+  | list {items : List Expr} : (∀ a ∈ items, WT (.full false) a) → WT .closed (.list items)
+  | tuple {items : List Expr} : (∀ a ∈ items, WT (.full false) a) → WT .closed (.tuple items)
+  | dict {kvs : List KV} : (∀ k v, KV.mk k v ∈ kvs → WT (.full false) k) →
+      (∀ k v, KV.mk k v ∈ kvs → WT (.full false) v) → WT .closed (.dict kvs)
+  | structLit {n : String} {fs : List Field} : ValidName n → (∀ f e, Field.mk f e ∈ fs → ValidName f) →
+      (∀ f e, Field.mk f e ∈ fs → WT (.full false) e) → WT .closed (.structLit n fs)
+  | lambda {ps : List Param} {r : Option TypeHint} {es : List Expr} : WTF [] ps r →
+      (∀ e ∈ es, WT (.full true) e) → Adj es → WT .closed (.lambda (.mk [] ps r (.mk es)))
+  | assertE {e : Expr} : WT (.full false) e → WT .closed (.assertE e)
+  | brk : WT .closed .brk
+  | cont : WT .closed .cont
+  | whileE {c : Expr} {es : List Expr} : WT (.full false) c → (∀ e ∈ es, WT (.full true) e) → Adj es →
+      WT .closed (.whileE c (.mk es))
+  | forIn {dst : LetDest} {c : Expr} {es : List Expr} : WTD dst → WT (.full false) c →
+      (∀ e ∈ es, WT (.full true) e) → Adj es → WT .closed (.forIn dst c (.mk es))
+  | ifNone {c : Expr} {es : List Expr} : WT (.full false) c → (∀ e ∈ es, WT (.full true) e) → Adj es →
+      WT .closed (.ifE c (.mk es) none)
+  | ifSome {c : Expr} {es es2 : List Expr} : WT (.full false) c → (∀ e ∈ es, WT (.full true) e) → Adj es →
+      (∀ e ∈ es2, WT (.full true) e) → Adj es2 → WT .closed (.ifE c (.mk es) (some (.mk es2)))
+  | matchE {s : Expr} {cases : List Case} : WT (.full false) s →
+      (∀ p es, Case.mk p (.mk es) ∈ cases → WTPat p ∧ Adj es) →
+      (∀ p es e, Case.mk p (.mk es) ∈ cases → e ∈ es → WT (.full true) e) → WT .closed (.matchE s cases)
+  | tryE {es es2 : List Expr} {x : String} : (∀ e ∈ es, WT (.full true) e) → Adj es → ValidName x →
+      (∀ e ∈ es2, WT (.full true) e) → Adj es2 → WT .closed (.tryE (.mk es) x (.mk es2))
+  | ofClosed {e : Expr} : WT .closed e → WT .chain e
+  | binop {l r : Expr} {op : String} : WT .chain l → gardenBinaryOps.contains op = true → WT .closed r →
+      WT .chain (.binop l op r)
+  | ofChain {e : Expr} {tr : Bool} : WT .chain e → WT (.full tr) e
+  | letE {dst : LetDest} {h : Option TypeHint} {e : Expr} {tr : Bool} : WTD dst → WTHO h → WT (.full tr) e →
+      WT (.full tr) (.letE dst h e)
+  | assign {x : String} {e : Expr} {tr : Bool} : ValidName x → WT (.full tr) e → WT (.full tr) (.assign x e)
+  | update {op x : String} {e : Expr} {tr : Bool} : (op = "+=" ∨ op = "-=") → ValidName x → WT (.full tr) e →
+      WT (.full tr) (.update op x e)
+  | retNone : WT (.full true) (.ret none)
+  | retSome {e : Expr} {tr : Bool} : WT (.full tr) e → WT (.full tr) (.ret (some e))
+
+/-- What the induction proves for a tree in position `k`. -/
+def Goal : Kind → Expr → Prop
+  | .closed, e => ∃ n, R true e n
+  | .chain, e => ∃ n, R false e n
+  | .full _, e => ∃ n, FU e n
+
+def NoTail : Kind → Expr → Prop
+  | .full true, _ => True
+  | _, e => tailRet e = false
+
+theorem blockOK_of {es : List Expr} (hadj : Adj es)
+    (ih : ∀ e ∈ es, PF e ∧ NoTail (.full true) e ∧ Goal (.full true) e) : BlockOK es :=
+  ⟨fun e he => (ih e he).2.2, fun e he => (ih e he).1, hadj⟩
+
+theorem wt_all {k : Kind} {e : Expr} (h : WT k e) : PF e ∧ NoTail k e ∧ Goal k e := by
+  induction h with
+  | int hi => exact ⟨pf_int hi.tok, rfl, 3, r_int hi.tok⟩
+  | float hs => exact ⟨pf_float hs, rfl, 3, r_float hs⟩
+  | @str s => exact ⟨pf_str s, rfl, 3, r_str s⟩
+  | var hx => exact ⟨pf_var hx, rfl, 3, r_var hx⟩
+  | call _ hnd _ ihf iha =>
+    obtain ⟨pf, tf, nf, hf⟩ := ihf
+    exact ⟨pf_call pf, rfl, r_call hf pf tf hnd (fun a ha => (iha a ha).2.2) (fun a ha => ⟨(iha a ha).1, (iha a ha).2.1⟩)⟩
+  | mcall _ hm _ ihr iha =>
+    obtain ⟨pr, tr, nr, hr⟩ := ihr
+    exact ⟨pf_mcall pr, rfl, r_mcall hr pr tr hm (fun a ha => (iha a ha).2.2) (fun a ha => ⟨(iha a ha).1, (iha a ha).2.1⟩)⟩
+  | dot _ hf ih =>
+    obtain ⟨pr, tr, nr, hr⟩ := ih
+    exact ⟨pf_dot pr, rfl, nr + 2, r_dot hr pr tr hf⟩
+  | ns _ hf ih =>
+    obtain ⟨pr, tr, nr, hr⟩ := ih
+    exact ⟨pf_ns pr, rfl, nr + 2, r_ns hr pr tr hf⟩
+  | paren _ ih =>
+    obtain ⟨pe, te, n, he⟩ := ih
+    exact ⟨pf_paren, rfl, n + 4, r_paren he pe te⟩
+  | list _ iha =>
+    exact ⟨pf_list, rfl, r_list (fun a ha => (iha a ha).2.2) (fun a ha => ⟨(iha a ha).1, (iha a ha).2.1⟩)⟩
+  | @tuple items _ iha =>
+    refine ⟨pf_tuple, rfl, ?_⟩
+    cases items with
+    | nil => exact ⟨4, r_tuple_nil⟩
+    | cons e rs =>
+      obtain ⟨pe, te, ne, he⟩ := iha e (List.mem_cons_self ..)
+      exact r_tuple_cons he pe te (fun a ha => (iha a (List.mem_cons_of_mem _ ha)).2.2)
+        (fun a ha => ⟨(iha a (List.mem_cons_of_mem _ ha)).1, (iha a (List.mem_cons_of_mem _ ha)).2.1⟩)
+  | @dict kvs _ _ ihk ihv =>
+    refine ⟨pf_dict, rfl, r_dict ?_⟩
+    rintro ⟨k, v⟩ hx
+    obtain ⟨pk, tk', nk⟩ := ihk k v hx
+    obtain ⟨pv, tv, nv⟩ := ihv k v hx
+    exact ⟨nk, pk, tk', nv, pv, tv⟩
+  | @structLit n fs vn hfn _ ihe =>
+    refine ⟨pf_struct vn, rfl, r_struct vn ?_⟩
+    rintro ⟨f, e⟩ hx
+    obtain ⟨pe, te, ne⟩ := ihe f e hx
+    exact ⟨hfn f e hx, ne, pe, te⟩
+  | lambda wf _ hadj ihb => exact ⟨pf_lambda, rfl, r_lambda wf (blockOK_of hadj ihb)⟩
+  | assertE _ ih =>
+    obtain ⟨pe, te, n, he⟩ := ih
+    exact ⟨pf_assert, rfl, n + 4, r_assert he pe te⟩
+  | brk => exact ⟨pf_brk, rfl, 2, r_brk⟩
+  | cont => exact ⟨pf_cont, rfl, 2, r_cont⟩
+  | whileE _ _ hadj ihc ihb =>
+    obtain ⟨pc, tc, nc, hc⟩ := ihc
+    exact ⟨pf_while, rfl, r_while hc pc tc (blockOK_of hadj ihb)⟩
+  | forIn wd _ _ hadj ihc ihb =>
+    obtain ⟨pc, tc, nc, hc⟩ := ihc
+    exact ⟨pf_for, rfl, r_for' wd hc pc tc (blockOK_of hadj ihb)⟩
+  | ifNone _ _ hadj ihc ihb =>
+    obtain ⟨pc, tc, nc, hc⟩ := ihc
+    exact ⟨pf_if_none, rfl, r_if_none hc pc tc (blockOK_of hadj ihb)⟩
+  | ifSome _ _ hadj _ hadj2 ihc ihb ihb2 =>
+    obtain ⟨pc, tc, nc, hc⟩ := ihc
+    exact ⟨pf_if_some, rfl, r_if_some hc pc tc (blockOK_of hadj ihb) (blockOK_of hadj2 ihb2)⟩
+  | @matchE s cases _ hpat _ ihs ihc =>
+    obtain ⟨ps, ts, ns, hs⟩ := ihs
+    refine ⟨pf_match, rfl, r_match hs ps ts ?_⟩
+    rintro ⟨p, ⟨es⟩⟩ hx
+    exact ⟨(hpat p es hx).1, blockOK_of (hpat p es hx).2 (fun e he => ihc p es e hx he)⟩
+  | tryE _ hadj vx _ hadj2 ihb ihb2 =>
+    exact ⟨pf_try, rfl, r_try (blockOK_of hadj ihb) vx (blockOK_of hadj2 ihb2)⟩
+  | ofClosed _ ih =>
+    obtain ⟨pe, te, n, he⟩ := ih
+    refine ⟨pe, te, n, ?_⟩
+    intro b fuel ln first i rest d toks Q _ hf hD hfo _ ha
+    exact he b fuel ln first i rest d toks Q (fun h => by cases h) hf hD hfo (fun h => by cases h) ha
+  | binop _ hop _ ihl ihr =>
+    obtain ⟨pl, tl, nl, hl⟩ := ihl
+    obtain ⟨pr, tr, nr, hr⟩ := ihr
+    exact ⟨pf_binop pl pr tr, rfl, nl + nr + 3, r_binop hl hr pl tl pr hop⟩
+  | @ofChain e tr _ ih =>
+    obtain ⟨pe, te, n, he⟩ := ih
+    refine ⟨pe, ?_, n + 1, FU.of_R he⟩
+    cases tr <;> simp [NoTail] <;> exact te
+  | @letE dst h e tr wd wh _ ih =>
+    obtain ⟨pe, te, n, he⟩ := ih
+    refine ⟨pf_let' pe, ?_, fu_let' wd wh he pe⟩
+    cases tr <;> simp [NoTail, tailRet] at te ⊢ <;> exact te
+  | @assign x e tr hx _ ih =>
+    obtain ⟨pe, te, n, he⟩ := ih
+    refine ⟨pf_assign hx pe, ?_, n + 3, fu_assign hx he pe⟩
+    cases tr <;> simp [NoTail, tailRet] at te ⊢ <;> exact te
+  | @update op x e tr hop hx _ ih =>
+    obtain ⟨pe, te, n, he⟩ := ih
+    refine ⟨pf_update hx pe, ?_, n + 3, fu_update hop hx he pe⟩
+    cases tr <;> simp [NoTail, tailRet] at te ⊢ <;> exact te
+  | retNone => exact ⟨pf_ret_none, trivial, 3, fu_ret_none⟩
+  | @retSome e tr _ ih =>
+    obtain ⟨pe, te, n, he⟩ := ih
+    refine ⟨pf_ret_some pe, ?_, n + 3, fu_ret_some he pe⟩
+    cases tr <;> simp [NoTail, tailRet] at te ⊢ <;> exact te
+
+/-- **Round trip for complete expressions / statements.** -/
+theorem parse_print_expr {e : Expr} {tr : Bool} (h : WT (.full tr) e) :
+    ∃ n, ∀ (fuel ln : Nat) (first : Bool) (i : Nat) (rest : List Tok) (d : List DiagKind) (toks : Toks),
+      n ≤ fuel → toks.drop i = lexAux false ln (printExpr first e) ++ rest → Stop e ln rest →
+      ∃ r, parseExpression toks false fuel ⟨i, d⟩ = .ok r ⟨i + (lexAux false ln (printExpr first e)).length, d⟩ ∧
+        r.e = e := by
+  obtain ⟨_, _, n, hn⟩ := wt_all h
+  refine ⟨n, ?_⟩
+  intro fuel ln first i rest d toks hf hD hs
+  obtain ⟨r, s', h1, h2, _, rfl⟩ := hn fuel ln first i rest d toks hf hD hs
+  exact ⟨r, h1, h2⟩
+
+theorem blockOK_wt {es : List Expr} (h : ∀ e ∈ es, WT (.full true) e) (hadj : Adj es) : BlockOK es :=
+  blockOK_of hadj (fun e he => wt_all (h e he))
+
+/-! ### Well-formed top-level items -/
+
+/-- The items covered by the round trip: every constructor of `Item`. -/
+inductive WTI : Item → Prop
+  | func {pub : Bool} {name : String} {tps : List String} {ps : List Param} {r : Option TypeHint} {es : List Expr} :
+      ValidName name → WTF tps ps r → (∀ e ∈ es, WT (.full true) e) → Adj es →
+      WTI (.func pub name (.mk tps ps r (.mk es)))
+  | method {pub : Bool} {name recv : String} {rh : TypeHint} {tps : List String} {ps : List Param}
+      {r : Option TypeHint} {es : List Expr} :
+      ValidName name → WTF tps (⟨recv, some rh⟩ :: ps) r → (∀ e ∈ es, WT (.full true) e) → Adj es →
+      WTI (.method pub name recv rh (.mk tps ps r (.mk es)))
+  | test {name : String} {es : List Expr} : ValidName name → (∀ e ∈ es, WT (.full true) e) → Adj es →
+      WTI (.test name (.mk es))
+  | enum {pub : Bool} {name : String} {tps : List String} {vs : List Variant} : ValidName name →
+      (∀ x ∈ tps, ValidName x) → (∀ v ∈ vs, VariantOK v) → WTI (.enum pub name tps vs)
+  | struct {pub : Bool} {name : String} {tps : List String} {fs : List StructField} : ValidName name →
+      (∀ x ∈ tps, ValidName x) → (∀ f ∈ fs, SFieldOK f) → WTI (.struct pub name tps fs)
+  | importI {path : String} {al : Option String} : (∀ a, al = some a → ValidName a) → WTI (.importI path al)
+  | expr {e : Expr} : WT (.full true) e → (∀ s tl, printExpr true e = PTok.t s true :: tl → s ∉ defKw) → WTI (.expr e)
+  | block {es : List Expr} : (∀ e ∈ es, WT (.full true) e) → Adj es → WTI (.block (.mk es))
+
+theorem istop_sub_bad : ∀ x ∈ istopSet, x ∈ badFirst := by decide
+
+theorem pubTok_head (pub : Bool) (kw : String) (hk : kw ∉ istopSet) (X : List PTok) :
+    ∃ s tl, (∀ first, pubTok first pub kw ++ X = PTok.t s first :: tl) ∧ s ∉ istopSet := by
+  cases pub with
+  | false => exact ⟨kw, X, fun first => by simp [pubTok], hk⟩
+  | true => exact ⟨"public", w kw :: X, fun first => by simp [pubTok], by decide⟩
+
+theorem vn_ninv {name : String} (vn : ValidName name) : isPlaceholderName name = false := vn.notPh
+
+theorem wti_ok {it : Item} (h : WTI it) : ItemOK it := by
+  cases h with
+  | @func pub name tps ps r es vn wf hb hadj =>
+    obtain ⟨N, hN⟩ := item_func (pub := pub) vn wf (blockOK_wt hb hadj)
+    refine ⟨⟨N, fun fuel ln first i rest d toks hf hD _ => hN fuel ln first i rest d toks hf hD⟩, ?_, vn_ninv vn⟩
+    obtain ⟨s, tl, h1, h2⟩ := pubTok_head pub "fun" (by decide) ([w name] ++ printFun (.mk tps ps r (.mk es)))
+    exact ⟨s, tl, fun first => by rw [← h1 first]; simp [printItem], h2⟩
+  | @method pub name recv rh tps ps r es vn wf hb hadj =>
+    obtain ⟨N, hN⟩ := item_method (pub := pub) vn wf (blockOK_wt hb hadj)
+    refine ⟨⟨N, fun fuel ln first i rest d toks hf hD _ => hN fuel ln first i rest d toks hf hD⟩, ?_, vn_ninv vn⟩
+    obtain ⟨s, tl, h1, h2⟩ := pubTok_head pub "method" (by decide)
+      ([w name] ++ printFun (.mk tps (⟨recv, some rh⟩ :: ps) r (.mk es)))
+    exact ⟨s, tl, fun first => by rw [← h1 first]; simp [printItem], h2⟩
+  | @test name es vn hb hadj =>
+    obtain ⟨N, hN⟩ := item_test vn (blockOK_wt hb hadj)
+    refine ⟨⟨N, fun fuel ln first i rest d toks hf hD _ => hN fuel ln first i rest d toks hf hD⟩, ?_, vn_ninv vn⟩
+    exact ⟨"test", _, fun first => by simp only [printItem, List.cons_append]; rfl, by decide⟩
+  | @enum pub name tps vs vn htps hvs =>
+    obtain ⟨N, hN⟩ := item_enum (pub := pub) vn htps hvs
+    refine ⟨⟨N, fun fuel ln first i rest d toks hf hD _ => hN fuel ln first i rest d toks hf hD⟩, ?_, vn_ninv vn⟩
+    obtain ⟨s, tl, h1, h2⟩ := pubTok_head pub "enum" (by decide)
+      ([w name] ++ printTParams tps ++ [w "{"] ++ vs.flatMap printVariant ++ [PTok.nl, w "}"])
+    exact ⟨s, tl, fun first => by rw [← h1 first]; simp [printItem], h2⟩
+  | @struct pub name tps fs vn htps hfs =>
+    obtain ⟨N, hN⟩ := item_struct (pub := pub) vn htps hfs
+    refine ⟨⟨N, fun fuel ln first i rest d toks hf hD _ => hN fuel ln first i rest d toks hf hD⟩, ?_, vn_ninv vn⟩
+    obtain ⟨s, tl, h1, h2⟩ := pubTok_head pub "struct" (by decide)
+      ([w name] ++ printTParams tps ++ [w "{"] ++ fs.flatMap printStructField ++ [PTok.nl, w "}"])
+    exact ⟨s, tl, fun first => by rw [← h1 first]; simp [printItem], h2⟩
+  | @importI path al hal =>
+    refine ⟨⟨0, fun fuel ln first i rest d toks _ hD hs => item_import hal fuel ln first i rest d toks hD ?_⟩, ?_, rfl⟩
+    · intro hn; subst hn; exact hs
+    · cases al with
+      | none => exact ⟨"import", _, fun first => by simp only [printItem, List.cons_append]; rfl, by decide⟩
+      | some a => exact ⟨"import", _, fun first => by simp only [printItem, List.cons_append]; rfl, by decide⟩
+  | @expr e he htop =>
+    obtain ⟨pe, _, n, hn⟩ := wt_all he
+    refine ⟨⟨n, fun fuel ln first i rest d toks hf hD hs => item_expr hn pe htop fuel ln first i rest d toks hf hD hs⟩, ?_,
+      pe.ninv⟩
+    obtain ⟨s, tl, h1, h2⟩ := pe.hd
+    exact ⟨s, tl, fun first => by simp [printItem, h1], fun hm => h2 (istop_sub_bad s hm)⟩
+  | @block es hb hadj =>
+    obtain ⟨N, hN⟩ := item_block (blockOK_wt hb hadj)
+    refine ⟨⟨N, fun fuel ln first i rest d toks hf hD _ => hN fuel ln first i rest d toks hf hD⟩, ?_, rfl⟩
+    exact ⟨"{", printBlockItems es ++ [PTok.nl, w "}"], fun first => by simp [printItem, printBlock, w], by decide⟩
+
+/-- **Whole files**: a list of well-formed items, printed and lexed, parses back to exactly the list,
+consuming every token, with no diagnostics. -/
+theorem parse_print_items (its : List Item) (h : ∀ it ∈ its, WTI it) (hadj : IAdj its) :
+    ∃ N, ∀ fuel, N ≤ fuel →
+      parseItems fuel (lexOf 0 (printItems its)) = .ok its ⟨(lexOf 0 (printItems its)).length, []⟩ :=
+  items_roundtrip its (fun it hit => wti_ok (h it hit)) hadj
+
+end RT
